@@ -30,7 +30,25 @@ From Coq Require Import Lia.
 Open Scope nat_scope.
 
 (* ================================================================ the relation on whole states *)
-Definition strip_cap (env : fenv) : fenv := {| locals := locals env; captured := []; cur := cur env |}.
+(* the environment a call-free expression is evaluated in: its own scopes without the hidden loop counters *)
+Definition strip_sc (sc : scope) : scope := filter (fun kv => negb (str_eqb (fst kv) hid)) sc.
+Definition strip_cap (env : fenv) : fenv := {| locals := map strip_sc (locals env); captured := []; cur := cur env |}.
+Lemma assoc_strip : forall x sc, x <> hid -> assoc x (strip_sc sc) = assoc x sc.
+Proof.
+  intros x. induction sc as [|[k v] sc IH]; intros Hx; [reflexivity|]. cbn [strip_sc filter fst assoc].
+  destruct (str_eqb k hid) eqn:E; cbn [negb].
+  - apply str_eqb_iff in E. subst k. rewrite str_eqb_neq by congruence. now apply IH.
+  - cbn [assoc]. destruct (str_eqb k x); [reflexivity|now apply IH].
+Qed.
+Lemma assoc_strip_hid : forall sc, assoc hid (strip_sc sc) = None.
+Proof.
+  induction sc as [|[k v] sc IH]; [reflexivity|]. cbn [strip_sc filter fst].
+  destruct (str_eqb k hid) eqn:E; cbn [negb]; [exact IH|]. cbn [assoc]. rewrite E. exact IH.
+Qed.
+Lemma lookup_strip : forall x l, x <> hid -> lookup_scopes x (map strip_sc l) = lookup_scopes x l.
+Proof. intros x l Hx. induction l as [|sc l IH]; [reflexivity|]. cbn [map lookup_scopes]. now rewrite assoc_strip, IH. Qed.
+Lemma lookup_strip_hid : forall l, lookup_scopes hid (map strip_sc l) = None.
+Proof. induction l as [|sc l IH]; [reflexivity|]. cbn [map lookup_scopes]. now rewrite assoc_strip_hid. Qed.
 
 Definition popn (m : nat) (env : fenv) : fenv :=
   {| locals := skipn m (locals env); captured := captured env; cur := cur env |}.
@@ -81,7 +99,7 @@ Record Rg (env : fenv) (s : rstate) (g : gstate) : Prop := {
   Rg_bij : bij (locals env) (frames g);
   Rg_out : out g = rout s;
   Rg_base : skipn (length (locals env)) (frames g) = base;
-  Rg_un : forall x, lookup_scopes x (locals env) <> None -> uname x \/ In x lfuns;
+  Rg_un : forall x, lookup_scopes x (locals env) <> None -> uname x \/ In x lfuns \/ x = hid;
   Rg_ns : NS (locals env);
   Rg_pins : pins_ok pins (locals env) (frames g) (store s) (cells g);
   Rg_nd : frames_nd (frames g);
@@ -96,9 +114,11 @@ Record Rg (env : fenv) (s : rstate) (g : gstate) : Prop := {
 Definition Rst (env : fenv) (s : rstate) (a : act) (g : gstate) : Prop :=
   Rg env s g /\ a_ops a = [] /\ length (locals env) <= S (a_ss a).
 
-(* B is EXACTLY the set of names bound in the current function's scopes (static scoping is exact in the fragment) *)
+(* B is EXACTLY the set of names bound in the current function's scopes (static scoping is exact in the fragment);
+   the hidden counters of anonymous loops are not tracked *)
 Definition bound_in (B : list str) (env : fenv) : Prop :=
-  (forall x, lookup_scopes x (locals env) <> None <-> In x B \/ In x lfuns) /\ (forall x, In x B -> ~ In x funs).
+  (forall x, x <> hid -> (lookup_scopes x (locals env) <> None <-> In x B \/ In x lfuns)) /\
+  (forall x, In x B -> ~ In x funs /\ x <> hid).
 
 (* a statement changes only the innermost scope (and the store) *)
 Definition same_tl (env env' : fenv) : Prop := tl (locals env') = tl (locals env) /\ locals env' <> [].
@@ -154,9 +174,9 @@ Lemma err_rel_s_of : forall f e, err_rel f e -> err_rel_s f e.
 Proof. intros f e H. destruct f; cbn in *; auto; contradiction. Qed.
 
 Lemma bound_in_uname : forall B env x, bound_in B env -> uname0 x -> In x B -> uname x.
-Proof. intros B env x [_ H2] H0 Hin. split; [exact H0|exact (H2 x Hin)]. Qed.
+Proof. intros B env x [_ H2] H0 Hin. split; [exact H0|exact (proj1 (H2 x Hin))]. Qed.
 Lemma bound_in_look : forall B env x, bound_in B env -> In x B -> lookup_scopes x (locals env) <> None.
-Proof. intros B env x [H1 _] Hin. apply H1. now left. Qed.
+Proof. intros B env x [H1 H2] Hin. apply H1; [exact (proj2 (H2 x Hin))|now left]. Qed.
 
 Lemma In_mem_str : forall x l, In x l -> mem_str x l = true.
 Proof.
@@ -173,12 +193,12 @@ Lemma bound_in_assign : forall B env env' x, bound_in B env -> uname x ->
   bound_in (x :: B) env'.
 Proof.
   intros B env env' x [H1 H2] Hx Hl. split.
-  - intros y. rewrite (Hl y), (H1 y). cbn [In]. split; [intros [H|[H|H]]|intros [[H|H]|H]]; auto.
-  - intros y [<-|Hy]; [exact (uname_nfun _ Hx)|exact (H2 y Hy)].
+  - intros y Hy. rewrite (Hl y), (H1 y Hy). cbn [In]. split; [intros [H|[H|H]]|intros [[H|H]|H]]; auto.
+  - intros y [<-|Hy]; [split; [exact (uname_nfun _ Hx)|exact (uname_not_hid _ Hx)]|exact (H2 y Hy)].
 Qed.
 
 Lemma bound_in_eq : forall B env env', bound_in B env -> locals env' = locals env -> bound_in B env'.
-Proof. intros B env env' [H1 H2] E. split; [intros x; rewrite E; apply H1|exact H2]. Qed.
+Proof. intros B env env' [H1 H2] E. split; [intros x Hx; rewrite E; now apply H1|exact H2]. Qed.
 
 Lemma Rg_ext : forall env s g g' d lo hi, Rg env s g -> ext d lo hi g g' -> frames_nd (frames g') -> Rg env s g'.
 Proof.
@@ -219,8 +239,10 @@ Proof. intros env s g H. rewrite (Rfr_drop _ _ _ _ (Rg_fr _ _ _ H)). exact (Rg_b
 Lemma Rg_Renv : forall env s a g, Rg env s g -> Renv (strip_cap env) s a g.
 Proof.
   intros env s a g [Hfr _ _ _ Hun _ _ _ Hfp Hfl] x c v _ Hl Hg Hfo. cbn [strip_cap locals captured] in Hl. rewrite app_nil_r in Hl.
+  assert (Hxh : x <> hid) by (intros ->; rewrite lookup_strip_hid in Hl; discriminate).
+  rewrite (lookup_strip x _ Hxh) in Hl.
   assert (Hx : uname x).
-  { destruct (Hun x ltac:(congruence)) as [Hx|Hx]; [exact Hx|exfalso].
+  { destruct (Hun x ltac:(congruence)) as [Hx|[Hx|Hx]]; [exact Hx| |congruence]. exfalso.
     (* a function name: its cell holds a closure, not a first-order value *)
     apply Hlfuns in Hx. pose proof (proj1 (Hfck x) Hx) as Hne.
     destruct (assoc x fcells) as [[[[c0 c0'] cenv] cbf]|] eqn:E; [|congruence].
@@ -269,7 +291,8 @@ Lemma store_rel : forall env s g x v env' s', Rg env s g -> uname x -> first_ord
   assign env s x v = (env', s') ->
   exists g', store_var g x (inj v) = Some g' /\ Rg env' s' g' /\ same_tl env env' /\
              (forall y, lookup_scopes y (locals env') <> None <-> (y = x \/ lookup_scopes y (locals env) <> None)) /\
-             tl (frames g') = tl (frames g).
+             tl (frames g') = tl (frames g) /\
+             (forall z, z <> x -> find_in_function z (frames g') = find_in_function z (frames g)).
 Proof.
   intros [l cap cu] [st ro] [cs fs o tr] x v env' s' [Hfr Hb Ho Hbase Hun Hns Hpins Hnd Hfp Hfl] Hx Hfo Ha.
   cbn [locals captured store rout cells frames out] in *.
@@ -281,7 +304,7 @@ Proof.
     assert (Hp : pairs l fs cx cx').
     { destruct l as [|sc l]; [discriminate|]. destruct fs as [|f fs]; [discriminate|]. cbn [StmtRel.pairs]. left. exists x. auto. }
     destruct (cellrel_valid _ _ _ _ Hl) as [V1 V2].
-    split; [|split; [apply same_tl_refl; cbn [locals]; destruct l; [discriminate|discriminate]|split; [|reflexivity]]].
+    split; [|split; [apply same_tl_refl; cbn [locals]; destruct l; [discriminate|discriminate]|split; [|split; reflexivity]]].
     2:{ intros y. cbn [locals]. split; [auto|]. intros [->|H]; [congruence|exact H]. }
     constructor; cbn [sset cell_set store cells frames out rout locals captured]; try assumption.
     + apply Rfr_update; try assumption. intros cy cy' Hq. exact (Hb _ _ _ _ Hq Hp).
@@ -291,13 +314,13 @@ Proof.
     destruct fs as [|f fs]; [cbn in Hfr; contradiction|].
     unfold declare, alloc in Ha. cbn [locals store rout captured cur] in Ha. inversion Ha; subst env' s'.
     unfold bind_local, cell_new. cbn [frames cells out trace with_frames].
-    eexists. split; [reflexivity|]. cbn [locals]. split; [|split; [|split]].
+    eexists. split; [reflexivity|]. cbn [locals]. split; [|split; [|split; [|split]]].
     + constructor; cbn [store cells frames out rout locals captured]; try assumption.
       * apply Rfr_declare; assumption.
       * apply (bij_declare st cs); assumption.
       * intros y Hy. cbn [lookup_scopes] in Hy. destruct (list_eq_dec N.eq_dec y x) as [->|Hne]; [left; exact Hx|].
         rewrite assoc_set_other in Hy by exact Hne. apply Hun. exact Hy.
-      * apply NS_declare; assumption.
+      * apply NS_declare; [assumption|right; exact E1].
       * apply pins_declare_. exact Hpins.
       * apply (nd_top f fs); [exact Hnd|]. apply keys_nd_assoc_set. inversion Hnd; assumption.
       * apply pins_declare_. exact Hfp.
@@ -310,6 +333,7 @@ Proof.
       * rewrite assoc_set_same. split; [auto|discriminate].
       * rewrite assoc_set_other by exact Hne. split; [auto|]. intros [E|H]; [congruence|exact H].
     + reflexivity.
+    + intros z Hz. cbn [with_frames frames find_in_function vars lab]. now rewrite assoc_set_other.
 Qed.
 
 (* ---------------------------------------------------------------- x op= v : sset vs cell_set on a related pair *)
@@ -670,7 +694,40 @@ Section Sim.
   Qed.
 
   (* ---------------------------------------------------------------- the statement carried by the induction *)
-  Definition post (pins : pinset) (sl : option nat) (bt ct fin : nat) (B' : list str) (env : fenv) (fs0 : list frame)
+  (* the hidden registers L#j, j <= lr, of the enclosing loops are not rebound (statements at register level lr only
+     bind L#(lr+1), L#(lr+2), ...) *)
+  Definition lkeep (lr : nat) (fs fs' : list frame) : Prop :=
+    forall j, j <= lr -> find_in_function (lregn j) fs' = find_in_function (lregn j) fs.
+  Lemma lkeep_refl : forall lr fs, lkeep lr fs fs.
+  Proof. intros lr fs j _. reflexivity. Qed.
+  Lemma lkeep_trans : forall lr f1 f2 f3, lkeep lr f1 f2 -> lkeep lr f2 f3 -> lkeep lr f1 f3.
+  Proof. intros lr f1 f2 f3 H1 H2 j Hj. now rewrite (H2 j Hj), (H1 j Hj). Qed.
+  Lemma lkeep_mono : forall lr lr' fs fs', lr <= lr' -> lkeep lr' fs fs' -> lkeep lr fs fs'.
+  Proof. intros lr lr' fs fs' Hle H j Hj. apply H. lia. Qed.
+  Lemma lkeep_eq : forall lr fs fs', fs' = fs -> lkeep lr fs fs'.
+  Proof. intros lr fs fs' ->. apply lkeep_refl. Qed.
+  Lemma lkeep_nonreg : forall lr fs fs', (forall y, (forall k, y <> reg k) -> src_name y \/ (exists j, y = lregn j) -> find_in_function y fs' = find_in_function y fs) -> lkeep lr fs fs'.
+  Proof. intros lr fs fs' H j _. apply H; [intros k E; discriminate E|right; eauto]. Qed.
+
+  (* expression code binds expression registers #k only: every loop register is kept *)
+  Definition lkeepA (fs fs' : list frame) : Prop :=
+    forall j, find_in_function (lregn j) fs' = find_in_function (lregn j) fs.
+  Lemma lkeepA_refl : forall fs, lkeepA fs fs.
+  Proof. intros fs j. reflexivity. Qed.
+  Lemma lkeepA_trans : forall f1 f2 f3, lkeepA f1 f2 -> lkeepA f2 f3 -> lkeepA f1 f3.
+  Proof. intros f1 f2 f3 H1 H2 j. now rewrite (H2 j), (H1 j). Qed.
+  Lemma lkeepA_lkeep : forall lr fs fs', lkeepA fs fs' -> lkeep lr fs fs'.
+  Proof. intros lr fs fs' H j _. apply H. Qed.
+  Lemma lkeepA_eq : forall fs fs', fs' = fs -> lkeepA fs fs'.
+  Proof. intros fs fs' ->. apply lkeepA_refl. Qed.
+  Lemma lregn_not_reg : forall j k, lregn j <> reg k.
+  Proof. intros j k E. discriminate E. Qed.
+  Lemma lkeepA_ext : forall d lo hi g g', ext d lo hi g g' -> lkeepA (frames g) (frames g').
+  Proof. intros d lo hi g g' He j. apply (ext_find _ _ _ _ _ He). intros (k & _ & _ & E). exact (lregn_not_reg _ _ E). Qed.
+  Lemma lkeepA_other : forall fs fs' y, (forall k, y <> lregn k) -> (forall z, z <> y -> find_in_function z fs' = find_in_function z fs) -> lkeepA fs fs'.
+  Proof. intros fs fs' y Hy H j. apply H. apply not_eq_sym. apply Hy. Qed.
+
+  Definition post (pins : pinset) (lr : nat) (sl : option nat) (bt ct fin : nat) (B' : list str) (env : fenv) (fs0 : list frame)
              (a : act) (g : gstate) (r : sres_) : Prop :=
     match r with
     | SOk sig env' s' =>
@@ -678,13 +735,13 @@ Section Sim.
       match sig with
       | SigNormal => bound_in B' env' /\
           exists a' g', xrun prog name code a g a' g' /\ a_ip a' = fin /\ Rst pins env' s' a' g' /\ act_same a a' /\
-                        tl (frames g') = tl fs0
+                        tl (frames g') = tl fs0 /\ lkeep lr fs0 (frames g')
       | SigBreak => exists m a' g', sl = Some m /\
           xrun prog name code a g a' g' /\ a_ip a' = bt /\ Rst pins (popn m env') s' a' g' /\ act_same a a' /\
           frames g' = skipn m fs0
       | SigContinue => exists m a' g', sl = Some m /\
           xrun prog name code a g a' g' /\ a_ip a' = ct /\ Rst pins (popn (m - 1) env') s' a' g' /\ act_same a a' /\
-          tl (frames g') = skipn m fs0
+          tl (frames g') = skipn m fs0 /\ lkeep lr (skipn (m - 1) fs0) (frames g')
       | SigReturn None => False
       | SigReturn (Some v) => exists env'' a' g',
           xrun prog name code a g a' g' /\ nth_error code (a_ip a') = Some (mkI OP_RET []) /\
@@ -708,23 +765,23 @@ Section Sim.
   Definition endok (fin : nat) (r : bool) : Prop := fin < length code \/ (r = true /\ fin = length code).
 
   Definition stmt_spec (st : stmt) : Prop :=
-    forall pins lr il sl bt ct fuel k a g env s B, fuel <= FU ->
+    forall pins lr il sl bt ct fuel k a g env s B, fuel <= FU -> lr <= 2 * k ->
       ok_stmt FT SP il B st = true -> bound_in B env ->
       items_at bt ct k (sitems c lr sl st) -> endok (k + length (sitems c lr sl st)) (is_ret st) ->
       lc_ok il sl bt ct env (k + length (sitems c lr sl st)) ->
       a_ip a = k -> a_cb a = cb -> Rst pins env s a g ->
-      post pins sl bt ct (k + length (sitems c lr sl st)) (after B st) env (frames g) a g (Eval.exec fuel env st s).
+      post pins lr sl bt ct (k + length (sitems c lr sl st)) (after B st) env (frames g) a g (Eval.exec fuel env st s).
 
   Fixpoint after_l (B : list str) (l : list stmt) : list str :=
     match l with [] => B | st :: l => after_l (after B st) l end.
 
   Definition block_spec (l : list stmt) : Prop :=
-    forall pins lr il sl bt ct fuel k a g env s B, fuel <= FU ->
+    forall pins lr il sl bt ct fuel k a g env s B, fuel <= FU -> lr <= 2 * k ->
       ok_block FT SP il B l = true -> bound_in B env ->
       items_at bt ct k (bitems c lr sl l) -> endok (k + length (bitems c lr sl l)) (ends_ret l) ->
       lc_ok il sl bt ct env (k + length (bitems c lr sl l)) ->
       a_ip a = k -> a_cb a = cb -> Rst pins env s a g ->
-      post pins sl bt ct (k + length (bitems c lr sl l)) (after_l B l) env (frames g) a g (exec_block fuel env l s).
+      post pins lr sl bt ct (k + length (bitems c lr sl l)) (after_l B l) env (frames g) a g (exec_block fuel env l s).
 
   (* ---------------------------------------------------------------- expressions (ExprSim.sim_pure) *)
   Lemma expr_run_ext : forall pins e d fuel k a g env s,
@@ -746,11 +803,13 @@ Section Sim.
     assert (Hv : forall x, In x (used_e e) -> var_ok env0 s x).
     { intros x Hx. destruct (Hu x Hx) as [Hs Hin].
       destruct (Rg_lookup env s g x HR Hs Hin) as (c0 & c0' & v & E1 & _ & _ & E3 & Hfo & _).
-      split; [exact (uname_src _ Hs)|]. exists c0, v. cbn [env0 strip_cap locals captured]. rewrite app_nil_r. auto. }
+      split; [exact (uname_src _ Hs)|]. exists c0, v. cbn [env0 strip_cap locals captured]. rewrite app_nil_r.
+      rewrite (lookup_strip x _ (uname_not_hid _ Hs)). auto. }
     assert (Hag : forall x, In x (used_e e) -> agree env0 s env s x).
     { intros x Hx. destruct (Hu x Hx) as [Hs Hin].
       destruct (Rg_lookup env s g x HR Hs Hin) as (c0 & c0' & v & E1 & _ & _ & E3 & _).
-      exists c0, c0, v. cbn [env0 strip_cap locals captured]. rewrite app_nil_r. split; [exact E1|]. split; [exact E3|].
+      exists c0, c0, v. cbn [env0 strip_cap locals captured]. rewrite app_nil_r.
+      rewrite (lookup_strip x _ (uname_not_hid _ Hs)). split; [exact E1|]. split; [exact E3|].
       split; [now apply lookup_app_some|exact E3]. }
     destruct (eval_pure_congr e Hp fuel env0 s env s Hag) as [Hst0 Ecg]. rewrite Ecg.
     assert (Hsm : small (d + length (pcode d e) + 3)) by (eapply small_le; [|exact Hsmall]; lia).
@@ -775,7 +834,7 @@ Section Sim.
     match eval fuel env e s with
     | EVal v s' => s' = s /\ first_order v /\
                    exists g', xrun prog name code a g (upd a (k + length (pcode d e)) [inj v]) g' /\ Rg pins env s g' /\
-                              tl (frames g') = tl (frames g)
+                              tl (frames g') = tl (frames g) /\ lkeepA (frames g) (frames g')
     | EFail f s' => s' = s /\ exists e0 g', xfail prog name code a g e0 g' /\ err_rel f e0 /\ out g' = rout s
     | EFuel => True
     | ENoVal _ => False
@@ -785,7 +844,7 @@ Section Sim.
     pose proof (expr_run_ext pins e d fuel k a g env s Hp Hl Hu Hd Hc Hend Hip Hops HR) as H.
     destruct (eval fuel env e s) as [v s1|s1|f s1|]; try exact H.
     destruct H as (-> & Hfo & g' & R & HG & He). split; [reflexivity|]. split; [exact Hfo|]. exists g'.
-    split; [exact R|]. split; [exact HG|exact (ext_tail _ _ _ _ _ He)].
+    split; [exact R|]. split; [exact HG|]. split; [exact (ext_tail _ _ _ _ _ He)|exact (lkeepA_ext _ _ _ _ _ He)].
   Qed.
 
   Lemma expr_run : forall pins e d fuel k a g env s B,
@@ -795,7 +854,7 @@ Section Sim.
     match eval fuel env e s with
     | EVal v s' => s' = s /\ first_order v /\
                    exists g', xrun prog name code a g (upd a (k + length (pcode d e)) [inj v]) g' /\ Rg pins env s g' /\
-                              tl (frames g') = tl (frames g)
+                              tl (frames g') = tl (frames g) /\ lkeepA (frames g) (frames g')
     | EFail f s' => s' = s /\ exists e0 g', xfail prog name code a g e0 g' /\ err_rel f e0 /\ out g' = rout s
     | EFuel => True
     | ENoVal _ => False
@@ -808,9 +867,9 @@ Section Sim.
   Qed.
 
   (* the failing-expression case of every statement *)
-  Lemma post_expr_fail : forall pins sl bt ct fin B' env fs0 a g f s e0 g',
+  Lemma post_expr_fail : forall pins lr sl bt ct fin B' env fs0 a g f s e0 g',
     xfail prog name code a g e0 g' -> err_rel f e0 -> out g' = rout s ->
-    post pins sl bt ct fin B' env fs0 a g (SFailed f s).
+    post pins lr sl bt ct fin B' env fs0 a g (SFailed f s).
   Proof. intros. cbn [post]. apply fail_post_intro. exists e0, g'. split; [assumption|]. split; [now apply err_rel_s_of|assumption]. Qed.
 
   Lemma small_code : forall n, n <= length code -> small n.
@@ -1005,9 +1064,7 @@ Section Sim.
       + rewrite Hsrc, Hvm by assumption. exact (Hl y Hy).
     - intros c1 c1' c2 c2' H1 H2. exact (Hb _ _ _ _ (Hpairs _ _ H1) (Hpairs _ _ H2)).
     - intros y Hy. destruct (list_eq_dec N.eq_dec y x) as [->|Hne]; [left; exact Hx|]. apply Hun. now rewrite <- Hsrc.
-    - cbn [NS] in Hns |- *. destruct Hns as [H1 H2]. split; [|exact H2].
-      intros y Hy. apply H1. destruct (list_eq_dec N.eq_dec y x) as [->|Hne]; [congruence|].
-      now rewrite assoc_del_other in Hy.
+    - exact (NS_undeclare _ _ _ Hns).
     - apply pins_weaken_ in Hpins. eapply pins_sub_; [exact Hpins|exact Hpairs].
     - apply (nd_top f fs); assumption.
     - eapply pins_sub_; [exact Hfp|exact Hpairs].
@@ -1062,7 +1119,8 @@ Section Sim.
         exists g', xrun prog name code a g (upd a (pos + len) []) g' /\ Rg pins env s g' /\
           tl (frames g') = tl (frames g) /\
           (forall r0 v, r0 < k0 -> small r0 -> rv g r0 v -> rv g' r0 v) /\
-          (forall j v, nth_error vs' j = Some v -> rv g' (k0 + j) (inj v))
+          (forall j v, nth_error vs' j = Some v -> rv g' (k0 + j) (inj v)) /\
+          lkeepA (frames g) (frames g')
     | inr (EFail f s') => s' = s /\ exists e0 g', xfail prog name code a g e0 g' /\ err_rel f e0 /\ out g' = rout s
     | inr EFuel => True
     | inr _ => False
@@ -1078,7 +1136,7 @@ Section Sim.
     - cbn [evals_ argcode length args_res]. split; [reflexivity|]. exists []. rewrite app_nil_r. split; [reflexivity|].
       split; [reflexivity|]. split; [constructor|]. exists g. rewrite Nat.add_0_r. rewrite <- Hip, <- Hops, act_eta.
       split; [apply xrun_refl|]. split; [exact HG|]. split; [reflexivity|]. split; [auto|].
-      intros j v Hj. destruct j; discriminate.
+      split; [intros j v Hj; destruct j; discriminate|apply lkeepA_refl].
     - cbn [forallb] in Hok. apply Bool.andb_true_iff in Hok as [Hoe Hol].
       cbn [argcode] in *. rewrite !app_length in *. cbn [length] in *.
       apply code_at_app in Hc as [Hce Hc]. apply code_at_app in Hc as [Hi Hcl]. apply code_at_cons in Hi as [Hi _].
@@ -1104,7 +1162,7 @@ Section Sim.
                     ltac:(eapply small_le; [|exact Hsm]; lia) ltac:(lia)
                     ltac:(replace (S (pos + le)) with (pos + le + 1) by lia; exact Hcl) ltac:(lia) eq_refl eq_refl HG2) as Hl2.
       destruct (evals_ fuel env l s (v :: acc)) as [[vs s2]|r]; cbn [args_res] in Hl2 |- *.
-      + destruct Hl2 as (-> & vs' & -> & Hlv & Hfos & g3 & R3 & HG3 & Ht3 & Hlow3 & Hreg3).
+      + destruct Hl2 as (-> & vs' & -> & Hlv & Hfos & g3 & R3 & HG3 & Ht3 & Hlow3 & Hreg3 & Hlk3).
         split; [reflexivity|]. exists (v :: vs'). split; [cbn [rev]; now rewrite <- app_assoc|].
         split; [cbn [length]; now rewrite Hlv|]. split; [constructor; assumption|]. exists g3.
         replace (pos + (le + (1 + length (argcode (S k0) l)))) with (S (pos + le) + length (argcode (S k0) l)) by lia.
@@ -1118,12 +1176,14 @@ Section Sim.
             exists cj. split.
             + rewrite Hk2; [exact F1|]. intros E. apply reg_inj in E; [lia|exact Hs0|exact Hsk].
             + unfold cell_get in *. rewrite Hc2. rewrite nth_error_app1; [exact F2|]. apply nth_error_Some. cbn [trc add_trace cells]. congruence. }
-        split.
+        split; [|split].
         * intros r0 v0 Hr0 Hs0 Hrv. apply Hlow3; [lia|exact Hs0|]. apply Hstep; [lia|exact Hs0|auto|lia].
         * intros j v0 Hj. destruct j as [|j].
           -- cbn [nth_error] in Hj. inversion Hj; subst v0. rewrite Nat.add_0_r.
              apply Hlow3; [lia|exact Hsk|]. apply Hstep; [lia|exact Hsk|lia|reflexivity].
           -- cbn [nth_error] in Hj. replace (k0 + S j) with (S k0 + j) by lia. now apply Hreg3.
+        * eapply lkeepA_trans; [|exact Hlk3]. eapply lkeepA_trans; [exact (lkeepA_ext _ _ _ _ _ He1)|].
+          apply (lkeepA_other _ _ (reg k0)); [intros k E; discriminate E|]. intros z Hz. exact (Hk2 z Hz).
       + destruct r as [? ?|?|f s2|]; try exact Hl2.
         destruct Hl2 as (-> & e0 & g' & Hf & Hr & Ho). split; [reflexivity|]. exists e0, g'. split; [eapply xrun_fail; [exact R2|exact Hf]|]. auto.
   Qed.
@@ -1192,9 +1252,9 @@ Section Sim.
   Definition rhs_res (pins : pinset) (env : fenv) (fin : nat) (a : act) (g : gstate) (r : eres) : Prop :=
     match r with
     | EVal v s' => first_order v /\ exists a' g', xrun prog name code a g a' g' /\ a_ip a' = fin /\ a_ops a' = [inj v] /\
-          Rg pins env s' g' /\ tl (frames g') = tl (frames g) /\ act_same a a' /\ a_ss a' = a_ss a
+          Rg pins env s' g' /\ tl (frames g') = tl (frames g) /\ act_same a a' /\ a_ss a' = a_ss a /\ lkeepA (frames g) (frames g')
     | ENoVal s' => exists a' g', xrun prog name code a g a' g' /\ a_ip a' = fin /\ a_ops a' = [] /\
-          Rg pins env s' g' /\ tl (frames g') = tl (frames g) /\ act_same a a' /\ a_ss a' = a_ss a
+          Rg pins env s' g' /\ tl (frames g') = tl (frames g) /\ act_same a a' /\ a_ss a' = a_ss a /\ lkeepA (frames g) (frames g')
     | EFail f s' => fail_post f (exists e0 g', xfail prog name code a g e0 g' /\ err_rel_s f e0 /\ out g' = rout s')
     | EFuel => True
     end.
@@ -1211,7 +1271,7 @@ Section Sim.
       destruct (ok_expr_parts _ _ Hoe) as (Hp & _ & _). rewrite (xcode_pure c e Hp) in *.
       pose proof (expr_run pins e c fuel k a g env s B Hoe Hb ltac:(lia) Hc Hend eq_refl Hops HG) as He.
       destruct (eval fuel env e s) as [v s1|s1|f s1|]; cbn [rhs_res]; [|contradiction| |exact Logic.I].
-      - destruct He as (-> & Hfo & g1 & R1 & HG1 & Hf1). split; [exact Hfo|].
+      - destruct He as (-> & Hfo & g1 & R1 & HG1 & Hf1 & Hlk1). split; [exact Hfo|].
         exists (upd a (k + length (pcode c e)) [inj v]), g1. repeat (split; try assumption; try reflexivity).
       - destruct He as (-> & e0 & g' & Hf & Hr & Ho). apply fail_post_intro. exists e0, g'.
         split; [exact Hf|]. split; [now apply err_rel_s_of|exact Ho]. }
@@ -1238,7 +1298,7 @@ Section Sim.
       2:{ destruct r as [? ?|?|fl s1|]; try contradiction; cbn [rhs_res]; [|exact Logic.I].
           destruct Hargs as (-> & e0 & g' & Hf & Hr & Ho). apply fail_post_intro. exists e0, g'.
           split; [exact Hf|]. split; [now apply err_rel_s_of|exact Ho]. }
-      destruct Hargs as (-> & vs' & Evs & Hlv' & Hfos & g3 & R3 & HG3 & Ht3 & Hlow3 & Hreg3).
+      destruct Hargs as (-> & vs' & Evs & Hlv' & Hfos & g3 & R3 & HG3 & Ht3 & Hlow3 & Hreg3 & Hlk3).
       cbn [rev app] in Evs. subst vs'.
       rewrite (Rg_cur _ _ _ HG), Eself.
       set (a3 := upd a (k + la) []) in *.
@@ -1271,7 +1331,7 @@ Section Sim.
         + eapply Rg_val_keep; [exact HG4t|exact Hkeep].
         + rewrite (proj1 Hkeep). exact Htl4.
         + repeat split.
-        + reflexivity.
+        + split; [reflexivity|]. rewrite (proj1 Hkeep). change (frames g4t) with (frames g4). rewrite Hf4. exact Hlk3.
       - destruct Hcal as (fuel' & g6 & Hrun & Hkeep).
         exists (next_act (set_ops a4 []) None), g6. split; [|split; [|split; [|split; [|split; [|split]]]]].
         + eapply xrun_trans; [exact R4'|]. eapply xr_call; [exact Hi4'|reflexivity|exact Hx|exact Hrun|apply xr_refl].
@@ -1280,7 +1340,7 @@ Section Sim.
         + eapply Rg_val_keep; [exact HG4t|exact Hkeep].
         + rewrite (proj1 Hkeep). exact Htl4.
         + repeat split.
-        + reflexivity.
+        + split; [reflexivity|]. rewrite (proj1 Hkeep). change (frames g4t) with (frames g4). rewrite Hf4. exact Hlk3.
       - eapply fail_post_map; [|exact Hcal]. intros (fuel' & e0 & g6 & Hrun & Hr & Ho). exists e0, g6.
         split; [|split; assumption]. exists a4, g4. split; [exact R4'|]. right.
         exists i4, DCallSelf, fnm, cb, (map inj vs), (set_ops a4 []), g4t, fuel'. auto. }
@@ -1335,7 +1395,7 @@ Section Sim.
     2:{ destruct r as [? ?|?|fl s1|]; try contradiction; cbn [rhs_res]; [|exact Logic.I].
         destruct Hargs as (-> & e0 & g' & Hf & Hr & Ho). apply fail_post_intro. exists e0, g'.
         split; [eapply xrun_fail; [exact R2|exact Hf]|]. split; [now apply err_rel_s_of|exact Ho]. }
-    destruct Hargs as (-> & vs' & Evs & Hlv' & Hfos & g3 & R3 & HG3 & Ht3 & Hlow3 & Hreg3).
+    destruct Hargs as (-> & vs' & Evs & Hlv' & Hfos & g3 & R3 & HG3 & Ht3 & Hlow3 & Hreg3 & Hlk3).
     cbn [rev app] in Evs. subst vs'.
     set (a3 := upd a2 (S (S k) + la) []) in *.
     (* reload the arguments, then the callee *)
@@ -1381,7 +1441,9 @@ Section Sim.
       + eapply Rg_val_keep; [exact HG5t|exact Hkeep].
       + rewrite (proj1 Hkeep). exact Htl5.
       + repeat split.
-      + reflexivity.
+      + split; [reflexivity|]. rewrite (proj1 Hkeep). change (frames g5t) with (frames g4). rewrite Hf4.
+        eapply lkeepA_trans; [|exact Hlk3]. apply (lkeepA_other _ _ (reg (S c))); [intros k0 E; discriminate E|].
+        intros z Hz. exact (Hk2 z Hz).
     - destruct Hcal as (fuel' & g6 & Hrun & Hkeep).
       exists (next_act (set_ops a5 []) None), g6. split; [|split; [|split; [|split; [|split; [|split]]]]].
       + eapply xrun_trans; [exact R5|]. eapply xr_call; [exact Hi4'|apply dec_call|exact Hx|exact Hrun|apply xr_refl].
@@ -1390,7 +1452,9 @@ Section Sim.
       + eapply Rg_val_keep; [exact HG5t|exact Hkeep].
       + rewrite (proj1 Hkeep). exact Htl5.
       + repeat split.
-      + reflexivity.
+      + split; [reflexivity|]. rewrite (proj1 Hkeep). change (frames g5t) with (frames g4). rewrite Hf4.
+        eapply lkeepA_trans; [|exact Hlk3]. apply (lkeepA_other _ _ (reg (S c))); [intros k0 E; discriminate E|].
+        intros z Hz. exact (Hk2 z Hz).
     - eapply fail_post_map; [|exact Hcal]. intros (fuel' & e0 & g6 & Hrun & Hr & Ho). exists e0, g6.
       split; [|split; assumption]. exists a5, g5. split; [exact R5|]. right.
       exists i4, (DCall None), (floc f), cbf, (map inj vs), (set_ops a5 []), g5t, fuel'. auto using dec_call.
@@ -1405,7 +1469,7 @@ Section Sim.
 
   Lemma assign_correct : forall x e, stmt_spec (SAssign x e).
   Proof.
-    intros x e pins lr il sl bt ct fuel k a g env s B Hfu Hok Hb Hit Hend Hlc Hip Hcb HR. destruct Hend as [Hend|[Hend _]]; [|discriminate Hend].
+    intros x e pins lr il sl bt ct fuel k a g env s B Hfu Hlr Hok Hb Hit Hend Hlc Hip Hcb HR. destruct Hend as [Hend|[Hend _]]; [|discriminate Hend].
     destruct fuel as [|fuel]; [exact Logic.I|].
     cbn [ok_stmt] in Hok. rewrite !Bool.andb_true_iff in Hok. destruct Hok as [[Hx Hxf] Hoe].
     apply Bool.negb_true_iff in Hxf. pose proof (uname_of_b x Hx Hxf) as Hxu. clear Hx. rename Hxu into Hx.
@@ -1416,13 +1480,13 @@ Section Sim.
     pose proof (rhs_run pins e fuel k a g env s B ltac:(lia) Hoe Hb Hce ltac:(lia) Hip Hcb Hops HG) as He.
     rewrite exec_SAssign.
     destruct (eval fuel env e s) as [v s1|s1|f s1|]; cbn [rhs_res] in He; [|exact Logic.I|exact He|exact Logic.I].
-    destruct He as (Hfo & a1 & g1 & R1 & Hip1 & Hops1 & HG1 & Hf1 & Ha1 & Hss1).
+    destruct He as (Hfo & a1 & g1 & R1 & Hip1 & Hops1 & HG1 & Hf1 & Ha1 & Hss1 & Hlk1).
     destruct (assign env s1 x v) as [env' s'] eqn:Ea.
     destruct (store_rel env s1 (trc name a1 g1 (mkI OP_STORE [x])) x v env' s' (Rg_trc _ _ _ _ _ _ HG1) Hx Hfo Ea)
-      as (g2 & Hst & HG2 & Hd & Hbx & Htl).
+      as (g2 & Hst & HG2 & Hd & Hbx & Htl & Hoth).
     cbn [post]. split; [exact Hd|]. split.
     { cbn [after]. eapply bound_in_assign; eassumption. }
-    exists (set_ip (set_ops a1 []) (S (a_ip a1))), g2. split; [|split; [|split; [|split]]].
+    exists (set_ip (set_ops a1 []) (S (a_ip a1))), g2. split; [|split; [|split; [|split; [|split]]]].
     - eapply xrun_trans; [exact R1|].
       eapply (xstep_next prog name code a1 g1 _ _ (a_ip a1) (set_ops a1 [])); [reflexivity|rewrite Hip1; exact Hi|apply dec_store|].
       apply (exec_store x a1 _ (inj v)); [exact Hops1|exact Hst].
@@ -1431,11 +1495,13 @@ Section Sim.
       rewrite (same_tl_length _ _ (Rg_ne _ _ _ HG) Hd). exact Hss.
     - apply act_same_step. exact Ha1.
     - exact (eq_trans Htl Hf1).
+    - apply lkeepA_lkeep. eapply lkeepA_trans; [exact Hlk1|].
+      apply (lkeepA_other _ _ x); [intros k0; exact (uname_not_lregn _ _ Hx)|exact Hoth].
   Qed.
 
   Lemma print_correct : forall e, stmt_spec (SPrint e).
   Proof.
-    intros e pins lr il sl bt ct fuel k a g env s B Hfu Hok Hb Hit Hend Hlc Hip Hcb HR. destruct Hend as [Hend|[Hend _]]; [|discriminate Hend].
+    intros e pins lr il sl bt ct fuel k a g env s B Hfu Hlr Hok Hb Hit Hend Hlc Hip Hcb HR. destruct Hend as [Hend|[Hend _]]; [|discriminate Hend].
     destruct fuel as [|fuel]; [exact Logic.I|].
     cbn [ok_stmt] in Hok. rename Hok into Hoe.
     cbn [sitems] in *. rewrite app_length, map_length in *. cbn [length] in *.
@@ -1445,12 +1511,12 @@ Section Sim.
     pose proof (rhs_run pins e fuel k a g env s B ltac:(lia) Hoe Hb Hce ltac:(lia) Hip Hcb Hops HG) as He.
     rewrite exec_SPrint.
     destruct (eval fuel env e s) as [v s1|s1|f s1|]; cbn [rhs_res] in He; [|exact Logic.I|exact He|exact Logic.I].
-    destruct He as (Hfo & a1 & g1 & R1 & Hip1 & Hops1 & HG1 & Hf1 & Ha1 & Hss1).
+    destruct He as (Hfo & a1 & g1 & R1 & Hip1 & Hops1 & HG1 & Hf1 & Ha1 & Hss1 & Hlk1).
     destruct (show_inj v Hfo) as (l & Hrs & Hsh). rewrite Hrs.
     set (g2 := emit_line (trc name a1 g1 (mkI OP_PRINTN [s_star])) l).
     set (a2 := set_ip a1 (S (a_ip a1))).
     cbn [post]. split; [apply same_tl_refl; exact (Rg_ne _ _ _ HG)|]. split; [exact Hb|].
-    exists (set_ip (set_ops a2 []) (S (a_ip a2))), (trc name a2 g2 (mkI OP_VOID [])). split; [|split; [|split; [|split]]].
+    exists (set_ip (set_ops a2 []) (S (a_ip a2))), (trc name a2 g2 (mkI OP_VOID [])). split; [|split; [|split; [|split; [|split]]]].
     - eapply xrun_trans; [exact R1|]. eapply xrun_trans.
       + eapply (xstep_next prog name code a1 g1 _ _ (a_ip a1) a1); [reflexivity|rewrite Hip1; exact Hi1|apply dec_printn|].
         apply (exec_print a1 _ (inj v) l); [exact Hops1|exact Hsh].
@@ -1461,11 +1527,12 @@ Section Sim.
       cbn [set_ip set_ops a_ss a2]. rewrite Hss1. exact Hss.
     - destruct Ha1 as (A1 & A2 & A3). repeat split; assumption.
     - exact Hf1.
+    - apply lkeepA_lkeep. exact Hlk1.
   Qed.
 
   Lemma expr_stmt_correct : forall e, stmt_spec (SExpr e).
   Proof.
-    intros e pins lr il sl bt ct fuel k a g env s B Hfu Hok Hb Hit Hend Hlc Hip Hcb HR. destruct Hend as [Hend|[Hend _]]; [|discriminate Hend].
+    intros e pins lr il sl bt ct fuel k a g env s B Hfu Hlr Hok Hb Hit Hend Hlc Hip Hcb HR. destruct Hend as [Hend|[Hend _]]; [|discriminate Hend].
     destruct fuel as [|fuel]; [exact Logic.I|].
     cbn [ok_stmt] in Hok. rename Hok into Hoe.
     cbn [sitems] in *. rewrite app_length, map_length in *. cbn [length] in *.
@@ -1475,25 +1542,26 @@ Section Sim.
     pose proof (rhs_run pins e fuel k a g env s B ltac:(lia) Hoe Hb Hce ltac:(lia) Hip Hcb Hops HG) as He.
     rewrite exec_SExpr.
     assert (Hdone : forall s1 a1 g1, xrun prog name code a g a1 g1 -> a_ip a1 = k + length (xcode c e) -> Rg pins env s1 g1 ->
-              tl (frames g1) = tl (frames g) -> act_same a a1 -> a_ss a1 = a_ss a ->
-              post pins sl bt ct (k + (length (xcode c e) + 1)) B env (frames g) a g (SOk SigNormal env s1)).
-    { intros s1 a1 g1 R1 Hip1 HG1 Hf1 Ha1 Hss1.
+              tl (frames g1) = tl (frames g) -> act_same a a1 -> a_ss a1 = a_ss a -> lkeepA (frames g) (frames g1) ->
+              post pins lr sl bt ct (k + (length (xcode c e) + 1)) B env (frames g) a g (SOk SigNormal env s1)).
+    { intros s1 a1 g1 R1 Hip1 HG1 Hf1 Ha1 Hss1 Hlk1.
       cbn [post]. split; [apply same_tl_refl; exact (Rg_ne _ _ _ HG)|]. split; [exact Hb|].
-      exists (set_ip (set_ops a1 []) (S (a_ip a1))), (trc name a1 g1 (mkI OP_VOID [])). split; [|split; [|split; [|split]]].
+      exists (set_ip (set_ops a1 []) (S (a_ip a1))), (trc name a1 g1 (mkI OP_VOID [])). split; [|split; [|split; [|split; [|split]]]].
       - eapply xrun_trans; [exact R1|].
         eapply (xstep_next prog name code a1 g1 _ _ (a_ip a1) (set_ops a1 [])); [reflexivity|rewrite Hip1; exact Hi1|apply dec_void|apply exec_void].
       - cbn [set_ip a_ip]. rewrite Hip1. lia.
       - split; [apply Rg_trc; exact HG1|]. split; [reflexivity|]. cbn [set_ip set_ops a_ss]. rewrite Hss1. exact Hss.
       - apply act_same_step. exact Ha1.
-      - exact Hf1. }
+      - exact Hf1.
+      - apply lkeepA_lkeep. exact Hlk1. }
     destruct (eval fuel env e s) as [v s1|s1|f s1|]; cbn [rhs_res] in He; [| |exact He|exact Logic.I].
-    - destruct He as (Hfo & a1 & g1 & R1 & Hip1 & Hops1 & HG1 & Hf1 & Ha1 & Hss1). eapply Hdone; eassumption.
-    - destruct He as (a1 & g1 & R1 & Hip1 & Hops1 & HG1 & Hf1 & Ha1 & Hss1). eapply Hdone; eassumption.
+    - destruct He as (Hfo & a1 & g1 & R1 & Hip1 & Hops1 & HG1 & Hf1 & Ha1 & Hss1 & Hlk1). eapply Hdone; eassumption.
+    - destruct He as (a1 & g1 & R1 & Hip1 & Hops1 & HG1 & Hf1 & Ha1 & Hss1 & Hlk1). eapply Hdone; eassumption.
   Qed.
 
   Lemma assert_correct : forall e sp, stmt_spec (SAssert e sp).
   Proof.
-    intros e sp pins lr il sl bt ct fuel k a g env s B Hfu Hok Hb Hit Hend Hlc Hip Hcb HR. destruct Hend as [Hend|[Hend _]]; [|discriminate Hend].
+    intros e sp pins lr il sl bt ct fuel k a g env s B Hfu Hlr Hok Hb Hit Hend Hlc Hip Hcb HR. destruct Hend as [Hend|[Hend _]]; [|discriminate Hend].
     destruct fuel as [|fuel]; [exact Logic.I|].
     cbn [ok_stmt] in Hok. rename Hok into Hoe.
     cbn [sitems] in *. rewrite app_length, map_length in *. cbn [length] in *.
@@ -1504,25 +1572,26 @@ Section Sim.
     rewrite exec_SAssert.
     destruct (eval fuel env e s) as [v s1|s1|f s1|]; [|contradiction| |exact Logic.I].
     2:{ destruct He as (-> & e0 & g' & Hf & Hr & Ho). eapply post_expr_fail; eassumption. }
-    destruct He as (-> & Hfo & g1 & R1 & HG1 & Hf1).
+    destruct He as (-> & Hfo & g1 & R1 & HG1 & Hf1 & Hlk1).
     set (k1 := k + length (pcode c e)) in *.
     set (a1 := upd a k1 [inj v]) in *.
     set (i1 := mkI OP_ASSERT [sp]) in *.
     pose proof (exec_assert sp a1 (trc name a1 g1 i1) (inj v) eq_refl) as Hx.
     assert (Hfail : forall f e0, exec_d (DAssert (Some sp)) a1 (trc name a1 g1 i1) = SFail e0 -> err_rel_s f e0 ->
-                                 post pins sl bt ct (k + (length (pcode c e) + 1)) B env (frames g) a g (SFailed f s)).
+                                 post pins lr sl bt ct (k + (length (pcode c e) + 1)) B env (frames g) a g (SFailed f s)).
     { intros f e0 Hex Hrel. cbn [post]. apply fail_post_intro. exists e0, (trc name a1 g1 i1). split; [|split; [exact Hrel|exact (Rg_out _ _ _ HG1)]].
       eapply xrun_fail; [exact R1|]. eapply xstep_fail; [reflexivity|exact Hi1|apply dec_assert|exact Hex]. }
     destruct v as [z|[|]|t| |p bd ev]; cbn [inj val_equals] in Hx; try contradiction.
     - eapply Hfail; [exact Hx|]. cbn. auto.
     - cbn [post]. split; [apply same_tl_refl; exact (Rg_ne _ _ _ HG)|]. split; [exact Hb|].
-      exists (upd a (S k1) []), (trc name a1 g1 i1). split; [|split; [|split; [|split]]].
+      exists (upd a (S k1) []), (trc name a1 g1 i1). split; [|split; [|split; [|split; [|split]]]].
       + eapply xrun_trans; [exact R1|].
         eapply (xstep_next prog name code a1 g1 _ _ k1 (set_ops a1 [])); [reflexivity|exact Hi1|apply dec_assert|exact Hx].
       + cbn. lia.
       + apply Rst_upd; [|exact Hss]. apply Rg_trc. exact HG1.
       + repeat split.
       + exact Hf1.
+      + apply lkeepA_lkeep. exact Hlk1.
     - eapply Hfail; [exact Hx|]. reflexivity.
     - eapply Hfail; [exact Hx|]. cbn. auto.
     - eapply Hfail; [exact Hx|]. cbn. right. eexists. reflexivity.
@@ -1530,7 +1599,7 @@ Section Sim.
 
   Lemma opassign_correct : forall x o e, stmt_spec (SOpAssign x o e).
   Proof.
-    intros x o e pins lr il sl bt ct fuel k a g env s B Hfu Hok Hb Hit Hend Hlc Hip Hcb HR. destruct Hend as [Hend|[Hend _]]; [|discriminate Hend].
+    intros x o e pins lr il sl bt ct fuel k a g env s B Hfu Hlr Hok Hb Hit Hend Hlc Hip Hcb HR. destruct Hend as [Hend|[Hend _]]; [|discriminate Hend].
     destruct fuel as [|fuel]; [exact Logic.I|].
     cbn [ok_stmt] in Hok. rewrite !Bool.andb_true_iff in Hok. destruct Hok as [[[Ho Hx] HxB] Hoe].
     apply src_nameb_ok in Hx. apply mem_str_In in HxB.
@@ -1542,7 +1611,7 @@ Section Sim.
     rewrite exec_SOpAssign.
     destruct (eval fuel env e s) as [v s1|s1|f s1|]; [|contradiction| |exact Logic.I].
     2:{ destruct He as (-> & e0 & g' & Hf & Hr & Ho'). eapply post_expr_fail; eassumption. }
-    destruct He as (-> & Hfo & g1 & R1 & HG1 & Hf1).
+    destruct He as (-> & Hfo & g1 & R1 & HG1 & Hf1 & Hlk1).
     set (k1 := k + length (pcode (S c) e)) in *.
     set (a1 := upd a k1 [inj v]) in *.
     set (i1 := mkI OP_BIN_OP_ASSIGN [binop_sym o ++ [61%N]; x]) in *.
@@ -1563,7 +1632,7 @@ Section Sim.
       set (g2 := cell_set g1t cx' (inj r)).
       set (a2 := set_ip (set_ops a1 [inj r]) (S k1)).
       cbn [post]. split; [apply same_tl_refl; exact (Rg_ne _ _ _ HG)|]. split; [exact Hb|].
-      exists (upd a (S (S k1)) []), (trc name a2 g2 (mkI OP_VOID [])). split; [|split; [|split; [|split]]].
+      exists (upd a (S (S k1)) []), (trc name a2 g2 (mkI OP_VOID [])). split; [|split; [|split; [|split; [|split]]]].
       + eapply xrun_trans; [exact R1|]. eapply xrun_trans.
         * eapply (xstep_next prog name code a1 g1 _ _ k1 (set_ops a1 [inj r])); [reflexivity|exact Hi1|apply dec_bin_op_assign|exact Hx2].
         * eapply (xstep_next prog name code a2 g2 _ _ (S k1) (set_ops a2 [])); [reflexivity|exact Hi2|apply dec_void|].
@@ -1572,6 +1641,7 @@ Section Sim.
       + apply Rst_upd; [|exact Hss]. apply Rg_trc. apply update_rel; assumption.
       + repeat split.
       + exact Hf1.
+      + apply lkeepA_lkeep. exact Hlk1.
     - destruct Hag as (-> & e0 & Hbo & Hrel). rewrite Hbo in Hx1.
       cbn [post]. apply fail_post_intro. exists e0, g1t. split; [|split; [now apply err_rel_s_of|exact (Rg_out _ _ _ HG1)]].
       eapply xrun_fail; [exact R1|]. eapply xstep_fail; [reflexivity|exact Hi1|apply dec_bin_op_assign|exact Hx1].
@@ -1596,7 +1666,7 @@ Section Sim.
 
   Lemma break_correct : stmt_spec SBreak.
   Proof.
-    intros pins lr il sl bt ct fuel k a g env s B Hfu Hok Hb Hit Hend Hlc Hip Hcb HR. destruct Hend as [Hend|[Hend _]]; [|discriminate Hend].
+    intros pins lr il sl bt ct fuel k a g env s B Hfu Hlr Hok Hb Hit Hend Hlc Hip Hcb HR. destruct Hend as [Hend|[Hend _]]; [|discriminate Hend].
     destruct fuel as [|fuel]; [exact Logic.I|].
     cbn [ok_stmt] in Hok. destruct Hlc as [Hsl Hlc]. specialize (Hsl Hok).
     destruct sl as [m|]; [|congruence]. destruct (Hlc m eq_refl) as (Hm1 & Hm2 & Hct & Hbt & Hlen & Hmc).
@@ -1617,7 +1687,7 @@ Section Sim.
 
   Lemma continue_correct : stmt_spec SContinue.
   Proof.
-    intros pins lr il sl bt ct fuel k a g env s B Hfu Hok Hb Hit Hend Hlc Hip Hcb HR. destruct Hend as [Hend|[Hend _]]; [|discriminate Hend].
+    intros pins lr il sl bt ct fuel k a g env s B Hfu Hlr Hok Hb Hit Hend Hlc Hip Hcb HR. destruct Hend as [Hend|[Hend _]]; [|discriminate Hend].
     destruct fuel as [|fuel]; [exact Logic.I|].
     cbn [ok_stmt] in Hok. destruct Hlc as [Hsl Hlc]. specialize (Hsl Hok).
     destruct sl as [m|]; [|congruence]. destruct (Hlc m eq_refl) as (Hm1 & Hm2 & Hct & Hbt & Hlen & Hmc).
@@ -1627,21 +1697,22 @@ Section Sim.
     set (i1 := mkI OP_JMP_POP [sN (ct - k); sN (m - 1)]) in *.
     destruct (popn_rel (m - 1) env s (trc name a g i1) (Rg_trc _ _ _ _ _ _ HG) ltac:(lia)) as (g2 & Hpop & HG2 & Hfr2 & _).
     cbn [post]. split; [apply same_tl_refl; exact (Rg_ne _ _ _ HG)|].
-    exists m, (set_ip a ct), g2. split; [reflexivity|]. split; [|split; [reflexivity|split; [|split]]].
+    exists m, (set_ip a ct), g2. split; [reflexivity|]. split; [|split; [reflexivity|split; [|split; [|split]]]].
     - eapply (xstep_gotopop prog name code a g i1 _ k _ (m - 1) a); [exact Hip|exact Hi| |apply exec_jmp_pop| |exact Hpop].
       + apply dec_jmp_pop2; apply small_code; lia.
       + rewrite Hip. rewrite goto_fwd by lia. f_equal. lia.
     - eapply Rst_popn; eassumption.
     - repeat split.
     - rewrite Hfr2. cbn [trc add_trace frames]. rewrite tl_skipn. f_equal. lia.
+    - apply lkeep_eq. rewrite Hfr2. reflexivity.
   Qed.
 
   (* ================================================================ sequencing *)
-  Lemma post_seq : forall pins sl bt ct fin B' env fs0 a g env1 a1 g1 r,
+  Lemma post_seq : forall pins lr sl bt ct fin B' env fs0 a g env1 a1 g1 r,
     xrun prog name code a g a1 g1 -> same_tl env env1 -> act_same a a1 ->
-    post pins sl bt ct fin B' env1 fs0 a1 g1 r -> post pins sl bt ct fin B' env fs0 a g r.
+    post pins lr sl bt ct fin B' env1 fs0 a1 g1 r -> post pins lr sl bt ct fin B' env fs0 a g r.
   Proof.
-    intros pins sl bt ct fin B' env fs0 a g env1 a1 g1 r Hrun Hd Hact H.
+    intros pins lr sl bt ct fin B' env fs0 a g env1 a1 g1 r Hrun Hd Hact H.
     destruct r as [sig env' s'|f s'|]; cbn [post] in *; [| |exact Logic.I].
     - destruct H as [Hd' H]. split; [eapply same_tl_trans; eassumption|].
       destruct sig as [| | |[v|]]; [| | | |exact H].
@@ -1665,20 +1736,23 @@ Section Sim.
   Qed.
 
   (* the reference frames may be replaced by any list with the same tail (break / continue pop >= 1 frame) *)
-  Lemma post_rebase : forall pins sl bt ct fin B' env fs1 fs0 a g r,
-    post pins sl bt ct fin B' env fs1 a g r -> tl fs1 = tl fs0 -> (forall m, sl = Some m -> 1 <= m) ->
-    post pins sl bt ct fin B' env fs0 a g r.
+  Lemma post_rebase : forall pins lr sl bt ct fin B' env fs1 fs0 a g r,
+    post pins lr sl bt ct fin B' env fs1 a g r -> tl fs1 = tl fs0 -> lkeep lr fs0 fs1 -> (forall m, sl = Some m -> 1 <= m) ->
+    post pins lr sl bt ct fin B' env fs0 a g r.
   Proof.
-    intros pins sl bt ct fin B' env fs1 fs0 a g r H Htl Hm.
+    intros pins lr sl bt ct fin B' env fs1 fs0 a g r H Htl Hlk Hm.
     destruct r as [sig env' s'|f s'|]; cbn [post] in *; [|exact H|exact Logic.I].
     destruct H as [Hd H]. split; [exact Hd|].
     destruct sig as [| | |rv]; [| | |exact H].
-    - destruct H as (HB & a' & g' & R & Hip & HR & Ha & Hf). split; [exact HB|]. exists a', g'.
-      repeat (split; [assumption|]). congruence.
+    - destruct H as (HB & a' & g' & R & Hip & HR & Ha & Hf & Hk). split; [exact HB|]. exists a', g'.
+      repeat (split; [assumption|]). split; [congruence|eapply lkeep_trans; eassumption].
     - destruct H as (m & a' & g' & Hsl & R & Hip & HR & Ha & Hf). exists m, a', g'.
       repeat (split; [assumption|]). rewrite Hf. apply skipn_tl_eq; [now apply Hm|exact Htl].
-    - destruct H as (m & a' & g' & Hsl & R & Hip & HR & Ha & Hf). exists m, a', g'.
-      repeat (split; [assumption|]). rewrite Hf. apply skipn_tl_eq; [now apply Hm|exact Htl].
+    - destruct H as (m & a' & g' & Hsl & R & Hip & HR & Ha & Hf & Hk). exists m, a', g'.
+      repeat (split; [assumption|]). split; [rewrite Hf; apply skipn_tl_eq; [now apply Hm|exact Htl]|].
+      pose proof (Hm m Hsl) as Hm1. destruct (m - 1) as [|m'] eqn:Em.
+      + cbn [skipn] in *. eapply lkeep_trans; eassumption.
+      + rewrite <- (skipn_tl_eq _ (S m') fs1 fs0 ltac:(lia) Htl). exact Hk.
   Qed.
 
   Lemma lc_ok_mono : forall il sl bt ct env env' hi hi', lc_ok il sl bt ct env hi -> hi' <= hi ->
@@ -1694,17 +1768,18 @@ Section Sim.
 
   Lemma sitems_pos : forall il B lr sl st, ok_stmt FT SP il B st = true -> 1 <= length (sitems c lr sl st).
   Proof.
-    intros il B lr sl st H. destruct st; try discriminate; cbn [sitems]; rewrite ?app_length; cbn [length]; try lia.
-    - destruct name0 as [x|]; [|discriminate]. destruct collide; [discriminate|]. rewrite ?app_length. cbn [length]. lia.
-    - destruct e as [e|]; [|discriminate]. rewrite app_length. cbn [length]. lia.
+    intros il B lr sl st H. destruct st; try discriminate.
+    all: try (rewrite sitems_SFrom; cbv zeta; repeat rewrite app_length; cbn [length]; lia).
+    all: cbn [sitems]; rewrite ?app_length; cbn [length]; try lia.
+    destruct e as [e|]; [|discriminate]. rewrite app_length. cbn [length]. lia.
   Qed.
 
   Lemma block_of_stmts : forall l, Forall stmt_spec l -> block_spec l.
   Proof.
-    induction l as [|st l IH]; intros HF pins lr il sl bt ct fuel k a g env s B Hfu Hok Hb Hit Hend Hlc Hip Hcb HR.
+    induction l as [|st l IH]; intros HF pins lr il sl bt ct fuel k a g env s B Hfu Hlr Hok Hb Hit Hend Hlc Hip Hcb HR.
     - destruct fuel as [|fuel]; [exact Logic.I|]. rewrite exec_block_nil. cbn [bitems length post after_l].
       split; [apply same_tl_refl; exact (Rg_ne _ _ _ (proj1 HR))|]. split; [exact Hb|]. exists a, g.
-      split; [apply xrun_refl|]. split; [lia|]. split; [exact HR|]. split; [apply act_same_refl|reflexivity].
+      split; [apply xrun_refl|]. split; [lia|]. split; [exact HR|]. split; [apply act_same_refl|]. split; [reflexivity|apply lkeep_refl].
     - pose proof (Forall_inv HF) as Hst. pose proof (Forall_inv_tail HF) as Hl. specialize (IH Hl).
       destruct fuel as [|fuel]; [exact Logic.I|]. rewrite exec_block_cons.
       cbn [ok_block] in Hok. apply Bool.andb_true_iff in Hok as [Hok1 Hok2].
@@ -1720,16 +1795,16 @@ Section Sim.
       { destruct l as [|st2 l2].
         - cbn [bitems length ends_ret] in *. destruct (Nat.eq_dec (k + length (sitems c lr sl st) + 0) (length code)); [right; auto|left; lia].
         - rewrite Nat.add_assoc in Hend. exact Hend. }
-      pose proof (Hst pins lr il sl bt ct fuel k a g env s B ltac:(lia) Hok1 Hb Hit1 Hend1
+      pose proof (Hst pins lr il sl bt ct fuel k a g env s B ltac:(lia) Hlr Hok1 Hb Hit1 Hend1
                       (lc_ok_mono il sl bt ct env env _ (k + length (sitems c lr sl st)) Hlc ltac:(lia) eq_refl) Hip Hcb HR) as H1.
       destruct (Eval.exec fuel env st s) as [sig env1 s1|f s1|]; [|exact H1|exact Logic.I].
       destruct sig as [| | |rv].
-      + cbn [post] in H1. destruct H1 as (Hd & HB1 & a1 & g1 & R1 & Hip1 & HR1 & Ha1 & Hf1).
-        pose proof (IH pins lr il sl bt ct fuel (k + length (sitems c lr sl st)) a1 g1 env1 s1 (after B st) ltac:(lia) Hok2 HB1 Hit2 Hend2
+      + cbn [post] in H1. destruct H1 as (Hd & HB1 & a1 & g1 & R1 & Hip1 & HR1 & Ha1 & Hf1 & Hlk1).
+        pose proof (IH pins lr il sl bt ct fuel (k + length (sitems c lr sl st)) a1 g1 env1 s1 (after B st) ltac:(lia) ltac:(lia) Hok2 HB1 Hit2 Hend2
                        (lc_ok_mono il sl bt ct env env1 _ (k + length (sitems c lr sl st) + length (bitems c lr sl l)) Hlc ltac:(lia) (same_tl_length _ _ (Rg_ne _ _ _ (proj1 HR)) Hd)) Hip1 (eq_trans (proj2 (proj2 Ha1)) Hcb) HR1) as H2.
         rewrite Nat.add_assoc.
         eapply post_seq; [exact R1|exact Hd|exact Ha1|].
-        eapply post_rebase; [exact H2|exact Hf1|exact (lc_ok_m _ _ _ _ _ _ Hlc)].
+        eapply post_rebase; [exact H2|exact Hf1|exact Hlk1|exact (lc_ok_m _ _ _ _ _ _ Hlc)].
       + exact H1.
       + exact H1.
       + exact H1.
@@ -1749,14 +1824,14 @@ Section Sim.
   Proof. reflexivity. Qed.
 
   (* after a normal completion at fin1 the machine runs on to fin2 (e.g. the `jmp` over the else branch) *)
-  Lemma post_extend : forall pins sl bt ct fin1 fin2 B' env fs0 a g r,
-    post pins sl bt ct fin1 B' env fs0 a g r ->
+  Lemma post_extend : forall pins lr sl bt ct fin1 fin2 B' env fs0 a g r,
+    post pins lr sl bt ct fin1 B' env fs0 a g r ->
     (forall env' s' a' g', a_ip a' = fin1 -> Rst pins env' s' a' g' ->
        exists a'' g'', xrun prog name code a' g' a'' g'' /\ a_ip a'' = fin2 /\ Rst pins env' s' a'' g'' /\ act_same a' a'' /\
                        frames g'' = frames g') ->
-    post pins sl bt ct fin2 B' env fs0 a g r.
+    post pins lr sl bt ct fin2 B' env fs0 a g r.
   Proof.
-    intros pins sl bt ct fin1 fin2 B' env fs0 a g r H Hx.
+    intros pins lr sl bt ct fin1 fin2 B' env fs0 a g r H Hx.
     destruct r as [sig env' s'|f s'|]; cbn [post] in *; [|exact H|exact Logic.I].
     destruct H as [Hd H]. split; [exact Hd|]. destruct sig; try exact H.
     destruct H as (HB & a' & g' & R & Hip & HR & Ha & Hf). split; [exact HB|].
@@ -1767,16 +1842,16 @@ Section Sim.
 
   (* the machine has just pushed the block frame (if_stmt / else_stmt); body, then `done` *)
   Lemma in_block_run : forall body, block_spec body ->
-    forall pins lr il sl bt ct fuel kb a g env s B lb, fuel <= FU ->
+    forall pins lr il sl bt ct fuel kb a g env s B lb, fuel <= FU -> lr <= 2 * kb ->
       ok_block FT SP il B body = true -> bound_in B env ->
       items_at bt ct kb (bitems c lr (option_map S sl) body ++ [I OP_DONE []]) ->
       kb + length (bitems c lr (option_map S sl) body) + 1 < length code ->
       lc_ok il sl bt ct env (kb + length (bitems c lr (option_map S sl) body) + 1) ->
       a_ip a = kb -> a_cb a = cb -> Rst pins env s a g -> special lb = true ->
-      post pins sl bt ct (kb + length (bitems c lr (option_map S sl) body) + 1) B env (frames g)
+      post pins lr sl bt ct (kb + length (bitems c lr (option_map S sl) body) + 1) B env (frames g)
            (set_ss a (S (a_ss a))) (push_frame g lb) (in_block_ fuel body env s).
   Proof.
-    intros body Hbody pins lr il sl bt ct fuel kb a g env s B lb Hfu Hok Hb Hit Hend Hlc Hip Hcb HR Hlb.
+    intros body Hbody pins lr il sl bt ct fuel kb a g env s B lb Hfu Hlr Hok Hb Hit Hend Hlc Hip Hcb HR Hlb.
     set (len := length (bitems c lr (option_map S sl) body)) in *.
     apply items_at_app in Hit as [Hitb Hid]. apply items_at_cons in Hid as [Hid _]. cbn [item_instr] in Hid. fold len in Hid.
     destruct HR as (HG & Hops & Hss).
@@ -1791,7 +1866,7 @@ Section Sim.
         destruct (H1 m eq_refl) as (A1 & A2 & A3 & A4 & A5 & A6). cbn [push_scope locals length].
         repeat split; try assumption; lia. }
     pose proof (Hbody pins lr il (option_map S sl) bt ct fuel kb (set_ss a (S (a_ss a))) (push_frame g lb) (push_scope env) s B
-                  Hfu Hok Hb Hitb ltac:(left; fold len; lia) Hlc0 Hip Hcb HR0) as H.
+                  Hfu Hlr Hok Hb Hitb ltac:(left; fold len; lia) Hlc0 Hip Hcb HR0) as H.
     fold len in H. unfold in_block_.
     destruct (exec_block fuel (push_scope env) body s) as [sig env2 s2|f s2|]; [|exact H|exact Logic.I].
     cbn [post] in H |- *. destruct H as [Hd H].
@@ -1803,7 +1878,7 @@ Section Sim.
     split; [exact Hd'|].
     destruct sig as [| | |rv]; [| | |exact H].
     - (* normal: execute `done` *)
-      destruct H as (_ & a2 & g2 & R2 & Hip2 & (HG2 & Hops2 & Hss2) & Ha2 & Hf2).
+      destruct H as (_ & a2 & g2 & R2 & Hip2 & (HG2 & Hops2 & Hss2) & Ha2 & Hf2 & Hlk2).
       set (i1 := mkI OP_DONE []) in *.
       destruct (popn_rel 1 env2 s2 (trc name a2 g2 i1) (Rg_trc _ _ _ _ _ _ HG2) ltac:(lia)) as (g3 & Hpop & HG3 & Hf3 & _).
       cbn [pop_frames] in Hpop.
@@ -1811,24 +1886,28 @@ Section Sim.
       destruct (a_ss a2) as [|k'] eqn:Ess; [lia|].
       rewrite popn_1 in HG3.
       split; [eapply bound_in_eq; [exact Hb|exact Htl]|].
-      exists (set_ip (set_ss a2 k') (S (a_ip a2))), g3. split; [|split; [|split; [|split]]].
+      assert (Ef3 : frames g3 = frames g).
+      { rewrite Hf3. cbn [trc add_trace frames]. rewrite (skipn_S_tl _ 0). cbn [skipn]. rewrite Hf2. reflexivity. }
+      exists (set_ip (set_ss a2 k') (S (a_ip a2))), g3. split; [|split; [|split; [|split; [|split]]]].
       + eapply xrun_trans; [exact R2|].
         eapply (xstep_popscope prog name code a2 g2 i1 _ (kb + len) a2); [exact Hip2|exact Hid|apply dec_done|apply exec_done|exact Ess|exact Epop].
       + cbn [set_ip a_ip]. lia.
       + split; [exact HG3|]. split; [exact Hops2|].
         cbn [pop_scope locals set_ip set_ss a_ss]. destruct (locals env2); cbn [tl length] in *; lia.
       + destruct Ha2 as (A1 & A2 & A3). repeat split; assumption.
-      + rewrite Hf3. cbn [trc add_trace frames]. rewrite (skipn_S_tl _ 0). cbn [skipn]. rewrite Hf2. reflexivity.
+      + rewrite Ef3. reflexivity.
+      + apply lkeep_eq. exact Ef3.
     - (* break: m+1 frames were popped, control is at bt *)
       destruct H as (m' & a2 & g2 & Esl & R2 & Hip2 & HR2 & Ha2 & Hf2).
       destruct sl as [m|]; [|discriminate]. cbn [option_map] in Esl. inversion Esl; subst m'.
       exists m, a2, g2. split; [reflexivity|]. split; [exact R2|]. split; [exact Hip2|]. split; [|split; [exact Ha2|exact Hf2]].
       rewrite popn_S_pop. exact HR2.
-    - destruct H as (m' & a2 & g2 & Esl & R2 & Hip2 & HR2 & Ha2 & Hf2).
+    - destruct H as (m' & a2 & g2 & Esl & R2 & Hip2 & HR2 & Ha2 & Hf2 & Hlk2).
       destruct sl as [m|]; [|discriminate]. cbn [option_map] in Esl. inversion Esl; subst m'.
       destruct Hlc as [_ H1]. destruct (H1 m eq_refl) as (A1 & _).
-      exists m, a2, g2. split; [reflexivity|]. split; [exact R2|]. split; [exact Hip2|]. split; [|split; [exact Ha2|exact Hf2]].
-      rewrite popn_S_pop. replace (S (m - 1)) with (S m - 1) by lia. exact HR2.
+      exists m, a2, g2. split; [reflexivity|]. split; [exact R2|]. split; [exact Hip2|]. split; [|split; [exact Ha2|split; [exact Hf2|]]].
+      + rewrite popn_S_pop. replace (S (m - 1)) with (S m - 1) by lia. exact HR2.
+      + destruct m as [|m0]; [lia|]. cbn [Nat.sub] in Hlk2 |- *. rewrite Nat.sub_0_r in *. exact Hlk2.
   Qed.
 
   Lemma not_bool_inj : forall v, (forall b, v <> RBool b) -> forall b, inj v <> VBool b.
@@ -1836,7 +1915,7 @@ Section Sim.
 
   Lemma if_correct : forall cnd body, block_spec body -> stmt_spec (SIf cnd body).
   Proof.
-    intros cnd body Hbody pins lr il sl bt ct fuel k a g env s B Hfu Hok Hb Hit Hend Hlc Hip Hcb HR. destruct Hend as [Hend|[Hend _]]; [|discriminate Hend].
+    intros cnd body Hbody pins lr il sl bt ct fuel k a g env s B Hfu Hlr Hok Hb Hit Hend Hlc Hip Hcb HR. destruct Hend as [Hend|[Hend _]]; [|discriminate Hend].
     destruct fuel as [|fuel]; [exact Logic.I|].
     rewrite ok_SIf in Hok. apply Bool.andb_true_iff in Hok as [Hoe Hokb].
     rewrite sitems_SIf in *. cbv zeta in *.
@@ -1849,7 +1928,7 @@ Section Sim.
     rewrite exec_SIf. cbn [after].
     destruct (eval fuel env cnd s) as [v s1|s1|f s1|]; [|contradiction| |exact Logic.I].
     2:{ destruct He as (-> & e0 & g' & Hf & Hr & Ho). eapply post_expr_fail; eassumption. }
-    destruct He as (-> & Hfo & g1 & R1 & HG1 & Hf1).
+    destruct He as (-> & Hfo & g1 & R1 & HG1 & Hf1 & Hlk1).
     set (k1 := k + length (pcode c cnd)) in *.
     set (a1 := upd a k1 [inj v]) in *.
     match type of Hi1 with _ = Some {| op := _; args := [sN ?n] |} => set (off := n) in * end.
@@ -1857,7 +1936,7 @@ Section Sim.
     assert (Hdec : decode i1 = DOk (DIf (Z.of_nat off))) by (apply dec_if; apply small_code; unfold off; lia).
     set (g1t := trc name a1 g1 i1).
     assert (HG1t : Rg pins env s g1t) by (apply Rg_trc; exact HG1).
-    assert (Hnb : (forall b, v <> RBool b) -> post pins sl bt ct (k + (length (pcode c cnd) + (1 + (length bi + 1)))) B env (frames g) a g
+    assert (Hnb : (forall b, v <> RBool b) -> post pins lr sl bt ct (k + (length (pcode c cnd) + (1 + (length bi + 1)))) B env (frames g) a g
                                                    (SFailed (FType 12) s)).
     { intros Hv. cbn [post]. apply fail_post_intro. exists E_not_bool, g1t. split; [|split; [cbn; auto|exact (Rg_out _ _ _ HG1)]].
       eapply xrun_fail; [exact R1|]. eapply xstep_fail; [reflexivity|exact Hi1|exact Hdec|].
@@ -1867,7 +1946,7 @@ Section Sim.
     destruct b.
     - (* true: push <if>, run the body, done *)
       set (a1' := upd a (S k1) []).
-      assert (Hblk : post pins sl bt ct (k + (length (pcode c cnd) + (1 + (length bi + 1)))) B env (frames g1t)
+      assert (Hblk : post pins lr sl bt ct (k + (length (pcode c cnd) + (1 + (length bi + 1)))) B env (frames g1t)
                           (set_ss a1' (S (a_ss a1'))) (push_frame g1t LIf) (in_block_ fuel body env s)).
       { replace (k + (length (pcode c cnd) + (1 + (length bi + 1)))) with (S k1 + length bi + 1) by (unfold k1; lia).
         apply (in_block_run body Hbody pins lr il sl bt ct fuel (S k1) a1' g1t env s B LIf); try assumption; try reflexivity; try lia.
@@ -1875,13 +1954,13 @@ Section Sim.
         - fold bi. eapply lc_ok_mono; [exact Hlc|unfold k1; lia|reflexivity].
         - apply Rst_upd; assumption. }
       eapply post_seq; [|apply same_tl_refl; exact (Rg_ne _ _ _ HG)| |
-        eapply post_rebase; [exact Hblk|exact Hf1|exact (lc_ok_m _ _ _ _ _ _ Hlc)]].
+        eapply post_rebase; [exact Hblk|exact Hf1|apply lkeepA_lkeep; exact Hlk1|exact (lc_ok_m _ _ _ _ _ _ Hlc)]].
       + eapply xrun_trans; [exact R1|].
         eapply (xstep_push prog name code a1 g1 i1 _ k1 LIf (set_ops a1 [])); [reflexivity|exact Hi1|exact Hdec|exact Hx].
       + repeat split.
     - (* false: jump over the body *)
       cbn [post]. split; [apply same_tl_refl; exact (Rg_ne _ _ _ HG)|]. split; [exact Hb|].
-      exists (upd a (k1 + off) []), g1t. split; [|split; [|split; [|split]]].
+      exists (upd a (k1 + off) []), g1t. split; [|split; [|split; [|split; [|split]]]].
       + eapply xrun_trans; [exact R1|].
         eapply (xstep_goto prog name code a1 g1 i1 _ k1 _ (set_ops a1 [])); [reflexivity|exact Hi1|exact Hdec|exact Hx|].
         apply goto_fwd. cbn [set_ops a_ip a1 upd set_ip]. unfold off, k1. lia.
@@ -1889,11 +1968,12 @@ Section Sim.
       + apply Rst_upd; assumption.
       + repeat split.
       + exact Hf1.
+      + apply lkeepA_lkeep. exact Hlk1.
   Qed.
 
   Lemma ifelse_correct : forall cnd body els, block_spec body -> block_spec els -> stmt_spec (SIfElse cnd body els).
   Proof.
-    intros cnd body els Hbody Hels pins lr il sl bt ct fuel k a g env s B Hfu Hok Hb Hit Hend Hlc Hip Hcb HR. destruct Hend as [Hend|[Hend _]]; [|discriminate Hend].
+    intros cnd body els Hbody Hels pins lr il sl bt ct fuel k a g env s B Hfu Hlr Hok Hb Hit Hend Hlc Hip Hcb HR. destruct Hend as [Hend|[Hend _]]; [|discriminate Hend].
     destruct fuel as [|fuel]; [exact Logic.I|].
     rewrite ok_SIfElse in Hok. rewrite !Bool.andb_true_iff in Hok. destruct Hok as [[Hoe Hokb] Hoke].
     rewrite sitems_SIfElse in *. cbv zeta in *.
@@ -1910,7 +1990,7 @@ Section Sim.
     rewrite exec_SIfElse. cbn [after].
     destruct (eval fuel env cnd s) as [v s1|s1|f s1|]; [|contradiction| |exact Logic.I].
     2:{ destruct He as (-> & e0 & g' & Hf & Hr & Ho). eapply post_expr_fail; eassumption. }
-    destruct He as (-> & Hfo & g1 & R1 & HG1 & Hf1).
+    destruct He as (-> & Hfo & g1 & R1 & HG1 & Hf1 & Hlk1).
     set (k1 := k + length (pcode c cnd)) in *.
     set (a1 := upd a k1 [inj v]) in *.
     set (kj := S k1 + (length bi + 1)) in *.
@@ -1922,7 +2002,7 @@ Section Sim.
     assert (Hdec : decode i1 = DOk (DIf (Z.of_nat off))) by (apply dec_if; apply small_code; unfold off; lia).
     set (g1t := trc name a1 g1 i1).
     assert (HG1t : Rg pins env s g1t) by (apply Rg_trc; exact HG1).
-    assert (Hnb : (forall b, v <> RBool b) -> post pins sl bt ct fin B env (frames g) a g (SFailed (FType 12) s)).
+    assert (Hnb : (forall b, v <> RBool b) -> post pins lr sl bt ct fin B env (frames g) a g (SFailed (FType 12) s)).
     { intros Hv. cbn [post]. apply fail_post_intro. exists E_not_bool, g1t. split; [|split; [cbn; auto|exact (Rg_out _ _ _ HG1)]].
       eapply xrun_fail; [exact R1|]. eapply xstep_fail; [reflexivity|exact Hi1|exact Hdec|].
       apply (exec_if_nb _ a1 g1t (inj v)); [reflexivity|now apply not_bool_inj]. }
@@ -1931,7 +2011,7 @@ Section Sim.
     destruct b.
     - (* true: push <if>, body, done, jmp over the else branch *)
       set (a1' := upd a (S k1) []).
-      assert (Hblk : post pins sl bt ct kj B env (frames g1t) (set_ss a1' (S (a_ss a1'))) (push_frame g1t LIf) (in_block_ fuel body env s)).
+      assert (Hblk : post pins lr sl bt ct kj B env (frames g1t) (set_ss a1' (S (a_ss a1'))) (push_frame g1t LIf) (in_block_ fuel body env s)).
       { replace kj with (S k1 + length bi + 1) by (unfold kj; lia).
         apply (in_block_run body Hbody pins lr il sl bt ct fuel (S k1) a1' g1t env s B LIf); try assumption; try reflexivity; try lia.
         - fold bi. unfold fin, k1 in *. lia.
@@ -1941,7 +2021,7 @@ Section Sim.
       + eapply xrun_trans; [exact R1|].
         eapply (xstep_push prog name code a1 g1 i1 _ k1 LIf (set_ops a1 [])); [reflexivity|exact Hi1|exact Hdec|exact Hx].
       + repeat split.
-      + eapply post_extend; [eapply post_rebase; [exact Hblk|exact Hf1|exact (lc_ok_m _ _ _ _ _ _ Hlc)]|].
+      + eapply post_extend; [eapply post_rebase; [exact Hblk|exact Hf1|apply lkeepA_lkeep; exact Hlk1|exact (lc_ok_m _ _ _ _ _ _ Hlc)]|].
         intros env' s' a' g' Hip' (HG' & Hops' & Hss').
         set (ij := mkI OP_JMP [sN offj]) in *.
         exists (set_ip a' (kj + offj)), (trc name a' g' ij). split; [|split; [|split; [|split]]].
@@ -1958,14 +2038,14 @@ Section Sim.
       set (ie := mkI OP_ELSE_STMT []) in *.
       set (g2t := trc name a2 g1t ie).
       set (a2' := upd a (S ke) []).
-      assert (Hblk : post pins sl bt ct fin B env (frames g2t) (set_ss a2' (S (a_ss a2'))) (push_frame g2t LElse) (in_block_ fuel els env s)).
+      assert (Hblk : post pins lr sl bt ct fin B env (frames g2t) (set_ss a2' (S (a_ss a2'))) (push_frame g2t LElse) (in_block_ fuel els env s)).
       { rewrite Hfin. fold ke.
         apply (in_block_run els Hels pins lr il sl bt ct fuel (S ke) a2' g2t env s B LElse); try assumption; try reflexivity; try lia.
         - fold ei. unfold ke. lia.
         - fold ei. eapply lc_ok_mono; [exact Hlc|unfold ke; lia|reflexivity].
         - apply Rst_upd; [|exact Hss]. apply Rg_trc. exact HG1t. }
       eapply post_seq; [|apply same_tl_refl; exact (Rg_ne _ _ _ HG)| |
-        eapply post_rebase; [exact Hblk|exact Hf1|exact (lc_ok_m _ _ _ _ _ _ Hlc)]].
+        eapply post_rebase; [exact Hblk|exact Hf1|apply lkeepA_lkeep; exact Hlk1|exact (lc_ok_m _ _ _ _ _ _ Hlc)]].
       + eapply xrun_trans; [exact R1|]. eapply xrun_trans.
         * eapply (xstep_goto prog name code a1 g1 i1 _ k1 _ (set_ops a1 []) g1t ke); [reflexivity|exact Hi1|exact Hdec|exact Hx|].
           cbn [set_ops a_ip a1 upd set_ip]. rewrite goto_fwd by (unfold off, fin, kj, k1 in *; lia).
@@ -1979,7 +2059,7 @@ Section Sim.
     intros cnd body nxt Hbody Hn.
     assert (Hels : block_spec [nxt]) by (apply block_of_stmts; constructor; [exact Hn|constructor]).
     pose proof (ifelse_correct cnd body [nxt] Hbody Hels) as H.
-    intros pins lr il sl bt ct fuel k a g env s B Hfu Hok Hb Hit Hend Hlc Hip Hcb HR.
+    intros pins lr il sl bt ct fuel k a g env s B Hfu Hlr Hok Hb Hit Hend Hlc Hip Hcb HR.
     assert (Es : sitems c lr sl (SIfElif cnd body nxt) = sitems c lr sl (SIfElse cnd body [nxt])).
     { rewrite sitems_SIfElif, sitems_SIfElse. cbv zeta. cbn [bitems]. rewrite app_nil_r. reflexivity. }
     assert (Ee : Eval.exec fuel env (SIfElif cnd body nxt) s = Eval.exec fuel env (SIfElse cnd body [nxt]) s).
@@ -2024,7 +2104,7 @@ Section Sim.
 
   Lemma while_correct : forall cnd body, block_spec body -> stmt_spec (SWhile cnd body).
   Proof.
-    intros cnd body Hbody pins lr il sl bt ct fuel k a g env s B Hfu Hok Hb Hit Hend Hlc Hip Hcb HR. destruct Hend as [Hend|[Hend _]]; [|discriminate Hend].
+    intros cnd body Hbody pins lr il sl bt ct fuel k a g env s B Hfu Hlr Hok Hb Hit Hend Hlc Hip Hcb HR. destruct Hend as [Hend|[Hend _]]; [|discriminate Hend].
     rewrite ok_SWhile in Hok. apply Bool.andb_true_iff in Hok as [Hoe Hokb].
     rewrite sitems_SWhile in *. cbv zeta in *.
     set (cb0 := bitems c lr (Some 1) body) in *.
@@ -2047,22 +2127,23 @@ Section Sim.
     { destruct HR as (HG & _). destruct (Rfr_ne _ _ _ _ (Rg_fr _ _ _ HG)) as [Hne _].
       destruct (locals env); [congruence|cbn [length]; lia]. }
     enough (Hloop : forall fs0 fuel a g env s, fuel <= FU -> bound_in B env -> lc_ok il sl bt ct env fin -> a_ip a = k -> a_cb a = cb ->
-              Rst pins env s a g -> 1 <= length (locals env) -> tl (frames g) = tl fs0 ->
-              post pins sl bt ct fin B env fs0 a g (Eval.exec fuel env (SWhile cnd body) s))
-      by (apply Hloop; auto).
+              Rst pins env s a g -> 1 <= length (locals env) -> tl (frames g) = tl fs0 -> lkeep lr fs0 (frames g) ->
+              post pins lr sl bt ct fin B env fs0 a g (Eval.exec fuel env (SWhile cnd body) s))
+      by (apply Hloop; auto using lkeep_refl).
     clear a g env s Hb Hlc Hip Hcb HR Hl1 Hfu fuel. intros fs0.
-    induction fuel as [|fuel IH]; intros a g env s Hfu Hb Hlc Hip Hcb HR Hl1 Hfs; [exact Logic.I|].
+    induction fuel as [|fuel IH]; intros a g env s Hfu Hb Hlc Hip Hcb HR Hl1 Hfs Hlk0; [exact Logic.I|].
     destruct HR as (HG & Hops & Hss).
     pose proof (expr_run pins cnd c fuel k a g env s B Hoe Hb ltac:(lia) Hce ltac:(lia) Hip Hops HG) as He.
     rewrite exec_SWhile.
     destruct (eval fuel env cnd s) as [v s1|s1|f s1|]; [|contradiction| |exact Logic.I].
     2:{ destruct He as (-> & e0 & g' & Hf & Hr & Ho). eapply post_expr_fail; eassumption. }
-    destruct He as (-> & Hfo & g1 & R1 & HG1 & Hf1).
+    destruct He as (-> & Hfo & g1 & R1 & HG1 & Hf1 & Hlk1).
     fold k1 in R1.
     set (a1 := upd a k1 [inj v]) in *.
     set (g1t := trc name a1 g1 i1).
     assert (HG1t : Rg pins env s g1t) by (apply Rg_trc; exact HG1).
-    assert (Hnb : (forall b, v <> RBool b) -> post pins sl bt ct fin B env fs0 a g (SFailed (FType 12) s)).
+    assert (Hlk1t : lkeep lr fs0 (frames g1t)) by (eapply lkeep_trans; [exact Hlk0|apply lkeepA_lkeep; exact Hlk1]).
+    assert (Hnb : (forall b, v <> RBool b) -> post pins lr sl bt ct fin B env fs0 a g (SFailed (FType 12) s)).
     { intros Hv. cbn [post]. apply fail_post_intro. exists E_not_bool, g1t. split; [|split; [cbn; auto|exact (Rg_out _ _ _ HG1)]].
       eapply xrun_fail; [exact R1|]. eapply xstep_fail; [reflexivity|exact Hi1|exact Hdec|].
       apply (exec_while_nb _ a1 g1t (inj v)); [reflexivity|now apply not_bool_inj]. }
@@ -2071,14 +2152,15 @@ Section Sim.
     destruct b.
     2:{ (* false: leave the loop *)
       cbn [post]. split; [apply same_tl_refl; exact (Rg_ne _ _ _ HG)|]. split; [exact Hb|].
-      exists (upd a (k1 + off) []), g1t. split; [|split; [|split; [|split]]].
+      exists (upd a (k1 + off) []), g1t. split; [|split; [|split; [|split; [|split]]]].
       + eapply xrun_trans; [exact R1|].
         eapply (xstep_goto prog name code a1 g1 i1 _ k1 _ (set_ops a1 [])); [reflexivity|exact Hi1|exact Hdec|exact Hx|].
         apply goto_fwd. cbn [set_ops a_ip a1 upd set_ip]. unfold off, fin, k1 in *. lia.
       + cbn. unfold off, fin, k1. lia.
       + apply Rst_upd; assumption.
       + repeat split.
-      + exact (eq_trans Hf1 Hfs). }
+      + exact (eq_trans Hf1 Hfs).
+      + exact Hlk1t. }
     (* true: push <while>, run the body *)
     set (a1' := upd a (S k1) []).
     set (a0 := set_ss a1' (S (a_ss a1'))).
@@ -2092,7 +2174,7 @@ Section Sim.
     assert (Hlc0 : lc_ok true (Some 1) fin kj (push_scope env) (S k1 + length cb0)).
     { split; [discriminate|]. intros m E. inversion E; subst m. cbn [push_scope locals length].
       fold kj. repeat split; try lia. }
-    pose proof (Hbody pins lr true (Some 1) fin kj fuel (S k1) a0 g0 (push_scope env) s B ltac:(lia) Hokb Hb Hib
+    pose proof (Hbody pins lr true (Some 1) fin kj fuel (S k1) a0 g0 (push_scope env) s B ltac:(lia) ltac:(unfold k1; lia) Hokb Hb Hib
                   ltac:(left; fold cb0; lia) Hlc0 eq_refl Hcb HR0) as H.
     fold cb0 in H. fold kj in H. unfold in_block_.
     destruct (exec_block fuel (push_scope env) body s) as [sig env2 s2|f s2|]; [| |exact Logic.I].
@@ -2107,11 +2189,11 @@ Section Sim.
     { destruct (locals env2) as [|sc2 l2]; [congruence|]. cbn [tl] in Htl. subst l2. reflexivity. }
     assert (Hnext : forall a2 g2, xrun prog name code a0 g0 a2 g2 -> a_ip a2 = kj -> Rst pins env2 s2 a2 g2 -> act_same a0 a2 ->
               tl (frames g2) = frames g1t ->
-              post pins sl bt ct fin B env fs0 a g (Eval.exec fuel (pop_scope env2) (SWhile cnd body) s2)).
+              post pins lr sl bt ct fin B env fs0 a g (Eval.exec fuel (pop_scope env2) (SWhile cnd body) s2)).
     { intros a2 g2 R2 Hip2 HR2 Ha2 Hf2.
       destruct (back_edge pins kj (1 + length cb0 + length (pcode c cnd)) k env2 s2 a2 g2 Hi2 ltac:(lia) ltac:(lia)
                   ltac:(unfold kj, k1; lia) Hip2 HR2 ltac:(lia)) as (g3 & R3 & HR3 & Hf3).
-      eapply (post_seq pins sl bt ct fin B env fs0 a g (pop_scope env2) (set_ip a2 k) g3);
+      eapply (post_seq pins lr sl bt ct fin B env fs0 a g (pop_scope env2) (set_ip a2 k) g3);
         [eapply xrun_trans; [exact R0|eapply xrun_trans; [exact R2|exact R3]]|exact Hd'| |].
       - destruct Ha2 as (A1 & A2 & A3). repeat split; assumption.
       - apply IH.
@@ -2122,18 +2204,19 @@ Section Sim.
         + cbn [set_ip a_cb]. rewrite (proj2 (proj2 Ha2)). exact Hcb.
         + exact HR3.
         + cbn [pop_scope locals]. rewrite Htl. exact Hl1.
-        + rewrite Hf3, Hf2. exact (eq_trans Hf1 Hfs). }
+        + rewrite Hf3, Hf2. exact (eq_trans Hf1 Hfs).
+        + rewrite Hf3, Hf2. exact Hlk1t. }
     destruct sig as [| | |rv].
-    - destruct H as (_ & a2 & g2 & R2 & Hip2 & HR2 & Ha2 & Hf2). eapply Hnext; eassumption.
+    - destruct H as (_ & a2 & g2 & R2 & Hip2 & HR2 & Ha2 & Hf2 & _). eapply Hnext; eassumption.
     - (* break: control is at fin, the <while> frame is gone *)
       destruct H as (m & a2 & g2 & Esl & R2 & Hip2 & HR2 & Ha2 & Hf2). inversion Esl; subst m.
       rewrite popn_1 in HR2.
       cbn [post]. split; [exact Hd'|]. split; [eapply bound_in_eq; [exact Hb|exact Htl]|].
       exists a2, g2. split; [eapply xrun_trans; eassumption|]. split; [exact Hip2|]. split; [exact HR2|].
       split; [destruct Ha2 as (A1 & A2 & A3); repeat split; assumption|].
-      rewrite Hf2. exact (eq_trans Hf1 Hfs).
+      rewrite Hf2. split; [exact (eq_trans Hf1 Hfs)|exact Hlk1t].
     - (* continue: control is at the back edge, the <while> frame still there *)
-      destruct H as (m & a2 & g2 & Esl & R2 & Hip2 & HR2 & Ha2 & Hf2). inversion Esl; subst m.
+      destruct H as (m & a2 & g2 & Esl & R2 & Hip2 & HR2 & Ha2 & Hf2 & _). inversion Esl; subst m.
       cbn [Nat.sub] in HR2. rewrite popn_0 in HR2. eapply Hnext; eassumption.
     - (* return from inside the loop *)
       destruct rv as [v|]; [|destruct H].
@@ -2326,18 +2409,545 @@ Section Sim.
     split; [apply lookup_app_some; now apply Hl|now apply Hs].
   Qed.
 
-  Lemma from_correct : forall a0 b incl step x body, block_spec body ->
-    stmt_spec (SFrom a0 b incl step (Some x) false body).
+  (* ================================================================ hidden counters (anonymous from loops): the counter lives
+     outside the data relation -- source name `hid` / VM register L#n -- in a pinned pair of cells *)
+  Lemma Rg_pins_imp : forall P P' env s g, Rg P env s g ->
+    (forall cy w, vpin P' cy w -> vpin P cy w) -> (forall c0 v, spin P' c0 v -> spin P c0 v) -> Rg P' env s g.
   Proof.
-    intros a0 b incl step x body Hbody pins lr il sl bt ct fuel k a g env s B Hfu Hok Hb Hit Hend Hlc Hip Hacb HR. destruct Hend as [Hend|[Hend _]]; [|discriminate Hend].
+    intros P P' env s g [A B D E F0 G H I0 J K L M] Hv Hs. constructor; try assumption. exact (pins_imp_ P P' _ _ _ _ H Hv Hs).
+  Qed.
+
+  (* the innermost scope / the top frame change at names that are not user names *)
+  Lemma top_swap_rel : forall pins env s g sc l f fs sc' vs,
+    Rg pins env s g -> locals env = sc :: l -> frames g = f :: fs ->
+    (forall y, y <> hid -> assoc y sc' = assoc y sc) ->
+    (forall y, uname0 y -> assoc y vs = assoc y (vars f)) -> keys_nd vs ->
+    Rg pins {| locals := sc' :: l; captured := captured env; cur := cur env |} s
+       (with_frames g ({| lab := lab f; vars := vs |} :: fs)).
+  Proof.
+    intros pins [l0 cap cu] [st ro] [cs fs0 o tr] sc l f fs sc' vs [Hfr Hb Ho Hbase Hun Hns Hpins Hnd Hfp Hfl Hcur Hcf] El Ef Hsc Hvs Hndv.
+    cbn [locals captured cur store rout cells frames out trace with_frames] in *. subst l0 fs0.
+    set (f' := {| lab := lab f; vars := vs |}).
+    assert (Hs : forall x, uname x -> assoc x sc' = assoc x sc) by (intros x Hx; apply Hsc; exact (uname_not_hid _ Hx)).
+    assert (Hfind : forall x, uname x -> find_in_function x (f' :: fs) = find_in_function x (f :: fs)).
+    { intros x Hx. cbn [find_in_function f' vars lab]. now rewrite (Hvs x (proj1 Hx)). }
+    assert (Hpairs : forall c0 c0', pairs (sc' :: l) (f' :: fs) c0 c0' -> pairs (sc :: l) (f :: fs) c0 c0').
+    { intros c0 c0' Hp. apply (pairs_scope sc sc' l _ _ _ Hs) in Hp. apply (pairs_top (sc :: l) f f' fs _ _ Hfind) in Hp. exact Hp. }
+    constructor; cbn [locals captured cur store rout cells frames out]; try assumption.
+    - apply (Rfr_scope _ _ sc); [|exact Hs]. eapply Rfr_top; [exact Hfr|reflexivity|exact Hfind].
+    - eapply bij_scope; [|exact Hs]. eapply bij_top; eassumption.
+    - intros y Hy. destruct (list_eq_dec N.eq_dec y hid) as [->|Hne]; [right; right; reflexivity|]. apply Hun.
+      cbn [lookup_scopes] in *. now rewrite <- (Hsc y Hne).
+    - cbn [NS] in *. destruct Hns as [H1 H2]. split; [|exact H2]. intros y Hyh Hy. apply H1; [exact Hyh|]. now rewrite <- (Hsc y Hyh).
+    - eapply pins_sub_; [exact Hpins|exact Hpairs].
+    - apply (nd_top f fs); assumption.
+    - eapply pins_sub_; [exact Hfp|exact Hpairs].
+    - intros f0 c0 c0' cenv cbf E. specialize (Hfl f0 c0 c0' cenv cbf E).
+      assert (Hin : In f0 funs) by (apply Hfck; congruence). pose proof (Hfun0 f0 Hin) as H0.
+      eapply flook_top; [exact Hfl|apply Hsc; exact (proj2 (proj2 H0))|].
+      cbn [find_in_function f' vars lab]. now rewrite (Hvs f0 H0).
+  Qed.
+
+  Definition add_spin (P : pinset) (c0 : N) (v : rvalue) : pinset :=
+    {| vpin := vpin P; spin := fun c1 v1 => (c1 = c0 /\ v1 = v) \/ spin P c1 v1 |}.
+
+  (* a new source cell (pinned) *)
+  Lemma alloc_rel : forall pins env s g v, Rg pins env s g ->
+    Rg (add_spin pins (N.of_nat (length (store s))) v) env {| store := store s ++ [v]; rout := rout s |} g.
+  Proof.
+    intros pins [l cap cu] [st ro] [cs fs o tr] v [Hfr Hb Ho Hbase Hun Hns Hpins Hnd Hfp Hfl Hcur Hcf].
+    cbn [locals captured cur store rout cells frames out trace] in *.
+    constructor; cbn [locals captured cur store rout cells frames out]; try assumption.
+    - rewrite <- (app_nil_r cs). apply Rfr_mono. exact Hfr.
+    - assert (Hold : pins_ok pins l fs (st ++ [v]) (cs ++ [])) by (apply pins_mono_; exact Hpins).
+      rewrite app_nil_r in Hold. destruct Hold as [H1 H2]. split; [exact H1|].
+      intros c0 v0 [[-> ->]|Hq]; [|exact (H2 c0 v0 Hq)]. split.
+      + rewrite Nnat.Nat2N.id, nth_error_app2, Nat.sub_diag by lia. reflexivity.
+      + intros c0' Hp. apply (pairs_cellrel st cs _ _ _ _ Hfr) in Hp. apply cellrel_valid in Hp. lia.
+    - rewrite <- (app_nil_r cs). apply pins_mono_. exact Hfp.
+  Qed.
+
+  (* the pins of a running anonymous loop: the counter cells (source cx, VM c') hold i, the end register cell holds hi *)
+  Definition cpins (P : pinset) (cx c' : N) (i : Z) (ce : N) (hi : Z) : pinset :=
+    {| vpin := fun cy w => (cy = c' /\ w = VInt i) \/ (cy = ce /\ w = VInt hi) \/ vpin P cy w;
+       spin := fun c0 v => (c0 = cx /\ v = RInt i) \/ spin P c0 v |}.
+
+  Lemma cpins_update : forall P cx c' i i' ce hi env s g, Rg (cpins P cx c' i ce hi) env s g ->
+    (forall w, ~ vpin P c' w) -> (forall v, ~ spin P cx v) -> (forall w, ~ vpin fpins c' w) -> (forall v, ~ spin fpins cx v) ->
+    ce <> c' ->
+    Rg (cpins P cx c' i' ce hi) env (sset s cx (RInt i')) (cell_set g c' (VInt i')).
+  Proof.
+    intros P cx c' i i' ce hi [l cap cu] [st ro] [cs fs o tr] [Hfr Hb Ho Hbase Hun Hns Hpins Hnd Hfp Hfl Hcur Hcf] Hv Hs Hfv Hfs Hce.
+    cbn [locals captured cur store rout cells frames out trace sset cell_set] in *.
+    destruct Hpins as [P1 P2].
+    destruct (P1 c' (VInt i) (or_introl (conj eq_refl eq_refl))) as [Hc'v Hc'p].
+    destruct (P2 cx (RInt i) (or_introl (conj eq_refl eq_refl))) as [Hcxv Hcxp].
+    assert (Hlc : N.to_nat c' < length cs) by (apply nth_error_Some; congruence).
+    assert (Hlx : N.to_nat cx < length st) by (apply nth_error_Some; congruence).
+    assert (Hoc : forall cy, cy <> c' -> nth_error (set_nth (N.to_nat c') (VInt i') cs) (N.to_nat cy) = nth_error cs (N.to_nat cy)).
+    { intros cy Hne. apply nth_error_set_nth_other. intros E. apply Hne. symmetry. now apply N2Nat.inj. }
+    assert (Hos : forall c0, c0 <> cx -> nth_error (set_nth (N.to_nat cx) (RInt i') st) (N.to_nat c0) = nth_error st (N.to_nat c0)).
+    { intros c0 Hne. apply nth_error_set_nth_other. intros E. apply Hne. symmetry. now apply N2Nat.inj. }
+    constructor; cbn [locals captured cur store rout cells frames out]; try assumption.
+    - eapply Rfr_pairs_vals; [exact Hfr| |].
+      + intros c0 c0' v Hp Hn. rewrite Hos; [exact Hn|]. intros ->. exact (Hcxp _ Hp).
+      + intros c0 c0' w Hp Hn. rewrite Hoc; [exact Hn|]. intros ->. exact (Hc'p _ Hp).
+    - split.
+      + intros cy w [[-> ->]|[[-> ->]|Hq]].
+        * split; [now apply nth_error_set_nth_same|exact Hc'p].
+        * destruct (P1 ce (VInt hi) (or_intror (or_introl (conj eq_refl eq_refl)))) as [A B0]. split; [rewrite Hoc by exact Hce; exact A|exact B0].
+        * destruct (P1 cy w (or_intror (or_intror Hq))) as [A B0]. split; [|exact B0]. rewrite Hoc; [exact A|]. intros ->. exact (Hv _ Hq).
+      + intros c0 v [[-> ->]|Hq].
+        * split; [now apply nth_error_set_nth_same|exact Hcxp].
+        * destruct (P2 c0 v (or_intror Hq)) as [A B0]. split; [|exact B0]. rewrite Hos; [exact A|]. intros ->. exact (Hs _ Hq).
+    - destruct Hfp as [F1 F2]. split.
+      + intros cy w Hq. destruct (F1 cy w Hq) as [A B0]. split; [|exact B0]. rewrite Hoc; [exact A|]. intros ->. exact (Hfv _ Hq).
+      + intros c0 v Hq. destruct (F2 c0 v Hq) as [A B0]. split; [|exact B0]. rewrite Hos; [exact A|]. intros ->. exact (Hfs _ Hq).
+  Qed.
+
+  Lemma lregn_inj : forall a b, small a -> small b -> lregn a = lregn b -> a = b.
+  Proof. intros a b Ha Hb E. unfold lregn in E. apply app_inv_head in E. now apply sN_inj. Qed.
+
+  Lemma from_named_correct : forall a0 b incl step x collide body, block_spec body ->
+    stmt_spec (SFrom a0 b incl step (Some x) collide body).
+  Proof.
+    intros a0 b incl step x collide body Hbody pins lr il sl bt ct fuel k a g env s B Hfu Hlr Hok Hb Hit Hend Hlc Hip Hacb HR. destruct Hend as [Hend|[Hend _]]; [|discriminate Hend].
     destruct fuel as [|fuel]; [exact Logic.I|].
-    rewrite ok_SFrom in Hok. rewrite !Bool.andb_true_iff in Hok. destruct Hok as [[[[[[Hx Hxf] HxB] Hoa] Hob] Hst] Hokb].
-    apply Bool.negb_true_iff in Hxf. pose proof (uname_of_b x Hx Hxf) as Hxu. clear Hx. rename Hxu into Hx.
-    apply Bool.negb_true_iff in HxB. apply step_ok_expr in Hst.
-    rewrite sitems_SFrom in *. cbv zeta in *. rewrite step_code_expr in *.
+    rewrite ok_SFrom in Hok. rewrite !Bool.andb_true_iff in Hok. destruct Hok as [[Hoa Hob] Hok].
+    set (Bb := if collide then B else x :: B).
+    assert (Hparts : uname x /\ (if collide then In x B /\ used_e b = [] else mem_str x B = false) /\
+                     step_ok Bb step = true /\ ok_block FT SP true Bb body = true).
+    { unfold Bb. destruct collide; rewrite !Bool.andb_true_iff in Hok.
+      - destruct Hok as [[[[[Hx Hxf] HxB] Hub] Hst] Hokb]. apply Bool.negb_true_iff in Hxf.
+        split; [exact (uname_of_b x Hx Hxf)|]. split; [split; [now apply mem_str_In|destruct (used_e b); [reflexivity|discriminate]]|]. auto.
+      - destruct Hok as [[[[Hx Hxf] HxB] Hst] Hokb]. apply Bool.negb_true_iff in Hxf. apply Bool.negb_true_iff in HxB.
+        split; [exact (uname_of_b x Hx Hxf)|]. auto. }
+    destruct Hparts as (Hx & HxB & Hst & Hokb). clear Hok.
+    apply step_ok_expr in Hst.
+    rewrite sitems_SFrom in *. cbv zeta in *. cbn [from_idn from_lr1] in *. rewrite step_code_expr in *.
     set (se := step_expr step) in *.
     set (cb0 := bitems c (S lr) (Some 1) body) in *.
     set (endr := lregn (S lr)) in *.
+    set (la := length (pcode c a0)) in *. set (lb := length (pcode c b)) in *. set (lbd := length cb0) in *.
+    set (ls := length (pcode c se)) in *.
+    set (nd := if collide then 0 else 1).
+    match type of Hend with k + length ?L < _ =>
+      assert (Hlen : length L = la + 1 + lb + 1 + 3 + 1 + (lbd + ls + 2) + nd)
+        by (rewrite !app_length, resolve_length, !app_length, !map_length; unfold nd; destruct collide; cbn [length]; fold la lb lbd ls; lia)
+    end.
+    rewrite Hlen in *. clear Hlen.
+    apply items_at_app in Hit as [Hca Hit]. apply items_at_CI in Hca. rewrite map_length in Hit. fold la in Hit.
+    apply items_at_cons in Hit as [Hi1 Hit].
+    apply items_at_app in Hit as [Hcb Hit]. apply items_at_CI in Hcb. rewrite map_length in Hit. fold lb in Hit.
+    apply items_at_cons in Hit as [Hi3 Hit]. cbn [app] in Hit.
+    apply items_at_cons in Hit as [Hc1 Hit]. apply items_at_cons in Hit as [Hc2 Hit]. apply items_at_cons in Hit as [Hc3 Hit].
+    apply items_at_cons in Hit as [Hw Hit].
+    apply items_at_app in Hit as [Hres Hdel]. rewrite resolve_length in Hdel.
+    apply items_at_resolve_gen in Hres. apply items_at_app in Hres as [Hfull0 Hj].
+    apply items_at_app in Hfull0 as [Hib Hstp]. fold lbd in Hstp.
+    apply items_at_app in Hstp as [Hcs Hs2]. apply items_at_CI in Hcs. rewrite map_length in Hs2. fold ls in Hs2.
+    apply items_at_cons in Hs2 as [Hs2 _].
+    apply items_at_cons in Hj as [Hj _].
+    cbn [item_instr I] in Hi1, Hi3, Hc1, Hc2, Hc3, Hw, Hs2, Hj.
+    repeat rewrite app_length in Hw. repeat rewrite app_length in Hib. repeat rewrite app_length in Hcs.
+    repeat rewrite app_length in Hs2. repeat rewrite app_length in Hj. repeat rewrite app_length in Hdel.
+    repeat rewrite map_length in Hw. repeat rewrite map_length in Hib. repeat rewrite map_length in Hj. repeat rewrite map_length in Hdel.
+    cbn [length] in Hw, Hib, Hcs, Hs2, Hj, Hdel.
+    fold lbd ls in Hw, Hib, Hcs, Hs2, Hj, Hdel.
+    set (k1 := k + la) in *. set (k3 := S k1 + lb) in *. set (kc := S k3) in *.
+    set (kw := S (S (S kc))). set (kb := S kw). set (ks := kb + lbd). set (kp := ks + ls). set (kj := S kp). set (kd := S kj). set (fin := kd + nd).
+    assert (Hw' : nth_error code kw = Some (mkI OP_WHILE_LOOP [sN (lbd + ls + 3)])).
+    { replace (lbd + ls + 3) with (lbd + (ls + 1) + 1 + 1) by lia. exact Hw. }
+    assert (Hib' : items_at kd ks kb cb0).
+    { replace kd with (S (S (S (S kc))) + (lbd + (ls + 1) + 1)) by (unfold kd, kj, kp, ks, kb, kw; lia).
+      replace ks with (S (S (S (S kc))) + (lbd + (ls + 1) + 1) - (ls + 1) - 1) by (unfold ks, kb, kw; lia).
+      exact Hib. }
+    assert (Hcs' : code_at code ks (pcode c se)) by exact Hcs.
+    assert (Hs2' : nth_error code kp = Some (mkI OP_BIN_OP_ASSIGN [[43%N; 61%N]; x])) by exact Hs2.
+    assert (Hj' : nth_error code kj = Some (mkI OP_JMP_POP [neg_off (lbd + ls + 5)])).
+    { replace kj with (S (S (S (S kc))) + (lbd + (ls + 1))) by (unfold kj, kp, ks, kb, kw; lia).
+      replace (lbd + ls + 5) with (1 + 3 + (lbd + (ls + 1))) by lia. exact Hj. }
+    assert (Hdel' : collide = false -> nth_error code kd = Some (mkI OP_DELETE_NAME_SCOPED [x; endr])).
+    { intros Ec. rewrite Ec in Hdel. apply items_at_cons in Hdel as [Hdel _]. cbn [item_instr I] in Hdel.
+      replace kd with (S (S (S (S kc))) + (lbd + (ls + 1) + 1)) by (unfold kd, kj, kp, ks, kb, kw; lia). exact Hdel. }
+    clear Hw Hib Hcs Hs2 Hj Hdel.
+    assert (Hfin : k + (la + 1 + lb + 1 + 3 + 1 + (lbd + ls + 2) + nd) = fin) by (unfold fin, kd, kj, kp, ks, kb, kw, kc, k3, k1; lia).
+    rewrite Hfin in *.
+    assert (Hsml : forall j, j <= S (S lr) -> small j).
+    { intros j Hj. eapply small_le; [|exact Hsmall]. unfold fin, kd, kj, kp, ks, kb, kw, kc, k3, k1 in Hend. lia. }
+    destruct HR as (HG & Hops & Hss).
+    rewrite exec_SFrom. cbn [after].
+    destruct fuel as [|fuel]; [exact Logic.I|].
+    (* the lower bound *)
+    pose proof (expr_run pins a0 c (S fuel) k a g env s B Hoa Hb ltac:(lia) Hca ltac:(fold la; unfold fin, kd, kj, kp, ks, kb, kw, kc, k3, k1 in *; lia) Hip Hops HG) as He.
+    fold la in He. fold k1 in He.
+    destruct (eval (S fuel) env a0 s) as [va s1|s1|f s1|]; [|contradiction| |exact Logic.I].
+    2:{ destruct He as (-> & e0 & g' & Hf & Hr & Ho). eapply post_expr_fail; eassumption. }
+    destruct He as (-> & Hfoa & g1 & R1 & HG1 & Hf1 & Hlk1).
+    (* the counter: a fresh name (declared) / an existing variable (assigned) *)
+    destruct (locals env) as [|sc0 l'] eqn:El; [exact (False_ind _ (Rg_ne _ _ _ HG El))|].
+    destruct ((if collide then assign env s x va else declare env s x va)) as [env1 s1] eqn:Edec.
+    assert (Hxn : collide = false -> lookup_scopes x (sc0 :: l') = None).
+    { intros Ec. rewrite Ec in HxB. rewrite <- El. destruct (lookup_scopes x (locals env)) eqn:E; [|reflexivity].
+      destruct (proj1 (proj1 Hb x (uname_not_hid _ Hx)) ltac:(congruence)) as [Hin|Hin]; [|apply Hlfuns in Hin]; apply In_mem_str in Hin; [congruence|].
+      exfalso. exact (uname_nfun _ Hx (mem_str_In _ _ Hin)). }
+    assert (Eas : assign env s x va = (env1, s1)).
+    { destruct collide; [exact Edec|]. unfold assign. rewrite El, (Hxn eq_refl). exact Edec. }
+    assert (Hcase : (collide = false /\ locals env1 = assoc_set x (N.of_nat (length (store s))) sc0 :: l' /\
+                     (forall c0 v, sget s c0 = Some v -> sget s1 c0 = Some v)) \/
+                    (collide = true /\ locals env1 = sc0 :: l' /\ used_e b = [])).
+    { destruct collide.
+      - right. split; [reflexivity|]. split; [|exact (proj2 HxB)].
+        pose proof (bound_in_look _ _ _ Hb (proj1 HxB)) as Hl0.
+        unfold assign in Edec. destruct (lookup_scopes x (locals env)) eqn:E; [|congruence].
+        inversion Edec; subst env1. exact El.
+      - left. split; [reflexivity|]. unfold declare, alloc in Edec. rewrite El in Edec. inversion Edec. split; [reflexivity|].
+        intros c0 v Hv. unfold sget in *. cbn [store]. rewrite nth_error_app1; [exact Hv|apply nth_error_Some; congruence]. }
+    assert (Ero : rout s1 = rout s).
+    { destruct collide.
+      - unfold assign in Edec. destruct (lookup_scopes x (locals env)); [inversion Edec; reflexivity|].
+        unfold declare, alloc in Edec. rewrite El in Edec. inversion Edec. reflexivity.
+      - unfold declare, alloc in Edec. rewrite El in Edec. inversion Edec. reflexivity. }
+    set (lL := locals env1) in *.
+    (* store_fast x / store x (the VM sets the counter BEFORE it evaluates the upper bound) *)
+    set (a1 := upd a k1 [inj va]) in *.
+    set (i_sx := mkI (if collide then OP_STORE else OP_STORE_FAST) [x]) in *.
+    set (g1t := trc name a1 g1 i_sx).
+    assert (HG1t : Rg pins env s g1t) by (apply Rg_trc; exact HG1).
+    destruct (store_rel env s g1t x va env1 s1 HG1t Hx Hfoa Eas) as (g2 & Hst2 & HG2S & Hd2 & Hbx2 & HtlS & Hoth2).
+    set (a2 := upd a (S k1) []).
+    assert (R2 : xrun prog name code a g a2 g2).
+    { eapply xrun_trans; [exact R1|]. destruct collide.
+      - eapply (xstep_next prog name code a1 g1 i_sx _ k1 (set_ops a1 [])); [reflexivity|exact Hi1|apply dec_store|].
+        apply (exec_store x a1 g1t (inj va) g2); [reflexivity|exact Hst2].
+      - assert (Hfn : find_in_function x (frames g1t) = None).
+        { pose proof (Rfr_look _ _ _ _ (Rg_fr _ _ _ HG1t) x Hx) as H. rewrite El, (Hxn eq_refl) in H.
+          destruct (find_in_function x (frames g1t)); [contradiction|reflexivity]. }
+        unfold store_var in Hst2. rewrite Hfn in Hst2.
+        eapply (xstep_next prog name code a1 g1 i_sx _ k1 (set_ops a1 [])); [reflexivity|exact Hi1|apply dec_store_fast|].
+        apply (exec_store_fast x a1 g1t (inj va) g2); [reflexivity|exact Hst2]. }
+    assert (HbL1 : bound_in Bb env1).
+    { unfold Bb. destruct Hcase as [(Ec & El1 & _)|(Ec & El1 & _)]; rewrite Ec in *.
+      - eapply bound_in_assign; eassumption.
+      - eapply bound_in_eq; [exact Hb|]. fold lL. rewrite El1, El. reflexivity. }
+    (* the upper bound: the reference semantics evaluates it before the counter exists; same result *)
+    assert (Hagb : forall y, In y (used_e b) -> agree env s env1 s1 y).
+    { destruct Hcase as [(Ec & El1 & Es1)|(Ec & El1 & Hub)]; [|rewrite Hub; intros y []]. rewrite Ec in HxB.
+      eapply (agree_of pins env s g env1 s1 b B HG Hob); [exact Hb| |exact Es1].
+      intros y c0 Hy Hl0. rewrite El in Hl0. fold lL. rewrite El1. cbn [lookup_scopes] in Hl0 |- *.
+      rewrite assoc_set_other; [exact Hl0|]. intros ->. apply In_mem_str in Hy. congruence. }
+    destruct (ok_expr_parts _ _ Hob) as (Hpb & _ & _).
+    destruct (eval_pure_congr b Hpb (S fuel) env s env1 s1 Hagb) as [Hst_b Eb1].
+    assert (HobB : ok_expr Bb b = true) by (unfold Bb; destruct collide; [exact Hob|exact (ok_expr_weaken B x b Hob)]).
+    pose proof (expr_run pins b c (S fuel) (S k1) a2 g2 env1 s1 Bb HobB HbL1 ltac:(lia) Hcb
+                  ltac:(fold lb; unfold fin, kd, kj, kp, ks, kb, kw, kc, k3 in *; lia) eq_refl eq_refl HG2S) as Heb.
+    rewrite Eb1 in Heb. fold lb in Heb.
+    destruct (eval (S fuel) env b s) as [vb sb|sb|f sb|]; cbn [res_to res_st] in Hst_b, Heb; [|contradiction| |exact Logic.I].
+    2:{ subst sb. destruct Heb as (_ & e0 & g' & Hf & Hr & Ho). rewrite Ero in Ho.
+        eapply post_expr_fail; [eapply xrun_fail; [exact R2|exact Hf]|exact Hr|exact Ho]. }
+    subst sb. destruct Heb as (_ & Hfob & g3 & R3 & HG3 & Hf3 & Hlk3).
+    destruct va as [i0|?|?| |? ? ?]; try exact Logic.I.
+    destruct vb as [hi|?|?| |? ? ?]; try exact Logic.I.
+    cbv zeta. rewrite Edec.
+    set (a3 := upd a2 (S k1 + lb) [inj (RInt hi)]) in *.
+    (* store_fast L#n *)
+    set (i_se := mkI OP_STORE_FAST [endr]) in *.
+    set (g3t := trc name a3 g3 i_se).
+    assert (HG3t : Rg pins env1 s1 g3t) by (apply Rg_trc; exact HG3).
+    destruct (bind_reg_rel pins env1 s1 g3t endr (inj (RInt hi)) HG3t ltac:(intros [_ [Hu _]]; exact Hu))
+      as (f3 & R & Ef3 & Hb3).
+    cbv zeta in Hb3. destruct Hb3 as [Hbind3 HG4].
+    set (ce := N.of_nat (length (cells g3t))) in *.
+    set (F2 := {| lab := lab f3; vars := assoc_set endr ce (vars f3) |}) in *.
+    match type of HG4 with Rg _ _ _ ?G => set (g4 := G) in * end.
+    set (a4 := upd a (S (S k1 + lb)) []).
+    assert (Hip4 : a_ip a4 = kc) by reflexivity.
+    assert (R4 : xrun prog name code a g a4 g4).
+    { eapply xrun_trans; [exact R2|]. eapply xrun_trans; [exact R3|].
+      eapply (xstep_next prog name code a3 g3 i_se _ k3 (set_ops a3 [])); [reflexivity|exact Hi3|apply dec_store_fast|].
+      apply (exec_store_fast endr a3 g3t (inj (RInt hi)) g4); [reflexivity|exact Hbind3]. }
+    (* ---- static facts about the loop-head frames F2 :: R and scopes lL *)
+    set (pins' := add_vpin pins ce (VInt hi)).
+    assert (Hxe : x <> endr) by (exact (uname_not_lregn _ _ Hx)).
+    assert (HR_tl : R = tl (frames g)).
+    { rewrite <- Hf1. change (frames g1) with (frames g1t). rewrite <- HtlS, <- Hf3.
+      change (frames g3) with (frames g3t). now rewrite Ef3. }
+    assert (HaeF2 : assoc endr (vars F2) = Some ce) by (unfold F2; cbn [vars]; apply assoc_set_same).
+    assert (Ef4 : frames g4 = F2 :: R) by reflexivity.
+    assert (HndF2 : keys_nd (vars F2)).
+    { pose proof (Rg_nd _ _ _ HG4) as Hnd. rewrite Ef4 in Hnd. inversion Hnd; assumption. }
+    assert (Hnej : forall j, j <= lr -> lregn j <> endr).
+    { intros j Hj E. apply lregn_inj in E; [lia|apply Hsml; lia|apply Hsml; lia]. }
+    assert (HlkF2 : lkeep lr (frames g) (F2 :: R)).
+    { intros j Hj. cbn [find_in_function F2 vars lab]. rewrite assoc_set_other by exact (Hnej j Hj).
+      change (match assoc (lregn j) (vars f3) with Some c0 => Some c0 | None => if special (lab f3) then find_in_function (lregn j) R else None end)
+        with (find_in_function (lregn j) (f3 :: R)).
+      rewrite <- Ef3. change (frames g3t) with (frames g3). rewrite (Hlk3 j).
+      rewrite (Hoth2 (lregn j) (fun E => uname_not_lregn x j Hx (eq_sym E))). change (frames g1t) with (frames g1). exact (Hlk1 j). }
+    assert (HxBb : In x Bb) by (unfold Bb; destruct collide; [exact (proj1 HxB)|now left]).
+    assert (Hcx : exists cx, lookup_scopes x lL = Some cx).
+    { pose proof (bound_in_look _ _ _ HbL1 HxBb) as Hl0. fold lL in Hl0. destruct (lookup_scopes x lL); [eexists; reflexivity|congruence]. }
+    destruct Hcx as [cx HlxL].
+    (* ---- leaving the loop: delete the counter and the end register (a colliding counter stays) *)
+    assert (Hexit : forall a5 g5 env5 s5, locals env5 = lL -> Rg pins' env5 s5 g5 -> frames g5 = F2 :: R ->
+              a_ip a5 = kd -> a_ops a5 = [] -> length lL <= S (a_ss a5) ->
+              exists a6 g6, xrun prog name code a5 g5 a6 g6 /\ a_ip a6 = fin /\
+                            Rst pins (if collide then env5 else undeclare env5 x) s5 a6 g6 /\
+                            act_same a5 a6 /\ tl (frames g6) = R /\
+                            locals (if collide then env5 else undeclare env5 x) = sc0 :: l' /\ lkeep lr (F2 :: R) (frames g6)).
+    { intros a5 g5 env5 s5 El5 HG5 Ef5 Hip5 Hops5 Hss5.
+      destruct Hcase as [(Ec & El1 & _)|(Ec & El1 & _)]; fold lL in El1.
+      2:{ (* a colliding counter: nothing to delete *)
+        exists a5, g5. rewrite Ec. split; [apply xrun_refl|]. split; [unfold fin, nd; rewrite Ec, Nat.add_0_r; exact Hip5|].
+        split; [split; [eapply Rg_weaken_pin; exact HG5|split; [exact Hops5|rewrite El5; exact Hss5]]|].
+        split; [apply act_same_refl|]. split; [rewrite Ef5; reflexivity|]. split; [rewrite El5; exact El1|].
+        rewrite Ef5. apply lkeep_refl. }
+      rewrite Ec. specialize (Hxn Ec). specialize (Hdel' Ec).
+      set (cx0 := N.of_nat (length (store s))) in *.
+      assert (Hxs0 : assoc x sc0 = None /\ lookup_scopes x l' = None).
+      { cbn [lookup_scopes] in Hxn. destruct (assoc x sc0); [discriminate|]. auto. }
+      destruct Hxs0 as [Hxs0 Hxl'].
+      assert (Hx3 : exists cxv, assoc x (vars f3) = Some cxv).
+      { destruct (Rg_lookup env1 s1 g3t x HG3t Hx ltac:(eapply bound_in_look; [exact HbL1|exact HxBb])) as (c1 & c1' & v1 & _ & E2 & _).
+        rewrite Ef3 in E2. cbn [find_in_function] in E2.
+        destruct (assoc x (vars f3)) as [cxv|]; [eexists; reflexivity|exfalso].
+        pose proof (Rg_fr _ _ _ HG3t) as Hfr. fold lL in Hfr. rewrite El1, Ef3 in Hfr. cbn [StmtRel.Rfr] in Hfr. destruct Hfr as [_ Hfr].
+        destruct l' as [|sc' l''].
+        - rewrite Hfr in E2. discriminate.
+        - destruct Hfr as [Hsp Hfr]. rewrite Hsp in E2.
+          pose proof (Rfr_look _ _ _ _ Hfr x Hx) as Hlk. rewrite Hxl', E2 in Hlk. exact Hlk. }
+      destruct Hx3 as [cx' Hax3].
+      assert (HaxF2 : assoc x (vars F2) = Some cx').
+      { unfold F2. cbn [vars]. rewrite assoc_set_other by exact Hxe. exact Hax3. }
+      set (vs := assoc_del endr (assoc_del x (vars F2))).
+      assert (Hvs1 : forall y, uname0 y -> y <> x -> assoc y vs = assoc y (vars F2)).
+      { intros y Hy Hne. assert (y <> endr) by (intros ->; exact (proj1 (proj2 Hy))).
+        unfold vs. now rewrite !assoc_del_other by assumption. }
+      assert (Hvs2 : assoc x vs = None).
+      { unfold vs. rewrite assoc_del_other by exact Hxe. now apply assoc_del_nd_none. }
+      assert (Hndvs : keys_nd vs) by (unfold vs; apply keys_nd_assoc_del; apply keys_nd_assoc_del; exact HndF2).
+      assert (Hdel0 : assoc_del x (assoc_set x cx0 sc0) = sc0) by (now apply assoc_del_set_absent).
+      set (i_d := mkI OP_DELETE_NAME_SCOPED [x; endr]) in *.
+      set (g5t := trc name a5 g5 i_d).
+      assert (El5' : locals env5 = assoc_set x cx0 sc0 :: l') by (rewrite El5; exact El1).
+      assert (Eu : locals (undeclare env5 x) = sc0 :: l') by (unfold undeclare; rewrite El5'; cbn [locals]; now rewrite Hdel0).
+      exists (set_ip a5 (S (a_ip a5))), (with_frames g5t ({| lab := lab F2; vars := vs |} :: R)).
+      split; [|split; [|split; [|split; [|split; [|split]]]]].
+      - eapply (xstep_next prog name code a5 g5 i_d _ kd a5); [exact Hip5|exact Hdel'|apply dec_delete2|].
+        exact (exec_delete2 x endr a5 g5t F2 R cx' ce Ef5 Hxe HaxF2 HaeF2).
+      - cbn [set_ip a_ip]. rewrite Hip5. unfold fin, nd. rewrite Ec. lia.
+      - split; [|split; [exact Hops5|]].
+        + eapply (undeclare_rel pins ce (VInt hi) env5 s5 g5t x (assoc_set x cx0 sc0) l' F2 R vs);
+            [apply Rg_trc; exact HG5|exact El5'|exact Ef5|exact Hx|exact Hvs1|exact Hvs2|now rewrite Hdel0|exact Hxl'|exact Hndvs].
+        + rewrite Eu. cbn [set_ip a_ss]. rewrite El1 in Hss5. cbn [length] in *. exact Hss5.
+      - repeat split.
+      - reflexivity.
+      - exact Eu.
+      - intros j Hj. cbn [with_frames frames find_in_function vars lab]. unfold vs.
+        rewrite !assoc_del_other; [reflexivity|exact (fun E => uname_not_lregn x j Hx (eq_sym E))|exact (Hnej j Hj)]. }
+    assert (HbL : forall envL, locals envL = lL -> bound_in Bb envL).
+    { intros envL ElL. eapply bound_in_eq; [exact HbL1|]. rewrite ElL. reflexivity. }
+    assert (HLL : exists scL, lL = scL :: l').
+    { destruct Hcase as [(_ & El1 & _)|(_ & El1 & _)]; fold lL in El1; rewrite El1; eexists; reflexivity. }
+    destruct HLL as [scL ELL].
+    assert (HlenL : length lL = S (length l')) by (rewrite ELL; reflexivity).
+    assert (HneLL : lL <> []) by (rewrite ELL; discriminate).
+    assert (HtlL : tl lL = l') by (rewrite ELL; reflexivity).
+    assert (Hkd : kw + (lbd + ls + 3) = kd) by (unfold kd, kj, kp, ks, kb; lia).
+    assert (Hkj : kj = kc + (lbd + ls + 5)) by (unfold kj, kp, ks, kb, kw; lia).
+    destruct (ok_expr_parts _ _ Hst) as (Hpse & Hlse & Huse).
+    (* ---- the loop *)
+    assert (Hloop : forall n aL gL envL sL, locals envL = lL -> Rg pins' envL sL gL -> frames gL = F2 :: R ->
+              a_ip aL = kc -> a_cb aL = cb -> length lL <= S (a_ss aL) ->
+              post pins lr sl bt ct fin B envL (frames g) aL gL
+                   (from_iter (S fuel) incl hi step x collide body n envL sL)).
+    { induction n as [|n IH]; intros aL gL envL sL ElL HGL EfL HipL HcbL HssL; [exact Logic.I|].
+      rewrite from_iter_S. rewrite ElL, HlxL.
+      destruct (Rg_lookup envL sL gL x HGL Hx ltac:(rewrite ElL, HlxL; discriminate)) as (c0 & c0' & v & E1 & E2 & Hp & E3 & Hfo & E4).
+      rewrite ElL, HlxL in E1. inversion E1; subst c0. rewrite E3.
+      destruct v as [i|?|?| |? ? ?]; try exact Logic.I. cbn [inj] in E4.
+      assert (Fe : find_in_function endr (frames gL) = Some ce) by (rewrite EfL; cbn [find_in_function]; now rewrite HaeF2).
+      assert (Ce : cell_get gL ce = Some (VInt hi)).
+      { destruct (Rg_pins _ _ _ HGL) as [Hv _]. exact (proj1 (Hv ce (VInt hi) (or_introl (conj eq_refl eq_refl)))). }
+      destruct (from_cond_run kc x endr incl aL gL c0' ce i hi Hc1 Hc2 Hc3 HipL E2 E4 Fe Ce) as (gc & Rc & Efc & HRc).
+      set (bb := if incl then (i <=? hi)%Z else (i <? hi)%Z) in *.
+      set (ac := upd aL kw [VBool bb]) in *.
+      set (i_w := mkI OP_WHILE_LOOP [sN (lbd + ls + 3)]) in *.
+      set (gct := trc name ac gc i_w).
+      assert (HGct : Rg pins' envL sL gct) by (apply Rg_trc; apply HRc; exact HGL).
+      assert (Hdecw : decode i_w = DOk (DWhile (Z.of_nat (lbd + ls + 3)))) by (apply dec_while; apply small_code; unfold fin, kd, kj, kp, ks, kb in *; lia).
+      pose proof (exec_while_gen (Z.of_nat (lbd + ls + 3)) ac gct [] bb eq_refl) as Hxw.
+      assert (HneL : locals envL <> []) by (rewrite ElL; exact HneLL).
+      destruct bb.
+      2:{ (* the counter has passed the end: leave *)
+        set (a5 := set_ip (set_ops ac []) (kw + (lbd + ls + 3))).
+        assert (R5 : xrun prog name code aL gL a5 gct).
+        { eapply xrun_trans; [exact Rc|].
+          eapply (xstep_goto prog name code ac gc i_w _ kw _ (set_ops ac [])); [reflexivity|exact Hw'|exact Hdecw|exact Hxw|].
+          apply goto_fwd. cbn [set_ops a_ip ac upd set_ip]. unfold fin in *. lia. }
+        destruct (Hexit a5 gct envL sL ElL HGct ltac:(change (frames gct) with (frames gc); now rewrite Efc) ltac:(cbn; exact Hkd) eq_refl HssL)
+          as (a6 & g6 & R6 & Hip6 & HR6 & Ha6 & Hf6 & El6 & Hlk6).
+        cbn [post]. split; [split; [rewrite El6, ElL; cbn [tl]; symmetry; exact HtlL|rewrite El6; discriminate]|].
+        split; [eapply bound_in_eq; [exact Hb|rewrite El6, El; reflexivity]|].
+        exists a6, g6. split; [eapply xrun_trans; eassumption|]. split; [exact Hip6|]. split; [exact HR6|].
+        split; [destruct Ha6 as (A1 & A2 & A3); repeat split; assumption|].
+        split; [rewrite Hf6; exact HR_tl|eapply lkeep_trans; [exact HlkF2|exact Hlk6]]. }
+      (* one more iteration: push <while>, run the body *)
+      set (a0' := set_ss (upd aL kb []) (S (a_ss aL))).
+      set (g0 := push_frame gct LWhile).
+      assert (R0 : xrun prog name code aL gL a0' g0).
+      { eapply xrun_trans; [exact Rc|].
+        eapply (xstep_push prog name code ac gc i_w _ kw LWhile (set_ops ac [])); [reflexivity|exact Hw'|exact Hdecw|exact Hxw]. }
+      assert (HR0 : Rst pins' (push_scope envL) sL a0' g0).
+      { split; [apply push_rel; [exact HGct|reflexivity]|]. split; [reflexivity|].
+        unfold a0'. cbn [push_scope locals length set_ss a_ss upd set_ip set_ops]. rewrite ElL. apply le_n_S. exact HssL. }
+      assert (HbL0 : bound_in Bb (push_scope envL)).
+      { exact (HbL envL ElL). }
+      assert (Hlc0 : lc_ok true (Some 1) kd ks (push_scope envL) (kb + length cb0)).
+      { split; [discriminate|]. intros m E. inversion E; subst m. cbn [push_scope locals length]. rewrite ElL.
+        fold lbd. fold ks. rewrite HlenL. unfold fin, kd, kj, kp in *. repeat split; lia. }
+      pose proof (Hbody pins' (S lr) true (Some 1) kd ks (S fuel) kb a0' g0 (push_scope envL) sL Bb ltac:(lia)
+                    ltac:(unfold kb, kw, kc, k3, k1; lia) Hokb HbL0 Hib'
+                    ltac:(left; fold cb0; fold lbd; unfold fin, kd, kj, kp, ks in *; lia) Hlc0 eq_refl HcbL HR0) as H.
+      fold cb0 in H. fold lbd in H. fold ks in H. unfold in_block_.
+      destruct (exec_block (S fuel) (push_scope envL) body sL) as [sig env2 s2|f s2|]; [| |exact Logic.I].
+      2:{ cbn [post] in H |- *. eapply fail_post_map; [|exact H]. intros (e0 & g' & Hf & Hr & Ho). exists e0, g'.
+          split; [eapply xrun_fail; eassumption|]. auto. }
+      cbn [post] in H. destruct H as [[Htl2 Hne2] H]. cbn [push_scope locals tl] in Htl2. rewrite ElL in Htl2.
+      assert (Hlen2 : length (locals env2) = S (length lL)).
+      { destruct (locals env2) as [|sc2 l2]; [congruence|]. cbn [tl] in Htl2. subst l2. reflexivity. }
+      assert (Epop : locals (pop_scope env2) = lL) by exact Htl2.
+      (* after the body: the step, the back edge, the next iteration *)
+      assert (Hnext : forall aB gB, xrun prog name code a0' g0 aB gB -> a_ip aB = ks -> Rst pins' env2 s2 aB gB ->
+                act_same a0' aB -> tl (frames gB) = F2 :: R ->
+                post pins lr sl bt ct fin B envL (frames g) aL gL
+                  (match eval (S fuel) (pop_scope env2) se s2 with
+                   | EVal sv s0 =>
+                     match sget s0 cx, sv with
+                     | Some (RInt i'), RInt d =>
+                       if i32_ok (i' + d)%Z
+                       then from_iter (S fuel) incl hi step x collide body n (pop_scope env2) (sset s0 cx (RInt (i' + d)%Z))
+                       else SFailed FOverflow s0
+                     | _, _ => SFailed (FType 13) s0 end
+                   | ENoVal s0 => SFailed (FType 3) s0 | EFail f s0 => SFailed f s0 | EFuel => SFuel end)).
+      { intros aB gB RB HipB (HGB & HopsB & HssB) HaB HfB.
+        assert (Hup : forall y c0, y <> hid -> lookup_scopes y lL = Some c0 -> lookup_scopes y (locals env2) = Some c0).
+        { intros y c0 Hyh Hy. destruct (locals env2) as [|sc2 l2] eqn:E2l; [discriminate|]. cbn [tl] in Htl2.
+          rewrite <- Htl2 in Hy. apply NS_lookup_tl; [|exact Hyh|exact Hy]. rewrite <- E2l. exact (Rg_ns _ _ _ HGB). }
+        assert (Hlx2 : lookup_scopes x (locals env2) = Some cx) by (apply Hup; [exact (uname_not_hid _ Hx)|exact HlxL]).
+        (* the step expression: the reference semantics evaluates it outside the loop scope; same result *)
+        assert (Huse2 : forall y, In y (used_e se) -> uname y /\ lookup_scopes y (locals env2) <> None).
+        { intros y Hy. destruct (Huse y Hy) as [Hun Hin]. split; [exact (bound_in_uname _ _ _ (HbL envL ElL) Hun Hin)|].
+          pose proof (bound_in_look _ _ _ (HbL envL ElL) Hin) as Hbd. rewrite ElL in Hbd.
+          destruct (lookup_scopes y lL) as [c0|] eqn:Ey; [|congruence].
+          rewrite (Hup y c0 (uname_not_hid _ (bound_in_uname _ _ _ (HbL envL ElL) Hun Hin)) Ey). discriminate. }
+        assert (Hag : forall y, In y (used_e se) -> agree (pop_scope env2) s2 env2 s2 y).
+        { intros y Hy. destruct (Huse2 y Hy) as [Hun Hbd].
+          destruct (Rg_lookup _ _ _ _ HGB Hun Hbd) as (c0 & c0x & v0 & F1 & _ & _ & F2' & _).
+          destruct (Huse y Hy) as [_ Hin]. pose proof (bound_in_look _ _ _ (HbL envL ElL) Hin) as Hbd0. rewrite ElL in Hbd0.
+          destruct (lookup_scopes y lL) as [c1|] eqn:Ey; [|congruence].
+          assert (c1 = c0) by (pose proof (Hup y c1 (uname_not_hid _ Hun) Ey) as H0; congruence). subst c1.
+          exists c0, c0, v0. split; [apply lookup_app_some; change (locals (pop_scope env2)) with (tl (locals env2)); rewrite Htl2; exact Ey|].
+          split; [exact F2'|]. split; [now apply lookup_app_some|exact F2']. }
+        destruct (eval_pure_congr se Hpse (S fuel) (pop_scope env2) s2 env2 s2 Hag) as [Hst_s Es].
+        pose proof (expr_run_gen pins' se c (S fuel) ks aB gB env2 s2 Hpse Hlse Huse2 ltac:(lia) Hcs'
+                      ltac:(fold ls; unfold fin, kd, kj, kp in *; lia) HipB HopsB HGB) as Hes.
+        rewrite Es in Hes. fold ls in Hes. fold kp in Hes.
+        destruct (eval (S fuel) (pop_scope env2) se s2) as [sv s0|s0|f s0|]; cbn [res_to res_st] in Hst_s, Hes;
+          [|contradiction| |exact Logic.I].
+        2:{ subst s0. destruct Hes as (_ & e0 & g' & Hf & Hr & Ho). cbn [post]. apply fail_post_intro. exists e0, g'.
+            split; [eapply xrun_fail; [exact R0|]; eapply xrun_fail; [exact RB|exact Hf]|]. split; [now apply err_rel_s_of|exact Ho]. }
+        subst s0. destruct Hes as (_ & Hfos & gE & RE & HGE & HfE & _).
+        set (aE := upd aB kp [inj sv]) in *.
+        destruct (Rg_lookup env2 s2 gE x HGE Hx ltac:(rewrite Hlx2; discriminate)) as (c2 & c2' & v2 & G1 & G2 & Hp2 & G3 & Hfo2 & G4).
+        rewrite Hlx2 in G1. inversion G1; subst c2. rewrite G3.
+        destruct v2 as [i'|?|?| |? ? ?]; try exact Logic.I.
+        destruct sv as [d|?|?| |? ? ?]; try exact Logic.I. cbn [inj] in G4.
+        pose proof (from_add_run kp x d aE gE c2' i' Hs2' eq_refl eq_refl G2 G4) as Hsr.
+        destruct (i32_ok (i' + d)%Z).
+        - destruct Hsr as (gS' & RS & EfS' & HRgS').
+          set (sS := sset s2 cx (RInt (i' + d)%Z)).
+          set (aS := upd aE (S kp) [VInt (i' + d)%Z]) in *.
+          set (gS := cell_set gS' c2' (VInt (i' + d)%Z)) in *.
+          assert (HGS : Rg pins' env2 sS gS).
+          { apply (update_rel env2 s2 gS' cx c2' (RInt (i' + d)%Z)); [apply HRgS'; exact HGE| |exact Logic.I].
+            rewrite EfS'. exact Hp2. }
+          destruct (back_edge_gen pins' kj (lbd + ls + 5) kc env2 sS aS gS Hj' ltac:(unfold fin, kd, kj, kp, ks in *; lia)
+                      ltac:(unfold fin, kd in *; lia) Hkj eq_refl HGS ltac:(rewrite Hlen2, HlenL; lia))
+            as (gN & RN & HGN & EfN).
+          eapply (post_seq pins lr sl bt ct fin B envL (frames g) aL gL (pop_scope env2) (set_ip aS kc) gN).
+          + eapply xrun_trans; [exact R0|]. eapply xrun_trans; [exact RB|]. eapply xrun_trans; [exact RE|].
+            eapply xrun_trans; [exact RS|exact RN].
+          + split; [rewrite Epop, ElL; reflexivity|rewrite Epop; exact HneLL].
+          + destruct HaB as (A1 & A2 & A3). repeat split; assumption.
+          + apply IH; [exact Epop|exact HGN| |reflexivity|cbn [set_ip aS aE upd set_ops a_cb]; rewrite (proj2 (proj2 HaB)); exact HcbL|].
+            * rewrite EfN. change (frames gS) with (frames gS'). rewrite EfS', HfE. exact HfB.
+            * cbn [set_ip aS aE upd set_ops a_ss]. rewrite Hlen2 in HssB. lia.
+        - destruct Hsr as (g3x & Rf3 & Ho3). cbn [post fail_post]. exists (E_overflow OP_BIN_OP), g3x.
+          split; [eapply xrun_fail; [exact R0|]; eapply xrun_fail; [exact RB|]; eapply xrun_fail; [exact RE|exact Rf3]|].
+          split; [left; reflexivity|]. rewrite Ho3. exact (Rg_out _ _ _ HGE). }
+      assert (Hstepc : forall (e' : fenv) (s' : rstate) (bump : rvalue -> rstate -> sres_),
+                match step with
+                | None => bump (RInt 1) s'
+                | Some se0 => match eval (S fuel) e' se0 s' with
+                              | EVal sv s0 => bump sv s0 | ENoVal s0 => SFailed (FType 3) s0
+                              | EFail f s0 => SFailed f s0 | EFuel => SFuel end
+                end = match eval (S fuel) e' se s' with
+                      | EVal sv s0 => bump sv s0 | ENoVal s0 => SFailed (FType 3) s0
+                      | EFail f s0 => SFailed f s0 | EFuel => SFuel end).
+      { intros e' s' bump. unfold se. destruct step as [e|]; reflexivity. }
+      assert (Eg0 : frames g0 = {| lab := LWhile; vars := [] |} :: F2 :: R).
+      { unfold g0, push_frame. cbn [with_frames frames]. change (frames gct) with (frames gc). now rewrite Efc, EfL. }
+      destruct sig as [| | |rv].
+      - destruct H as (_ & aB & gB & RB & HipB & HRB & HaB & HfB & _). rewrite Eg0 in HfB. cbn [tl] in HfB. cbv zeta. rewrite Hstepc.
+        apply (Hnext aB gB RB HipB HRB HaB HfB).
+      - (* break *)
+        destruct H as (m & aB & gB & Esl & RB & HipB & HRB & HaB & HfB). inversion Esl; subst m.
+        rewrite Eg0 in HfB. cbn [skipn] in HfB.
+        rewrite popn_1 in HRB. destruct HRB as (HGB & HopsB & HssB).
+        destruct (Hexit aB gB (pop_scope env2) s2 Epop HGB HfB HipB HopsB ltac:(rewrite <- Epop; exact HssB))
+          as (a6 & g6 & R6 & Hip6 & HR6 & Ha6 & Hf6 & El6 & Hlk6).
+        cbn [post]. split; [split; [rewrite El6, ElL; cbn [tl]; symmetry; exact HtlL|rewrite El6; discriminate]|].
+        split; [eapply bound_in_eq; [exact Hb|rewrite El6, El; reflexivity]|].
+        exists a6, g6. split; [eapply xrun_trans; [exact R0|]; eapply xrun_trans; eassumption|]. split; [exact Hip6|].
+        split; [exact HR6|]. split; [|split; [rewrite Hf6; exact HR_tl|eapply lkeep_trans; [exact HlkF2|exact Hlk6]]].
+        destruct HaB as (A1 & A2 & A3), Ha6 as (B1 & B2 & B3).
+        repeat split; [rewrite B1, A1|rewrite B2, A2|rewrite B3, A3]; reflexivity.
+      - (* continue *)
+        destruct H as (m & aB & gB & Esl & RB & HipB & HRB & HaB & HfB & _). inversion Esl; subst m.
+        rewrite Eg0 in HfB. cbn [skipn] in HfB.
+        cbn [Nat.sub] in HRB. rewrite popn_0 in HRB. cbv zeta. rewrite Hstepc.
+        apply (Hnext aB gB RB HipB HRB HaB HfB).
+      - (* return from inside the loop *)
+        destruct rv as [v|]; [|destruct H].
+        destruct H as (env'' & aB & gB & RB & HiB & HoB & HfoB & HGB & HaB).
+        cbn [post]. split.
+        { destruct collide; [split; [rewrite Epop, ElL; reflexivity|rewrite Epop; exact HneLL]|].
+          unfold undeclare. rewrite Epop, ELL. cbn [locals]. split; [rewrite ElL, ELL; reflexivity|discriminate]. }
+        exists env'', aB, gB. split; [eapply xrun_trans; [exact R0|exact RB]|].
+        split; [exact HiB|]. split; [exact HoB|]. split; [exact HfoB|]. split; [eapply Rg_weaken_pin; exact HGB|].
+        destruct HaB as (A1 & A2 & A3). repeat split; assumption. }
+    (* ---- put the pieces together *)
+    eapply (post_seq pins lr sl bt ct fin B env (frames g) a g env1 a4 g4); [exact R4|exact Hd2|repeat split|].
+    apply Hloop; [reflexivity|exact HG4|exact Ef4|exact Hip4|exact Hacb|].
+    rewrite HlenL. unfold a4. cbn [length upd set_ip set_ops a_ss] in *. exact Hss.
+  Qed.
+
+  Lemma lregn_not_uname0 : forall n, ~ uname0 (lregn n).
+  Proof. intros n [_ [H _]]. exact H. Qed.
+
+  Lemma from_anon_correct : forall a0 b incl step body, block_spec body ->
+    stmt_spec (SFrom a0 b incl step None false body).
+  Proof.
+    intros a0 b incl step body Hbody pins lr il sl bt ct fuel k a g env s B Hfu Hlr Hok Hb Hit Hend Hlc Hip Hacb HR. destruct Hend as [Hend|[Hend _]]; [|discriminate Hend].
+    destruct fuel as [|fuel]; [exact Logic.I|].
+    rewrite ok_SFrom in Hok. rewrite !Bool.andb_true_iff in Hok. destruct Hok as [[Hoa Hob] [Hst Hokb]].
+    apply step_ok_expr in Hst.
+    rewrite sitems_SFrom in *. cbv zeta in *. cbn [from_idn from_lr1] in *. rewrite step_code_expr in *.
+    set (se := step_expr step) in *.
+    set (cb0 := bitems c (S (S lr)) (Some 1) body) in *.
+    set (idn := lregn (S lr)) in *.
+    set (endr := lregn (S (S lr))) in *.
     set (la := length (pcode c a0)) in *. set (lb := length (pcode c b)) in *. set (lbd := length cb0) in *.
     set (ls := length (pcode c se)) in *.
     match type of Hend with k + length ?L < _ =>
@@ -2372,15 +2982,21 @@ Section Sim.
       replace ks with (S (S (S (S kc))) + (lbd + (ls + 1) + 1) - (ls + 1) - 1) by (unfold ks, kb, kw; lia).
       exact Hib. }
     assert (Hcs' : code_at code ks (pcode c se)) by exact Hcs.
-    assert (Hs2' : nth_error code kp = Some (mkI OP_BIN_OP_ASSIGN [[43%N; 61%N]; x])) by exact Hs2.
+    assert (Hs2' : nth_error code kp = Some (mkI OP_BIN_OP_ASSIGN [[43%N; 61%N]; idn])) by exact Hs2.
     assert (Hj' : nth_error code kj = Some (mkI OP_JMP_POP [neg_off (lbd + ls + 5)])).
     { replace kj with (S (S (S (S kc))) + (lbd + (ls + 1))) by (unfold kj, kp, ks, kb, kw; lia).
       replace (lbd + ls + 5) with (1 + 3 + (lbd + (ls + 1))) by lia. exact Hj. }
-    assert (Hdel' : nth_error code kd = Some (mkI OP_DELETE_NAME_SCOPED [x; endr])).
+    assert (Hdel' : nth_error code kd = Some (mkI OP_DELETE_NAME_SCOPED [idn; endr])).
     { replace kd with (S (S (S (S kc))) + (lbd + (ls + 1) + 1)) by (unfold kd, kj, kp, ks, kb, kw; lia). exact Hdel. }
     clear Hw Hib Hcs Hs2 Hj Hdel.
     assert (Hfin : k + (la + 1 + lb + 1 + 3 + 1 + (lbd + ls + 2) + 1) = fin) by (unfold fin, kd, kj, kp, ks, kb, kw, kc, k3, k1; lia).
     rewrite Hfin in *.
+    assert (Hsml : forall j, j <= S (S (S lr)) -> small j).
+    { intros j Hj. eapply small_le; [|exact Hsmall]. unfold fin, kd, kj, kp, ks, kb, kw, kc, k3, k1 in Hend. lia. }
+    assert (Hie : idn <> endr).
+    { intros E. apply lregn_inj in E; [lia|apply Hsml; lia|apply Hsml; lia]. }
+    assert (Hnej : forall j, j <= lr -> lregn j <> idn /\ lregn j <> endr).
+    { intros j Hj. split; intros E; apply lregn_inj in E; try lia; apply Hsml; lia. }
     destruct HR as (HG & Hops & Hss).
     rewrite exec_SFrom. cbn [after].
     destruct fuel as [|fuel]; [exact Logic.I|].
@@ -2389,67 +3005,85 @@ Section Sim.
     fold la in He. fold k1 in He.
     destruct (eval (S fuel) env a0 s) as [va s1|s1|f s1|]; [|contradiction| |exact Logic.I].
     2:{ destruct He as (-> & e0 & g' & Hf & Hr & Ho). eapply post_expr_fail; eassumption. }
-    destruct He as (-> & Hfoa & g1 & R1 & HG1 & Hf1).
-    (* the counter is a fresh name *)
-    assert (Hxn : lookup_scopes x (locals env) = None).
-    { destruct (lookup_scopes x (locals env)) eqn:E; [|reflexivity].
-      destruct (proj1 (proj1 Hb x) ltac:(congruence)) as [Hin|Hin]; [|apply Hlfuns in Hin]; apply In_mem_str in Hin; congruence. }
-    destruct (declare env s x va) as [env1 s1] eqn:Edec.
-    assert (Eas : assign env s x va = (env1, s1)) by (unfold assign; rewrite Hxn; exact Edec).
+    destruct He as (-> & Hfoa & g1 & R1 & HG1 & Hf1 & Hlk1).
+    (* the hidden counter: source name `hid` in the innermost scope, VM register L#(lr+1) in the top frame *)
     destruct (locals env) as [|sc0 l'] eqn:El; [exact (False_ind _ (Rg_ne _ _ _ HG El))|].
     set (cx := N.of_nat (length (store s))).
-    assert (El1 : locals env1 = assoc_set x cx sc0 :: l').
-    { unfold declare, alloc in Edec. rewrite El in Edec. inversion Edec. reflexivity. }
+    set (lL := assoc_set hid cx sc0 :: l').
+    set (env1 := {| locals := lL; captured := captured env; cur := cur env |}).
+    set (s1 := {| store := store s ++ [va]; rout := rout s |}).
+    assert (Edec : declare env s hid va = (env1, s1)).
+    { unfold declare, alloc. rewrite El. reflexivity. }
     assert (Es1 : forall c0 v, sget s c0 = Some v -> sget s1 c0 = Some v).
-    { intros c0 v Hv. unfold declare, alloc in Edec. rewrite El in Edec. inversion Edec. unfold sget in *. cbn [store].
-      rewrite nth_error_app1; [exact Hv|apply nth_error_Some; congruence]. }
-    assert (Ero : rout s1 = rout s).
-    { unfold declare, alloc in Edec. rewrite El in Edec. inversion Edec. reflexivity. }
-    (* store_fast x (the VM declares the counter BEFORE it evaluates the upper bound) *)
+    { intros c0 v Hv. unfold sget in *. cbn [s1 store]. rewrite nth_error_app1; [exact Hv|apply nth_error_Some; congruence]. }
+    (* store_fast L#(lr+1) *)
     set (a1 := upd a k1 [inj va]) in *.
-    set (i_sx := mkI OP_STORE_FAST [x]) in *.
+    set (i_sx := mkI OP_STORE_FAST [idn]) in *.
     set (g1t := trc name a1 g1 i_sx).
     assert (HG1t : Rg pins env s g1t) by (apply Rg_trc; exact HG1).
-    destruct (store_rel env s g1t x va env1 s1 HG1t Hx Hfoa Eas) as (g2 & Hst2 & HG2S & Hd2 & Hbx2 & HtlS).
-    assert (Hfn : find_in_function x (frames g1t) = None).
-    { pose proof (Rfr_look _ _ _ _ (Rg_fr _ _ _ HG1t) x Hx) as H. rewrite El, Hxn in H.
-      destruct (find_in_function x (frames g1t)); [contradiction|reflexivity]. }
-    unfold store_var in Hst2. rewrite Hfn in Hst2.
+    destruct (bind_reg_rel pins env s g1t idn (inj va) HG1t (lregn_not_uname0 _)) as (f1 & R & Ef1 & Hb1).
+    cbv zeta in Hb1. destruct Hb1 as [Hbind1 HG2v].
+    set (c' := N.of_nat (length (cells g1t))) in *.
+    set (F1 := {| lab := lab f1; vars := assoc_set idn c' (vars f1) |}) in *.
+    match type of HG2v with Rg _ _ _ ?G => set (g2 := G) in * end.
     set (a2 := upd a (S k1) []).
     assert (R2 : xrun prog name code a g a2 g2).
     { eapply xrun_trans; [exact R1|].
       eapply (xstep_next prog name code a1 g1 i_sx _ k1 (set_ops a1 [])); [reflexivity|exact Hi1|apply dec_store_fast|].
-      apply (exec_store_fast x a1 g1t (inj va) g2); [reflexivity|exact Hst2]. }
-    assert (HbL1 : bound_in (x :: B) env1).
-    { eapply bound_in_assign; eassumption. }
+      apply (exec_store_fast idn a1 g1t (inj va) g2); [reflexivity|exact Hbind1]. }
+    set (pins2 := add_spin (add_vpin pins c' (inj va)) cx va).
+    assert (HG2 : Rg pins2 env1 s1 g2).
+    { pose proof (alloc_rel _ _ _ _ va HG2v) as HA. fold cx s1 in HA.
+      pose proof (top_swap_rel _ env s1 g2 sc0 l' F1 R (assoc_set hid cx sc0) (vars F1) HA El eq_refl) as HT.
+      apply HT.
+      - intros y Hy. now rewrite assoc_set_other.
+      - intros y _. reflexivity.
+      - pose proof (Rg_nd _ _ _ HA) as Hnd. inversion Hnd; assumption. }
+    (* freshness of the two counter cells *)
+    assert (HfrV : forall (Q : pinset) l0 fs0, pins_ok Q l0 fs0 (store s) (cells g1t) -> forall w, ~ vpin Q c' w).
+    { intros Q l0 fs0 [H1 _] w Hq. destruct (H1 c' w Hq) as [A _]. unfold c' in A. rewrite Nnat.Nat2N.id in A.
+      assert (length (cells g1t) < length (cells g1t)) by (apply nth_error_Some; congruence). lia. }
+    assert (HfrS : forall (Q : pinset) l0 fs0, pins_ok Q l0 fs0 (store s) (cells g1t) -> forall v, ~ spin Q cx v).
+    { intros Q l0 fs0 [_ H2] v Hq. destruct (H2 cx v Hq) as [A _]. unfold cx in A. rewrite Nnat.Nat2N.id in A.
+      assert (length (store s) < length (store s)) by (apply nth_error_Some; congruence). lia. }
+    pose proof (HfrV _ _ _ (Rg_pins _ _ _ HG1t)) as HPv. pose proof (HfrS _ _ _ (Rg_pins _ _ _ HG1t)) as HPs.
+    pose proof (HfrV _ _ _ (Rg_fpin _ _ _ HG1t)) as HFv. pose proof (HfrS _ _ _ (Rg_fpin _ _ _ HG1t)) as HFs.
+    assert (HbL1 : bound_in B env1).
+    { destruct Hb as [H1 H2]. split; [|exact H2]. intros y Hy. rewrite <- (H1 y Hy). cbn [env1 locals lL lookup_scopes].
+      rewrite El. cbn [lookup_scopes]. now rewrite assoc_set_other. }
     (* the upper bound: the reference semantics evaluates it before the counter exists; same result *)
+    destruct (ok_expr_parts _ _ Hob) as (Hpb & Hlb & Hub).
     assert (Hagb : forall y, In y (used_e b) -> agree env s env1 s1 y).
     { eapply (agree_of pins env s g env1 s1 b B HG Hob); [exact Hb| |exact Es1].
-      intros y c0 Hy Hl0. rewrite El in Hl0. rewrite El1. cbn [lookup_scopes] in Hl0 |- *.
-      rewrite assoc_set_other; [exact Hl0|]. intros ->. apply In_mem_str in Hy. congruence. }
-    destruct (ok_expr_parts _ _ Hob) as (Hpb & _ & _).
+      intros y c0 Hy Hl0. rewrite El in Hl0. cbn [env1 locals lL lookup_scopes] in *.
+      rewrite assoc_set_other; [exact Hl0|]. intros ->. exact (proj2 (proj2 Hb hid Hy) eq_refl). }
     destruct (eval_pure_congr b Hpb (S fuel) env s env1 s1 Hagb) as [Hst_b Eb1].
-    pose proof (expr_run pins b c (S fuel) (S k1) a2 g2 env1 s1 (x :: B) (ok_expr_weaken B x b Hob) HbL1 ltac:(lia) Hcb
-                  ltac:(fold lb; unfold fin, kd, kj, kp, ks, kb, kw, kc, k3 in *; lia) eq_refl eq_refl HG2S) as Heb.
+    pose proof (expr_run_ext pins2 b c (S fuel) (S k1) a2 g2 env1 s1 Hpb Hlb
+                  ltac:(intros x Hx; destruct (Hub x Hx) as [Hs0 Hin]; split; [eapply bound_in_uname; eassumption|eapply bound_in_look; eassumption])
+                  ltac:(lia) Hcb ltac:(fold lb; unfold fin, kd, kj, kp, ks, kb, kw, kc, k3 in *; lia) eq_refl eq_refl HG2) as Heb.
     rewrite Eb1 in Heb. fold lb in Heb.
     destruct (eval (S fuel) env b s) as [vb sb|sb|f sb|]; cbn [res_to res_st] in Hst_b, Heb; [|contradiction| |exact Logic.I].
-    2:{ subst sb. destruct Heb as (_ & e0 & g' & Hf & Hr & Ho). rewrite Ero in Ho.
+    2:{ subst sb. destruct Heb as (_ & e0 & g' & Hf & Hr & Ho).
         eapply post_expr_fail; [eapply xrun_fail; [exact R2|exact Hf]|exact Hr|exact Ho]. }
-    subst sb. destruct Heb as (_ & Hfob & g3 & R3 & HG3 & Hf3).
+    subst sb. destruct Heb as (_ & Hfob & g3 & R3 & HG3 & He3).
+    pose proof (ext_tail _ _ _ _ _ He3) as Hf3. pose proof (lkeepA_ext _ _ _ _ _ He3) as Hlk3.
     destruct va as [i0|?|?| |? ? ?]; try exact Logic.I.
     destruct vb as [hi|?|?| |? ? ?]; try exact Logic.I.
-    cbv zeta. rewrite Edec.
+    cbv zeta. change [0%N] with hid.
+    rewrite Edec.
     set (a3 := upd a2 (S k1 + lb) [inj (RInt hi)]) in *.
-    (* store_fast L#n *)
+    (* store_fast L#(lr+2) *)
     set (i_se := mkI OP_STORE_FAST [endr]) in *.
     set (g3t := trc name a3 g3 i_se).
-    assert (HG3t : Rg pins env1 s1 g3t) by (apply Rg_trc; exact HG3).
-    destruct (bind_reg_rel pins env1 s1 g3t endr (inj (RInt hi)) HG3t ltac:(intros [_ Hu]; exact Hu))
-      as (f3 & R & Ef3 & Hb3).
+    assert (HG3t : Rg pins2 env1 s1 g3t) by (apply Rg_trc; exact HG3).
+    destruct (bind_reg_rel pins2 env1 s1 g3t endr (inj (RInt hi)) HG3t (lregn_not_uname0 _)) as (f3 & R' & Ef3 & Hb3).
     cbv zeta in Hb3. destruct Hb3 as [Hbind3 HG4].
     set (ce := N.of_nat (length (cells g3t))) in *.
     set (F2 := {| lab := lab f3; vars := assoc_set endr ce (vars f3) |}) in *.
     match type of HG4 with Rg _ _ _ ?G => set (g4 := G) in * end.
+    assert (ER : R' = R).
+    { assert (H : tl (frames g3t) = tl (frames g2)) by exact Hf3. rewrite Ef3 in H. exact H. }
+    subst R'.
     set (a4 := upd a (S (S k1 + lb)) []).
     assert (Hip4 : a_ip a4 = kc) by reflexivity.
     assert (R4 : xrun prog name code a g a4 g4).
@@ -2457,88 +3091,105 @@ Section Sim.
       eapply (xstep_next prog name code a3 g3 i_se _ k3 (set_ops a3 [])); [reflexivity|exact Hi3|apply dec_store_fast|].
       apply (exec_store_fast endr a3 g3t (inj (RInt hi)) g4); [reflexivity|exact Hbind3]. }
     (* ---- static facts about the loop-head frames F2 :: R and scopes lL *)
-    set (pins' := add_vpin pins ce (VInt hi)).
-    set (lL := assoc_set x cx sc0 :: l').
-    assert (Hxe : x <> endr) by (exact (uname_not_lregn _ _ Hx)).
-    assert (Hxs0 : assoc x sc0 = None /\ lookup_scopes x l' = None).
-    { cbn [lookup_scopes] in Hxn. destruct (assoc x sc0); [discriminate|]. auto. }
-    destruct Hxs0 as [Hxs0 Hxl'].
     assert (HR_tl : R = tl (frames g)).
-    { rewrite <- Hf1. change (frames g1) with (frames g1t). rewrite <- HtlS, <- Hf3.
-      change (frames g3) with (frames g3t). now rewrite Ef3. }
-    assert (Hx3 : exists cxv, assoc x (vars f3) = Some cxv).
-    { destruct (Rg_lookup env1 s1 g3t x HG3t Hx ltac:(eapply bound_in_look; [exact HbL1|now left])) as (c1 & c1' & v1 & _ & E2 & _).
-      rewrite Ef3 in E2. cbn [find_in_function] in E2.
-      destruct (assoc x (vars f3)) as [cxv|]; [eexists; reflexivity|exfalso].
-      pose proof (Rg_fr _ _ _ HG3t) as Hfr. rewrite El1, Ef3 in Hfr. cbn [StmtRel.Rfr] in Hfr. destruct Hfr as [_ Hfr].
-      destruct l' as [|sc' l''].
-      - rewrite Hfr in E2. discriminate.
-      - destruct Hfr as [Hsp Hfr]. rewrite Hsp in E2.
-        pose proof (Rfr_look _ _ _ _ Hfr x Hx) as Hlk. rewrite Hxl', E2 in Hlk. exact Hlk. }
-    destruct Hx3 as [cx' Hax3].
-    assert (HaxF2 : assoc x (vars F2) = Some cx').
-    { unfold F2. cbn [vars]. rewrite assoc_set_other by exact Hxe. exact Hax3. }
+    { rewrite <- Hf1. change (frames g1) with (frames g1t). now rewrite Ef1. }
+    assert (Hidf3 : assoc idn (vars f3) = Some c').
+    { pose proof (ext_top _ _ _ _ _ He3 idn ltac:(intros (k0 & _ & _ & E); exact (lregn_not_reg _ _ E))) as H.
+      change (frames g3) with (frames g3t) in H. rewrite Ef3 in H. cbn [top_vars frames g2 F1 vars] in H. rewrite H. apply assoc_set_same. }
+    assert (HaiF2 : assoc idn (vars F2) = Some c').
+    { unfold F2. cbn [vars]. rewrite assoc_set_other by exact Hie. exact Hidf3. }
     assert (HaeF2 : assoc endr (vars F2) = Some ce) by (unfold F2; cbn [vars]; apply assoc_set_same).
     assert (Ef4 : frames g4 = F2 :: R) by reflexivity.
     assert (HndF2 : keys_nd (vars F2)).
     { pose proof (Rg_nd _ _ _ HG4) as Hnd. rewrite Ef4 in Hnd. inversion Hnd; assumption. }
-    set (vs := assoc_del endr (assoc_del x (vars F2))).
-    assert (Hvs1 : forall y, uname0 y -> y <> x -> assoc y vs = assoc y (vars F2)).
-    { intros y Hy Hne. assert (y <> endr) by (intros ->; exact (proj2 Hy)).
-      unfold vs. now rewrite !assoc_del_other by assumption. }
-    assert (Hvs2 : assoc x vs = None).
-    { unfold vs. rewrite assoc_del_other by exact Hxe. now apply assoc_del_nd_none. }
-    assert (Hndvs : keys_nd vs) by (unfold vs; apply keys_nd_assoc_del; apply keys_nd_assoc_del; exact HndF2).
-    assert (Hdel0 : assoc_del x (assoc_set x cx sc0) = sc0) by (now apply assoc_del_set_absent).
-    (* ---- leaving the loop: delete the counter and the end register *)
-    assert (Hexit : forall a5 g5 env5 s5, locals env5 = lL -> Rg pins' env5 s5 g5 -> frames g5 = F2 :: R ->
+    assert (Hcec : ce <> c').
+    { unfold ce, c'. intros E. apply Nnat.Nat2N.inj in E.
+      destruct (ext_cells _ _ _ _ _ He3) as [extra Ec]. change (cells g3t) with (cells g3) in E. rewrite Ec in E.
+      cbn [g2 cells] in E. rewrite !app_length in E. cbn [length] in E. lia. }
+    assert (HlkF2 : lkeep lr (frames g) (F2 :: R)).
+    { intros j Hj. destruct (Hnej j Hj) as [N1 N2]. cbn [find_in_function F2 vars lab]. rewrite assoc_set_other by exact N2.
+      change (match assoc (lregn j) (vars f3) with Some c0 => Some c0 | None => if special (lab f3) then find_in_function (lregn j) R else None end)
+        with (find_in_function (lregn j) (f3 :: R)).
+      rewrite <- Ef3. change (frames g3t) with (frames g3). rewrite (Hlk3 j).
+      cbn [g2 frames find_in_function F1 vars lab]. rewrite assoc_set_other by exact N1.
+      change (match assoc (lregn j) (vars f1) with Some c0 => Some c0 | None => if special (lab f1) then find_in_function (lregn j) R else None end)
+        with (find_in_function (lregn j) (f1 :: R)).
+      rewrite <- Ef1. change (frames g1t) with (frames g1). exact (Hlk1 j). }
+    set (pL := fun i : Z => cpins pins cx c' i ce hi).
+    assert (HG4' : Rg (pL i0) env1 s1 g4).
+    { eapply Rg_pins_imp; [exact HG4| |].
+      - intros cy w [[-> ->]|[[-> ->]|Hq]]; cbn [add_vpin add_spin pins2 vpin]; [right; left; auto|left; auto|right; right; exact Hq].
+      - intros c0 v [[-> ->]|Hq]; cbn [add_vpin add_spin pins2 spin]; [left; auto|right; exact Hq]. }
+    assert (HlxL : lookup_scopes hid lL = Some cx) by (cbn [lL lookup_scopes]; now rewrite assoc_set_same).
+    assert (HlenL : length lL = S (length l')) by reflexivity.
+    assert (HneLL : lL <> []) by discriminate.
+    set (sc1 := assoc_del hid (assoc_set hid cx sc0)).
+    set (vs := assoc_del endr (assoc_del idn (vars F2))).
+    (* ---- leaving the loop: delete the counter register and the end register, forget the hidden counter *)
+    assert (Hexit : forall i a5 g5 env5 s5, locals env5 = lL -> Rg (pL i) env5 s5 g5 -> frames g5 = F2 :: R ->
               a_ip a5 = kd -> a_ops a5 = [] -> length lL <= S (a_ss a5) ->
-              exists a6 g6, xrun prog name code a5 g5 a6 g6 /\ a_ip a6 = fin /\ Rst pins (undeclare env5 x) s5 a6 g6 /\
-                            act_same a5 a6 /\ tl (frames g6) = R /\ locals (undeclare env5 x) = sc0 :: l').
-    { intros a5 g5 env5 s5 El5 HG5 Ef5 Hip5 Hops5 Hss5.
-      set (i_d := mkI OP_DELETE_NAME_SCOPED [x; endr]) in *.
+              exists a6 g6, xrun prog name code a5 g5 a6 g6 /\ a_ip a6 = fin /\ Rst pins (undeclare env5 hid) s5 a6 g6 /\
+                            act_same a5 a6 /\ tl (frames g6) = R /\ locals (undeclare env5 hid) = sc1 :: l' /\
+                            lkeep lr (F2 :: R) (frames g6)).
+    { intros i a5 g5 env5 s5 El5 HG5 Ef5 Hip5 Hops5 Hss5.
+      set (i_d := mkI OP_DELETE_NAME_SCOPED [idn; endr]) in *.
       set (g5t := trc name a5 g5 i_d).
-      assert (Eu : locals (undeclare env5 x) = sc0 :: l') by (unfold undeclare; rewrite El5; cbn [locals lL]; now rewrite Hdel0).
+      assert (Eu : locals (undeclare env5 hid) = sc1 :: l') by (unfold undeclare; rewrite El5; reflexivity).
       exists (set_ip a5 (S (a_ip a5))), (with_frames g5t ({| lab := lab F2; vars := vs |} :: R)).
-      split; [|split; [|split; [|split; [|split]]]].
+      split; [|split; [|split; [|split; [|split; [|split]]]]].
       - eapply (xstep_next prog name code a5 g5 i_d _ kd a5); [exact Hip5|exact Hdel'|apply dec_delete2|].
-        exact (exec_delete2 x endr a5 g5t F2 R cx' ce Ef5 Hxe HaxF2 HaeF2).
+        exact (exec_delete2 idn endr a5 g5t F2 R c' ce Ef5 Hie HaiF2 HaeF2).
       - cbn [set_ip a_ip]. rewrite Hip5. reflexivity.
       - split; [|split; [exact Hops5|]].
-        + eapply (undeclare_rel pins ce (VInt hi) env5 s5 g5t x (assoc_set x cx sc0) l' F2 R vs);
-            [apply Rg_trc; exact HG5|exact El5|exact Ef5|exact Hx|exact Hvs1|exact Hvs2|now rewrite Hdel0|exact Hxl'|exact Hndvs].
-        + rewrite Eu. cbn [set_ip a_ss length lL] in *. exact Hss5.
+        + assert (HG5p : Rg pins env5 s5 g5t).
+          { apply Rg_trc. eapply Rg_pins_imp; [exact HG5| |].
+            - intros cy w Hq. right. right. exact Hq.
+            - intros c0 v Hq. right. exact Hq. }
+          pose proof (top_swap_rel pins env5 s5 g5t (assoc_set hid cx sc0) l' F2 R sc1 vs HG5p El5 Ef5) as HT.
+          unfold undeclare. rewrite El5. apply HT.
+          * intros y Hy. unfold sc1. now rewrite assoc_del_other.
+          * intros y Hy. unfold vs. rewrite !assoc_del_other; [reflexivity| |].
+            -- intros ->. exact (lregn_not_uname0 _ Hy).
+            -- intros ->. exact (lregn_not_uname0 _ Hy).
+          * unfold vs. apply keys_nd_assoc_del. apply keys_nd_assoc_del. exact HndF2.
+        + rewrite Eu. cbn [set_ip a_ss length] in *. exact Hss5.
       - repeat split.
       - reflexivity.
-      - exact Eu. }
-    assert (HbL : forall envL, locals envL = lL -> bound_in (x :: B) envL).
-    { intros envL ElL. eapply bound_in_eq; [exact HbL1|]. rewrite ElL, El1. reflexivity. }
-    assert (HlxL : lookup_scopes x lL = Some cx) by (cbn [lL lookup_scopes]; now rewrite assoc_set_same).
+      - exact Eu.
+      - intros j Hj. destruct (Hnej j Hj) as [N1 N2]. cbn [with_frames frames find_in_function vars lab]. unfold vs.
+        rewrite !assoc_del_other; [reflexivity|exact N1|exact N2]. }
+    assert (Hsc1 : forall y, y <> hid -> lookup_scopes y (sc1 :: l') = lookup_scopes y (sc0 :: l')).
+    { intros y Hy. cbn [lookup_scopes]. unfold sc1. rewrite assoc_del_other, assoc_set_other by exact Hy. reflexivity. }
+    assert (HbX : forall envX, locals envX = sc1 :: l' -> bound_in B envX).
+    { intros envX EX. destruct Hb as [H1 H2]. split; [|exact H2]. intros y Hy. rewrite EX, (Hsc1 y Hy), <- El. exact (H1 y Hy). }
+    assert (HbL : forall envL, locals envL = lL -> bound_in B envL).
+    { intros envL ElL. eapply bound_in_eq; [exact HbL1|]. rewrite ElL. reflexivity. }
     assert (Hkd : kw + (lbd + ls + 3) = kd) by (unfold kd, kj, kp, ks, kb; lia).
     assert (Hkj : kj = kc + (lbd + ls + 5)) by (unfold kj, kp, ks, kb, kw; lia).
     destruct (ok_expr_parts _ _ Hst) as (Hpse & Hlse & Huse).
     (* ---- the loop *)
-    assert (Hloop : forall n aL gL envL sL, locals envL = lL -> Rg pins' envL sL gL -> frames gL = F2 :: R ->
+    assert (Hloop : forall n i aL gL envL sL, locals envL = lL -> Rg (pL i) envL sL gL -> frames gL = F2 :: R ->
               a_ip aL = kc -> a_cb aL = cb -> length lL <= S (a_ss aL) ->
-              post pins sl bt ct fin B envL (frames g) aL gL
-                   (from_iter (S fuel) incl hi step x false body n envL sL)).
-    { induction n as [|n IH]; intros aL gL envL sL ElL HGL EfL HipL HcbL HssL; [exact Logic.I|].
+              post pins lr sl bt ct fin B envL (frames g) aL gL
+                   (from_iter (S fuel) incl hi step hid false body n envL sL)).
+    { induction n as [|n IH]; intros i aL gL envL sL ElL HGL EfL HipL HcbL HssL; [exact Logic.I|].
       rewrite from_iter_S. rewrite ElL, HlxL.
-      destruct (Rg_lookup envL sL gL x HGL Hx ltac:(rewrite ElL, HlxL; discriminate)) as (c0 & c0' & v & E1 & E2 & Hp & E3 & Hfo & E4).
-      rewrite ElL, HlxL in E1. inversion E1; subst c0. rewrite E3.
-      destruct v as [i|?|?| |? ? ?]; try exact Logic.I. cbn [inj] in E4.
+      destruct (Rg_pins _ _ _ HGL) as [PV PS].
+      assert (E3 : sget sL cx = Some (RInt i)) by exact (proj1 (PS cx (RInt i) (or_introl (conj eq_refl eq_refl)))).
+      assert (E4 : cell_get gL c' = Some (VInt i)) by exact (proj1 (PV c' (VInt i) (or_introl (conj eq_refl eq_refl)))).
+      assert (Ce : cell_get gL ce = Some (VInt hi)) by exact (proj1 (PV ce (VInt hi) (or_intror (or_introl (conj eq_refl eq_refl))))).
+      rewrite E3.
+      assert (E2 : find_in_function idn (frames gL) = Some c') by (rewrite EfL; cbn [find_in_function]; now rewrite HaiF2).
       assert (Fe : find_in_function endr (frames gL) = Some ce) by (rewrite EfL; cbn [find_in_function]; now rewrite HaeF2).
-      assert (Ce : cell_get gL ce = Some (VInt hi)).
-      { destruct (Rg_pins _ _ _ HGL) as [Hv _]. exact (proj1 (Hv ce (VInt hi) (or_introl (conj eq_refl eq_refl)))). }
-      destruct (from_cond_run kc x endr incl aL gL c0' ce i hi Hc1 Hc2 Hc3 HipL E2 E4 Fe Ce) as (gc & Rc & Efc & HRc).
+      destruct (from_cond_run kc idn endr incl aL gL c' ce i hi Hc1 Hc2 Hc3 HipL E2 E4 Fe Ce) as (gc & Rc & Efc & HRc).
       set (bb := if incl then (i <=? hi)%Z else (i <? hi)%Z) in *.
       set (ac := upd aL kw [VBool bb]) in *.
       set (i_w := mkI OP_WHILE_LOOP [sN (lbd + ls + 3)]) in *.
       set (gct := trc name ac gc i_w).
-      assert (HGct : Rg pins' envL sL gct) by (apply Rg_trc; apply HRc; exact HGL).
+      assert (HGct : Rg (pL i) envL sL gct) by (apply Rg_trc; apply HRc; exact HGL).
       assert (Hdecw : decode i_w = DOk (DWhile (Z.of_nat (lbd + ls + 3)))) by (apply dec_while; apply small_code; unfold fin, kd, kj, kp, ks, kb in *; lia).
       pose proof (exec_while_gen (Z.of_nat (lbd + ls + 3)) ac gct [] bb eq_refl) as Hxw.
-      assert (HneL : locals envL <> []) by (rewrite ElL; discriminate).
+      assert (HneL : locals envL <> []) by (rewrite ElL; exact HneLL).
       destruct bb.
       2:{ (* the counter has passed the end: leave *)
         set (a5 := set_ip (set_ops ac []) (kw + (lbd + ls + 3))).
@@ -2546,27 +3197,29 @@ Section Sim.
         { eapply xrun_trans; [exact Rc|].
           eapply (xstep_goto prog name code ac gc i_w _ kw _ (set_ops ac [])); [reflexivity|exact Hw'|exact Hdecw|exact Hxw|].
           apply goto_fwd. cbn [set_ops a_ip ac upd set_ip]. unfold fin in *. lia. }
-        destruct (Hexit a5 gct envL sL ElL HGct ltac:(change (frames gct) with (frames gc); now rewrite Efc) ltac:(cbn; exact Hkd) eq_refl HssL)
-          as (a6 & g6 & R6 & Hip6 & HR6 & Ha6 & Hf6 & El6).
+        destruct (Hexit i a5 gct envL sL ElL HGct ltac:(change (frames gct) with (frames gc); now rewrite Efc) ltac:(cbn; exact Hkd) eq_refl HssL)
+          as (a6 & g6 & R6 & Hip6 & HR6 & Ha6 & Hf6 & El6 & Hlk6).
         cbn [post]. split; [split; [rewrite El6, ElL; reflexivity|rewrite El6; discriminate]|].
-        split; [eapply bound_in_eq; [exact Hb|rewrite El6, El; reflexivity]|].
+        split; [exact (HbX _ El6)|].
         exists a6, g6. split; [eapply xrun_trans; eassumption|]. split; [exact Hip6|]. split; [exact HR6|].
-        split; [destruct Ha6 as (A1 & A2 & A3); repeat split; assumption|]. rewrite Hf6. exact HR_tl. }
+        split; [destruct Ha6 as (A1 & A2 & A3); repeat split; assumption|].
+        split; [rewrite Hf6; exact HR_tl|eapply lkeep_trans; [exact HlkF2|exact Hlk6]]. }
       (* one more iteration: push <while>, run the body *)
       set (a0' := set_ss (upd aL kb []) (S (a_ss aL))).
       set (g0 := push_frame gct LWhile).
       assert (R0 : xrun prog name code aL gL a0' g0).
       { eapply xrun_trans; [exact Rc|].
         eapply (xstep_push prog name code ac gc i_w _ kw LWhile (set_ops ac [])); [reflexivity|exact Hw'|exact Hdecw|exact Hxw]. }
-      assert (HR0 : Rst pins' (push_scope envL) sL a0' g0).
+      assert (HR0 : Rst (pL i) (push_scope envL) sL a0' g0).
       { split; [apply push_rel; [exact HGct|reflexivity]|]. split; [reflexivity|].
-        unfold a0'. cbn [push_scope locals length set_ss a_ss upd set_ip set_ops]. rewrite ElL. cbn [length lL] in *. apply le_n_S. exact HssL. }
-      assert (HbL0 : bound_in (x :: B) (push_scope envL)).
+        unfold a0'. cbn [push_scope locals length set_ss a_ss upd set_ip set_ops]. rewrite ElL. apply le_n_S. exact HssL. }
+      assert (HbL0 : bound_in B (push_scope envL)).
       { exact (HbL envL ElL). }
       assert (Hlc0 : lc_ok true (Some 1) kd ks (push_scope envL) (kb + length cb0)).
       { split; [discriminate|]. intros m E. inversion E; subst m. cbn [push_scope locals length]. rewrite ElL.
-        fold lbd. fold ks. cbn [lL length]. unfold fin, kd, kj, kp in *. repeat split; lia. }
-      pose proof (Hbody pins' (S lr) true (Some 1) kd ks (S fuel) kb a0' g0 (push_scope envL) sL (x :: B) ltac:(lia) Hokb HbL0 Hib'
+        fold lbd. fold ks. rewrite ?HlenL. cbn [lL length]. unfold fin, kd, kj, kp in *. repeat split; lia. }
+      pose proof (Hbody (pL i) (S (S lr)) true (Some 1) kd ks (S fuel) kb a0' g0 (push_scope envL) sL B ltac:(lia)
+                    ltac:(unfold kb, kw, kc, k3, k1; lia) Hokb HbL0 Hib'
                     ltac:(left; fold cb0; fold lbd; unfold fin, kd, kj, kp, ks in *; lia) Hlc0 eq_refl HcbL HR0) as H.
       fold cb0 in H. fold lbd in H. fold ks in H. unfold in_block_.
       destruct (exec_block (S fuel) (push_scope envL) body sL) as [sig env2 s2|f s2|]; [| |exact Logic.I].
@@ -2576,71 +3229,76 @@ Section Sim.
       assert (Hlen2 : length (locals env2) = S (length lL)).
       { destruct (locals env2) as [|sc2 l2]; [congruence|]. cbn [tl] in Htl2. subst l2. reflexivity. }
       assert (Epop : locals (pop_scope env2) = lL) by exact Htl2.
+      assert (Eg0 : frames g0 = {| lab := LWhile; vars := [] |} :: F2 :: R).
+      { unfold g0, push_frame. cbn [with_frames frames]. change (frames gct) with (frames gc). now rewrite Efc, EfL. }
+      assert (Hid0 : find_in_function idn (frames g0) = Some c').
+      { rewrite Eg0. cbn [find_in_function vars assoc lab special]. now rewrite HaiF2. }
       (* after the body: the step, the back edge, the next iteration *)
-      assert (Hnext : forall aB gB, xrun prog name code a0' g0 aB gB -> a_ip aB = ks -> Rst pins' env2 s2 aB gB ->
-                act_same a0' aB -> tl (frames gB) = F2 :: R ->
-                post pins sl bt ct fin B envL (frames g) aL gL
+      assert (Hnext : forall aB gB, xrun prog name code a0' g0 aB gB -> a_ip aB = ks -> Rst (pL i) env2 s2 aB gB ->
+                act_same a0' aB -> tl (frames gB) = F2 :: R -> find_in_function idn (frames gB) = Some c' ->
+                post pins lr sl bt ct fin B envL (frames g) aL gL
                   (match eval (S fuel) (pop_scope env2) se s2 with
                    | EVal sv s0 =>
                      match sget s0 cx, sv with
                      | Some (RInt i'), RInt d =>
                        if i32_ok (i' + d)%Z
-                       then from_iter (S fuel) incl hi step x false body n (pop_scope env2) (sset s0 cx (RInt (i' + d)%Z))
+                       then from_iter (S fuel) incl hi step hid false body n (pop_scope env2) (sset s0 cx (RInt (i' + d)%Z))
                        else SFailed FOverflow s0
                      | _, _ => SFailed (FType 13) s0 end
                    | ENoVal s0 => SFailed (FType 3) s0 | EFail f s0 => SFailed f s0 | EFuel => SFuel end)).
-      { intros aB gB RB HipB (HGB & HopsB & HssB) HaB HfB.
-        assert (Hup : forall y c0, lookup_scopes y lL = Some c0 -> lookup_scopes y (locals env2) = Some c0).
-        { intros y c0 Hy. destruct (locals env2) as [|sc2 l2] eqn:E2l; [discriminate|]. cbn [tl] in Htl2. subst l2.
-          apply NS_lookup_tl; [|exact Hy]. rewrite <- E2l. exact (Rg_ns _ _ _ HGB). }
-        assert (Hlx2 : lookup_scopes x (locals env2) = Some cx) by (apply Hup; exact HlxL).
+      { intros aB gB RB HipB (HGB & HopsB & HssB) HaB HfB HidB.
+        assert (Hup : forall y c0, y <> hid -> lookup_scopes y lL = Some c0 -> lookup_scopes y (locals env2) = Some c0).
+        { intros y c0 Hyh Hy. destruct (locals env2) as [|sc2 l2] eqn:E2l; [discriminate|]. cbn [tl] in Htl2.
+          rewrite <- Htl2 in Hy. apply NS_lookup_tl; [|exact Hyh|exact Hy]. rewrite <- E2l. exact (Rg_ns _ _ _ HGB). }
         (* the step expression: the reference semantics evaluates it outside the loop scope; same result *)
         assert (Huse2 : forall y, In y (used_e se) -> uname y /\ lookup_scopes y (locals env2) <> None).
         { intros y Hy. destruct (Huse y Hy) as [Hun Hin]. split; [exact (bound_in_uname _ _ _ (HbL envL ElL) Hun Hin)|].
           pose proof (bound_in_look _ _ _ (HbL envL ElL) Hin) as Hbd. rewrite ElL in Hbd.
-          destruct (lookup_scopes y lL) as [c0|] eqn:Ey; [|congruence]. rewrite (Hup y c0 Ey). discriminate. }
+          destruct (lookup_scopes y lL) as [c0|] eqn:Ey; [|congruence].
+          rewrite (Hup y c0 (uname_not_hid _ (bound_in_uname _ _ _ (HbL envL ElL) Hun Hin)) Ey). discriminate. }
         assert (Hag : forall y, In y (used_e se) -> agree (pop_scope env2) s2 env2 s2 y).
         { intros y Hy. destruct (Huse2 y Hy) as [Hun Hbd].
-          destruct (Rg_lookup _ _ _ _ HGB Hun Hbd) as (c0 & c0x & v0 & F1 & _ & _ & F2' & _).
+          destruct (Rg_lookup _ _ _ _ HGB Hun Hbd) as (c0 & c0x & v0 & F1' & _ & _ & F2' & _).
           destruct (Huse y Hy) as [_ Hin]. pose proof (bound_in_look _ _ _ (HbL envL ElL) Hin) as Hbd0. rewrite ElL in Hbd0.
           destruct (lookup_scopes y lL) as [c1|] eqn:Ey; [|congruence].
-          assert (c1 = c0) by (pose proof (Hup y c1 Ey) as H0; congruence). subst c1.
+          assert (c1 = c0) by (pose proof (Hup y c1 (uname_not_hid _ Hun) Ey) as H0; congruence). subst c1.
           exists c0, c0, v0. split; [apply lookup_app_some; change (locals (pop_scope env2)) with (tl (locals env2)); rewrite Htl2; exact Ey|].
           split; [exact F2'|]. split; [now apply lookup_app_some|exact F2']. }
         destruct (eval_pure_congr se Hpse (S fuel) (pop_scope env2) s2 env2 s2 Hag) as [Hst_s Es].
-        pose proof (expr_run_gen pins' se c (S fuel) ks aB gB env2 s2 Hpse Hlse Huse2 ltac:(lia) Hcs'
+        pose proof (expr_run_gen (pL i) se c (S fuel) ks aB gB env2 s2 Hpse Hlse Huse2 ltac:(lia) Hcs'
                       ltac:(fold ls; unfold fin, kd, kj, kp in *; lia) HipB HopsB HGB) as Hes.
         rewrite Es in Hes. fold ls in Hes. fold kp in Hes.
         destruct (eval (S fuel) (pop_scope env2) se s2) as [sv s0|s0|f s0|]; cbn [res_to res_st] in Hst_s, Hes;
           [|contradiction| |exact Logic.I].
         2:{ subst s0. destruct Hes as (_ & e0 & g' & Hf & Hr & Ho). cbn [post]. apply fail_post_intro. exists e0, g'.
             split; [eapply xrun_fail; [exact R0|]; eapply xrun_fail; [exact RB|exact Hf]|]. split; [now apply err_rel_s_of|exact Ho]. }
-        subst s0. destruct Hes as (_ & Hfos & gE & RE & HGE & HfE).
+        subst s0. destruct Hes as (_ & Hfos & gE & RE & HGE & HfE & HlkE).
         set (aE := upd aB kp [inj sv]) in *.
-        destruct (Rg_lookup env2 s2 gE x HGE Hx ltac:(rewrite Hlx2; discriminate)) as (c2 & c2' & v2 & G1 & G2 & Hp2 & G3 & Hfo2 & G4).
-        rewrite Hlx2 in G1. inversion G1; subst c2. rewrite G3.
-        destruct v2 as [i'|?|?| |? ? ?]; try exact Logic.I.
-        destruct sv as [d|?|?| |? ? ?]; try exact Logic.I. cbn [inj] in G4.
-        pose proof (from_add_run kp x d aE gE c2' i' Hs2' eq_refl eq_refl G2 G4) as Hsr.
-        destruct (i32_ok (i' + d)%Z).
+        destruct (Rg_pins _ _ _ HGE) as [PVE PSE].
+        assert (G3 : sget s2 cx = Some (RInt i)) by exact (proj1 (PSE cx (RInt i) (or_introl (conj eq_refl eq_refl)))).
+        assert (G4 : cell_get gE c' = Some (VInt i)) by exact (proj1 (PVE c' (VInt i) (or_introl (conj eq_refl eq_refl)))).
+        assert (G2 : find_in_function idn (frames gE) = Some c') by exact (eq_trans (HlkE (S lr)) HidB).
+        rewrite G3.
+        destruct sv as [d|?|?| |? ? ?]; try exact Logic.I.
+        pose proof (from_add_run kp idn d aE gE c' i Hs2' eq_refl eq_refl G2 G4) as Hsr.
+        destruct (i32_ok (i + d)%Z).
         - destruct Hsr as (gS' & RS & EfS' & HRgS').
-          set (sS := sset s2 cx (RInt (i' + d)%Z)).
-          set (aS := upd aE (S kp) [VInt (i' + d)%Z]) in *.
-          set (gS := cell_set gS' c2' (VInt (i' + d)%Z)) in *.
-          assert (HGS : Rg pins' env2 sS gS).
-          { apply (update_rel env2 s2 gS' cx c2' (RInt (i' + d)%Z)); [apply HRgS'; exact HGE| |exact Logic.I].
-            rewrite EfS'. exact Hp2. }
-          destruct (back_edge_gen pins' kj (lbd + ls + 5) kc env2 sS aS gS Hj' ltac:(unfold fin, kd, kj, kp, ks in *; lia)
+          set (sS := sset s2 cx (RInt (i + d)%Z)).
+          set (aS := upd aE (S kp) [VInt (i + d)%Z]) in *.
+          set (gS := cell_set gS' c' (VInt (i + d)%Z)) in *.
+          assert (HGS : Rg (pL (i + d)%Z) env2 sS gS).
+          { apply (cpins_update pins cx c' i (i + d)%Z ce hi env2 s2 gS'); [apply HRgS'; exact HGE|exact HPv|exact HPs|exact HFv|exact HFs|exact Hcec]. }
+          destruct (back_edge_gen (pL (i + d)%Z) kj (lbd + ls + 5) kc env2 sS aS gS Hj' ltac:(unfold fin, kd, kj, kp, ks in *; lia)
                       ltac:(unfold fin, kd in *; lia) Hkj eq_refl HGS ltac:(rewrite Hlen2; cbn [lL length]; lia))
             as (gN & RN & HGN & EfN).
-          eapply (post_seq pins sl bt ct fin B envL (frames g) aL gL (pop_scope env2) (set_ip aS kc) gN).
+          eapply (post_seq pins lr sl bt ct fin B envL (frames g) aL gL (pop_scope env2) (set_ip aS kc) gN).
           + eapply xrun_trans; [exact R0|]. eapply xrun_trans; [exact RB|]. eapply xrun_trans; [exact RE|].
             eapply xrun_trans; [exact RS|exact RN].
-          + split; [rewrite Epop, ElL; reflexivity|rewrite Epop; discriminate].
+          + split; [rewrite Epop, ElL; reflexivity|rewrite Epop; exact HneLL].
           + destruct HaB as (A1 & A2 & A3). repeat split; assumption.
-          + apply IH; [exact Epop|exact HGN| |reflexivity|cbn [set_ip aS aE upd set_ops a_cb]; rewrite (proj2 (proj2 HaB)); exact HcbL|].
+          + apply (IH (i + d)%Z); [exact Epop|exact HGN| |reflexivity|cbn [set_ip aS aE upd set_ops a_cb]; rewrite (proj2 (proj2 HaB)); exact HcbL|].
             * rewrite EfN. change (frames gS) with (frames gS'). rewrite EfS', HfE. exact HfB.
-            * cbn [set_ip aS aE upd set_ops a_ss]. rewrite Hlen2 in HssB. cbn [lL length] in *. lia.
+            * cbn [set_ip aS aE upd set_ops a_ss]. rewrite Hlen2 in HssB. lia.
         - destruct Hsr as (g3x & Rf3 & Ho3). cbn [post fail_post]. exists (E_overflow OP_BIN_OP), g3x.
           split; [eapply xrun_fail; [exact R0|]; eapply xrun_fail; [exact RB|]; eapply xrun_fail; [exact RE|exact Rf3]|].
           split; [left; reflexivity|]. rewrite Ho3. exact (Rg_out _ _ _ HGE). }
@@ -2654,39 +3312,39 @@ Section Sim.
                       | EVal sv s0 => bump sv s0 | ENoVal s0 => SFailed (FType 3) s0
                       | EFail f s0 => SFailed f s0 | EFuel => SFuel end).
       { intros e' s' bump. unfold se. destruct step as [e|]; reflexivity. }
-      assert (Eg0 : frames g0 = {| lab := LWhile; vars := [] |} :: F2 :: R).
-      { unfold g0, push_frame. cbn [with_frames frames]. change (frames gct) with (frames gc). now rewrite Efc, EfL. }
       destruct sig as [| | |rv].
-      - destruct H as (_ & aB & gB & RB & HipB & HRB & HaB & HfB). rewrite Eg0 in HfB. cbn [tl] in HfB. cbv zeta. rewrite Hstepc.
-        apply (Hnext aB gB RB HipB HRB HaB HfB).
+      - destruct H as (_ & aB & gB & RB & HipB & HRB & HaB & HfB & HlkB). rewrite Eg0 in HfB. cbn [tl] in HfB. cbv zeta. rewrite Hstepc.
+        apply (Hnext aB gB RB HipB HRB HaB HfB). exact (eq_trans (HlkB (S lr) ltac:(lia)) Hid0).
       - (* break *)
         destruct H as (m & aB & gB & Esl & RB & HipB & HRB & HaB & HfB). inversion Esl; subst m.
         rewrite Eg0 in HfB. cbn [skipn] in HfB.
         rewrite popn_1 in HRB. destruct HRB as (HGB & HopsB & HssB).
-        destruct (Hexit aB gB (pop_scope env2) s2 Epop HGB HfB HipB HopsB ltac:(rewrite <- Epop; exact HssB))
-          as (a6 & g6 & R6 & Hip6 & HR6 & Ha6 & Hf6 & El6).
+        destruct (Hexit i aB gB (pop_scope env2) s2 Epop HGB HfB HipB HopsB ltac:(rewrite <- Epop; exact HssB))
+          as (a6 & g6 & R6 & Hip6 & HR6 & Ha6 & Hf6 & El6 & Hlk6).
         cbn [post]. split; [split; [rewrite El6, ElL; reflexivity|rewrite El6; discriminate]|].
-        split; [eapply bound_in_eq; [exact Hb|rewrite El6, El; reflexivity]|].
+        split; [exact (HbX _ El6)|].
         exists a6, g6. split; [eapply xrun_trans; [exact R0|]; eapply xrun_trans; eassumption|]. split; [exact Hip6|].
-        split; [exact HR6|]. split; [|rewrite Hf6; exact HR_tl].
+        split; [exact HR6|]. split; [|split; [rewrite Hf6; exact HR_tl|eapply lkeep_trans; [exact HlkF2|exact Hlk6]]].
         destruct HaB as (A1 & A2 & A3), Ha6 as (B1 & B2 & B3).
         repeat split; [rewrite B1, A1|rewrite B2, A2|rewrite B3, A3]; reflexivity.
       - (* continue *)
-        destruct H as (m & aB & gB & Esl & RB & HipB & HRB & HaB & HfB). inversion Esl; subst m.
+        destruct H as (m & aB & gB & Esl & RB & HipB & HRB & HaB & HfB & HlkB). inversion Esl; subst m.
         rewrite Eg0 in HfB. cbn [skipn] in HfB.
-        cbn [Nat.sub] in HRB. rewrite popn_0 in HRB. cbv zeta. rewrite Hstepc.
-        apply (Hnext aB gB RB HipB HRB HaB HfB).
+        cbn [Nat.sub] in HRB, HlkB. rewrite popn_0 in HRB. cbn [skipn] in HlkB. cbv zeta. rewrite Hstepc.
+        apply (Hnext aB gB RB HipB HRB HaB HfB). exact (eq_trans (HlkB (S lr) ltac:(lia)) Hid0).
       - (* return from inside the loop *)
         destruct rv as [v|]; [|destruct H].
         destruct H as (env'' & aB & gB & RB & HiB & HoB & HfoB & HGB & HaB).
         cbn [post]. split.
         { unfold undeclare. rewrite Epop. cbn [locals lL]. split; [rewrite ElL; reflexivity|discriminate]. }
         exists env'', aB, gB. split; [eapply xrun_trans; [exact R0|exact RB]|].
-        split; [exact HiB|]. split; [exact HoB|]. split; [exact HfoB|]. split; [eapply Rg_weaken_pin; exact HGB|].
+        split; [exact HiB|]. split; [exact HoB|]. split; [exact HfoB|].
+        split; [eapply Rg_pins_imp; [exact HGB|intros cy w Hq; right; right; exact Hq|intros c0 v0 Hq; right; exact Hq]|].
         destruct HaB as (A1 & A2 & A3). repeat split; assumption. }
     (* ---- put the pieces together *)
-    eapply (post_seq pins sl bt ct fin B env (frames g) a g env1 a4 g4); [exact R4|exact Hd2|repeat split|].
-    apply Hloop; [exact El1|exact HG4|exact Ef4|exact Hip4|exact Hacb|].
+    eapply (post_seq pins lr sl bt ct fin B env (frames g) a g env1 a4 g4); [exact R4| |repeat split|].
+    { split; [cbn [env1 locals lL tl]; rewrite El; reflexivity|discriminate]. }
+    apply (Hloop (S fuel) i0); [reflexivity|exact HG4'|exact Ef4|exact Hip4|exact Hacb|].
     unfold lL, a4. cbn [length upd set_ip set_ops a_ss] in *. exact Hss.
   Qed.
 
@@ -2699,7 +3357,7 @@ Section Sim.
 
   Lemma return_correct : forall e, stmt_spec (SReturn (Some e)).
   Proof.
-    intros e pins lr il sl bt ct fuel k a g env s B Hfu Hok Hb Hit Hend Hlc Hip Hcb HR.
+    intros e pins lr il sl bt ct fuel k a g env s B Hfu Hlr Hok Hb Hit Hend Hlc Hip Hcb HR.
     destruct fuel as [|fuel]; [exact Logic.I|].
     cbn [ok_stmt] in Hok. rename Hok into Hoe.
     cbn [sitems] in *. rewrite app_length, map_length in *. cbn [length] in *.
@@ -2710,7 +3368,7 @@ Section Sim.
     pose proof (rhs_run pins e fuel k a g env s B ltac:(lia) Hoe Hb Hce Hend' Hip Hcb Hops HG) as He.
     rewrite exec_SReturn.
     destruct (eval fuel env e s) as [v s1|s1|f s1|]; cbn [rhs_res] in He; [|exact Logic.I|exact He|exact Logic.I].
-    destruct He as (Hfo & a1 & g1 & R1 & Hip1 & Hops1 & HG1 & Hf1 & Ha1 & Hss1).
+    destruct He as (Hfo & a1 & g1 & R1 & Hip1 & Hops1 & HG1 & Hf1 & Ha1 & Hss1 & Hlk1).
     cbn [post]. split; [apply same_tl_refl; exact (Rg_ne _ _ _ HG)|].
     exists env, a1, g1.
     split; [exact R1|]. split; [rewrite Hip1; exact Hi1|]. split; [exact Hops1|]. split; [exact Hfo|]. split; [exact HG1|exact Ha1].
@@ -2721,7 +3379,7 @@ Section Sim.
   Proof.
     apply (stmt_ind' (fun _ => True) stmt_spec); try (intros; exact Logic.I).
     - intros x e _. apply assign_correct.
-    - intros x e _ pins lr il sl bt ct fuel k a g env s B Hok. discriminate.
+    - intros x e _ pins lr il sl bt ct fuel k a g env s B Hfu Hlr Hok. discriminate.
     - intros x o e _. apply opassign_correct.
     - intros e _. apply print_correct.
     - intros e sp _. apply assert_correct.
@@ -2731,11 +3389,15 @@ Section Sim.
     - intros cnd b n _ Hb Hn. apply ifelif_correct; [now apply block_of_stmts|exact Hn].
     - intros cnd b _ Hb. apply while_correct. now apply block_of_stmts.
     - intros a b incl step nm col body _ _ _ Hbody.
-      destruct nm as [x|]; [destruct col|]; try (intros pins lr il sl bt ct fuel k a0 g env s B Hok; discriminate).
-      apply from_correct. now apply block_of_stmts.
+      destruct nm as [x|].
+      + apply from_named_correct. now apply block_of_stmts.
+      + destruct col.
+        * intros pins lr il sl bt ct fuel k a0 g env s B Hfu Hlr Hok. rewrite ok_SFrom in Hok.
+          rewrite Bool.andb_false_r in Hok. discriminate.
+        * apply from_anon_correct. now apply block_of_stmts.
     - apply break_correct.
     - apply continue_correct.
-    - intros [e|] _; [apply return_correct|]. intros pins lr il sl bt ct fuel k a g env s B Hok. discriminate.
+    - intros [e|] _; [apply return_correct|]. intros pins lr il sl bt ct fuel k a g env s B Hfu Hlr Hok. discriminate.
   Qed.
 
   Theorem block_sim : forall l, block_spec l.
@@ -2786,8 +3448,7 @@ Proof.
     pose proof (bitems_CI c b Hb B lr (option_map S sl) H2). pose proof (Hn B lr (option_map S sl) H3). ci_tac.
   - intros cnd b _ Hb B lr sl H. rewrite sitems_SWhile. cbv zeta. ci_tac.
   - intros a b incl step nm col body _ _ _ _ B lr sl H.
-    destruct nm as [x|]; [destruct col|]; try discriminate.
-    rewrite sitems_SFrom. cbv zeta. destruct step as [e|]; cbn [step_code]; ci_tac.
+    rewrite sitems_SFrom. cbv zeta. destruct col; destruct step as [e|]; cbn [step_code]; ci_tac.
   - intros B sl H. discriminate.
   - intros B sl H. discriminate.
   - intros [e|] _ B lr sl H; [|discriminate]. cbn [sitems]. ci_tac.
@@ -2820,7 +3481,7 @@ Theorem cblock_correct : forall l B, ok_block FT SP false B l = true ->
   let mid := strip (fst (cblockT path c None l st)) in
   let code := pre ++ mid ++ post_ in
   let fin := length pre + length mid in
-  (post_ <> [] \/ ends_ret l = true) -> small (c + 2 * length code + 8) ->
+  (post_ <> [] \/ ends_ret l = true) -> small (c + 2 * length code + 8) -> lreg st <= 2 * length pre ->
   a_ip a = length pre -> a_cb a = cb -> Rst pins env s a g -> bound_in B env ->
   (forall fuel', fuel' < fuel -> call_ok prog fuel') ->
   (forall fuel', fuel' < fuel -> self_ok prog fuel') ->
@@ -2838,11 +3499,11 @@ Theorem cblock_correct : forall l B, ok_block FT SP false B l = true ->
   | SFuel => True
   end.
 Proof.
-  intros l B Hok c st pins prog name pre post_ a g env s fuel mid code fin Hpost Hsm Hip Hcb HR Hb Hcall Hself.
+  intros l B Hok c st pins prog name pre post_ a g env s fuel mid code fin Hpost Hsm Hlr Hip Hcb HR Hb Hcall Hself.
   pose proof (bitems_all_CI c l B (lreg st) None Hok) as HCI.
   assert (Emid : mid = strip (bitems c (lreg st) None l)) by (unfold mid; now rewrite (cblockT_ok path c l FT SP false B None st Hok)).
   assert (Elen : length mid = length (bitems c (lreg st) None l)) by (rewrite Emid; now apply strip_CI_length).
-  pose proof (block_sim prog name code c Hsm fuel Hcall Hself l pins (lreg st) false None 0 0 fuel (length pre) a g env s B (le_n _) Hok Hb) as H.
+  pose proof (block_sim prog name code c Hsm fuel Hcall Hself l pins (lreg st) false None 0 0 fuel (length pre) a g env s B (le_n _) Hlr Hok Hb) as H.
   rewrite <- Elen in H. fold fin in H.
   assert (Hit : items_at code 0 0 (length pre) (bitems c (lreg st) None l)).
   { apply items_at_strip; [exact HCI|]. rewrite <- Emid. apply code_at_embed. }
@@ -2854,7 +3515,7 @@ Proof.
   specialize (H Hit Hend Hlc Hip Hcb HR).
   destruct (exec_block fuel env l s) as [sig env' s'|f s'|]; [| |exact Logic.I].
   - cbn [post] in H. destruct H as [Hd H]. destruct sig as [| | |rv].
-    + destruct H as (HB' & a' & g' & R & Hip' & HR' & Ha). exists a', g'. split; [exact R|]. split; [exact Hip'|]. split; [exact HR'|]. split; [exact (proj1 Ha)|]. split; [exact Hd|]. split; [exact HB'|exact (proj2 Ha)].
+    + destruct H as (HB' & a' & g' & R & Hip' & HR' & Ha). exists a', g'. split; [exact R|]. split; [exact Hip'|]. split; [exact HR'|]. split; [exact (proj1 Ha)|]. split; [exact Hd|]. split; [exact HB'|exact (proj1 (proj2 Ha))].
     + destruct H as (m & ? & ? & E & _). discriminate.
     + destruct H as (m & ? & ? & E & _). discriminate.
     + destruct rv as [v|]; exact H.
@@ -2930,7 +3591,7 @@ Proof.
                 {| locals := [[]]; captured := []; cur := None |} {| store := []; rout := [] |} fuel) as H.
   cbv zeta in H. rewrite (cblockT_ok path 0 p [] None false [] None _ Hok) in H. cbn [fst app length Nat.add lreg] in H.
   fold (module_code p) in H.
-  specialize (H ltac:(left; discriminate) Hsm eq_refl eq_refl (Rst_init name) ltac:(split; [intros x; cbn; split; [congruence|intros [[]|[]]]|intros x []])
+  specialize (H ltac:(left; discriminate) Hsm (le_n _) eq_refl eq_refl (Rst_init name) ltac:(split; [intros x _; cbn; split; [congruence|intros [[]|[]]]|intros x []])
                 ltac:(intros fuel' _ f ps body c0 c0' cenv cbf E; discriminate)
                 ltac:(intros fuel' _ ps body cenv E; discriminate)).
   unfold run in *.
